@@ -9,15 +9,11 @@ type nat =
 | O
 | S of nat
 
-(** val fst : ('a1 * 'a2) -> 'a1 **)
+(** val option_map : ('a1 -> 'a2) -> 'a1 option -> 'a2 option **)
 
-let fst = function
-| (x, _) -> x
-
-(** val snd : ('a1 * 'a2) -> 'a2 **)
-
-let snd = function
-| (_, y) -> y
+let option_map f = function
+| Some a -> Some (f a)
+| None -> None
 
 (** val length : 'a1 list -> nat **)
 
@@ -53,6 +49,15 @@ module Coq__1 = struct
 end
 include Coq__1
 
+(** val sub : nat -> nat -> nat **)
+
+let rec sub n0 m =
+  match n0 with
+  | O -> n0
+  | S k -> (match m with
+            | O -> n0
+            | S l -> sub k l)
+
 type positive =
 | XI of positive
 | XO of positive
@@ -66,34 +71,6 @@ type z =
 | Z0
 | Zpos of positive
 | Zneg of positive
-
-(** val eqb : bool -> bool -> bool **)
-
-let eqb b1 b2 =
-  if b1 then b2 else if b2 then false else true
-
-module Nat =
- struct
-  (** val eqb : nat -> nat -> bool **)
-
-  let rec eqb n0 m =
-    match n0 with
-    | O -> (match m with
-            | O -> true
-            | S _ -> false)
-    | S n' -> (match m with
-               | O -> false
-               | S m' -> eqb n' m')
-
-  (** val min : nat -> nat -> nat **)
-
-  let rec min n0 m =
-    match n0 with
-    | O -> O
-    | S n' -> (match m with
-               | O -> O
-               | S m' -> S (min n' m'))
- end
 
 module Pos =
  struct
@@ -171,6 +148,20 @@ module Pos =
   | XI n' -> f (iter f (iter f x n') n')
   | XO n' -> iter f (iter f x n') n'
   | XH -> f x
+
+  (** val div2 : positive -> positive **)
+
+  let div2 = function
+  | XI p0 -> p0
+  | XO p0 -> p0
+  | XH -> XH
+
+  (** val div2_up : positive -> positive **)
+
+  let div2_up = function
+  | XI p0 -> succ p0
+  | XO p0 -> p0
+  | XH -> XH
 
   (** val compare_cont : comparison -> positive -> positive -> comparison **)
 
@@ -275,19 +266,25 @@ module Pos =
              | XO _ -> Npos XH
              | _ -> N0)
 
-  (** val testbit : positive -> n -> bool **)
+  (** val coq_lxor : positive -> positive -> n **)
 
-  let rec testbit p n0 =
+  let rec coq_lxor p q =
     match p with
-    | XI p0 -> (match n0 with
-                | N0 -> true
-                | Npos n1 -> testbit p0 (pred_N n1))
-    | XO p0 -> (match n0 with
-                | N0 -> false
-                | Npos n1 -> testbit p0 (pred_N n1))
-    | XH -> (match n0 with
-             | N0 -> true
-             | Npos _ -> false)
+    | XI p0 ->
+      (match q with
+       | XI q0 -> coq_Ndouble (coq_lxor p0 q0)
+       | XO q0 -> coq_Nsucc_double (coq_lxor p0 q0)
+       | XH -> Npos (XO p0))
+    | XO p0 ->
+      (match q with
+       | XI q0 -> coq_Nsucc_double (coq_lxor p0 q0)
+       | XO q0 -> coq_Ndouble (coq_lxor p0 q0)
+       | XH -> Npos (XI p0))
+    | XH ->
+      (match q with
+       | XI q0 -> Npos (XO q0)
+       | XO q0 -> Npos (XI q0)
+       | XH -> N0)
 
   (** val iter_op : ('a1 -> 'a1 -> 'a1) -> positive -> 'a1 -> 'a1 **)
 
@@ -335,12 +332,14 @@ module N =
                  | N0 -> n0
                  | Npos q -> Pos.ldiff p q)
 
-  (** val testbit : n -> n -> bool **)
+  (** val coq_lxor : n -> n -> n **)
 
-  let testbit a n0 =
-    match a with
-    | N0 -> false
-    | Npos p -> Pos.testbit p n0
+  let coq_lxor n0 m =
+    match n0 with
+    | N0 -> m
+    | Npos p -> (match m with
+                 | N0 -> n0
+                 | Npos q -> Pos.coq_lxor p q)
  end
 
 module Z =
@@ -505,20 +504,6 @@ module Z =
                  | Zneg q -> Pos.eqb p q
                  | _ -> false)
 
-  (** val max : z -> z -> z **)
-
-  let max n0 m =
-    match compare n0 m with
-    | Lt -> m
-    | _ -> n0
-
-  (** val min : z -> z -> z **)
-
-  let min n0 m =
-    match compare n0 m with
-    | Gt -> m
-    | _ -> n0
-
   (** val to_nat : z -> nat **)
 
   let to_nat = function
@@ -589,27 +574,26 @@ module Z =
   let modulo a b =
     let (_, r) = div_eucl a b in r
 
-  (** val odd : z -> bool **)
+  (** val div2 : z -> z **)
 
-  let odd = function
-  | Z0 -> false
+  let div2 = function
+  | Z0 -> Z0
   | Zpos p -> (match p with
-               | XO _ -> false
-               | _ -> true)
-  | Zneg p -> (match p with
-               | XO _ -> false
-               | _ -> true)
+               | XH -> Z0
+               | _ -> Zpos (Pos.div2 p))
+  | Zneg p -> Zneg (Pos.div2_up p)
 
-  (** val testbit : z -> z -> bool **)
+  (** val shiftl : z -> z -> z **)
 
-  let testbit a = function
-  | Z0 -> odd a
-  | Zpos p ->
-    (match a with
-     | Z0 -> false
-     | Zpos a0 -> Pos.testbit a0 (Npos p)
-     | Zneg a0 -> negb (N.testbit (Pos.pred_N a0) (Npos p)))
-  | Zneg _ -> false
+  let shiftl a = function
+  | Z0 -> a
+  | Zpos p -> Pos.iter (mul (Zpos (XO XH))) a p
+  | Zneg p -> Pos.iter div2 a p
+
+  (** val shiftr : z -> z -> z **)
+
+  let shiftr a n0 =
+    shiftl a (opp n0)
 
   (** val coq_land : z -> z -> z **)
 
@@ -628,78 +612,57 @@ module Z =
        | Zneg b0 ->
          Zneg (N.succ_pos (N.coq_lor (Pos.pred_N a0) (Pos.pred_N b0))))
 
+  (** val coq_lxor : z -> z -> z **)
+
+  let coq_lxor a b =
+    match a with
+    | Z0 -> b
+    | Zpos a0 ->
+      (match b with
+       | Z0 -> a
+       | Zpos b0 -> of_N (Pos.coq_lxor a0 b0)
+       | Zneg b0 -> Zneg (N.succ_pos (N.coq_lxor (Npos a0) (Pos.pred_N b0))))
+    | Zneg a0 ->
+      (match b with
+       | Z0 -> a
+       | Zpos b0 -> Zneg (N.succ_pos (N.coq_lxor (Pos.pred_N a0) (Npos b0)))
+       | Zneg b0 -> of_N (N.coq_lxor (Pos.pred_N a0) (Pos.pred_N b0)))
+
   (** val lnot : z -> z **)
 
   let lnot a =
     pred (opp a)
  end
 
-(** val tl : 'a1 list -> 'a1 list **)
+(** val nth : nat -> 'a1 list -> 'a1 -> 'a1 **)
 
-let tl = function
+let rec nth n0 l default =
+  match n0 with
+  | O -> (match l with
+          | [] -> default
+          | x :: _ -> x)
+  | S m -> (match l with
+            | [] -> default
+            | _ :: t -> nth m t default)
+
+(** val flat_map : ('a1 -> 'a2 list) -> 'a1 list -> 'a2 list **)
+
+let rec flat_map f = function
 | [] -> []
-| _ :: m -> m
+| x :: t -> app (f x) (flat_map f t)
 
-(** val last : 'a1 list -> 'a1 -> 'a1 **)
+(** val fold_left : ('a1 -> 'a2 -> 'a1) -> 'a2 list -> 'a1 -> 'a1 **)
 
-let rec last l d =
+let rec fold_left f l a0 =
   match l with
-  | [] -> d
-  | a :: l0 -> (match l0 with
-                | [] -> a
-                | _ :: _ -> last l0 d)
-
-(** val rev : 'a1 list -> 'a1 list **)
-
-let rec rev = function
-| [] -> []
-| x :: l' -> app (rev l') (x :: [])
-
-(** val concat : 'a1 list list -> 'a1 list **)
-
-let rec concat = function
-| [] -> []
-| x :: l0 -> app x (concat l0)
-
-(** val map : ('a1 -> 'a2) -> 'a1 list -> 'a2 list **)
-
-let rec map f = function
-| [] -> []
-| a :: t -> (f a) :: (map f t)
-
-(** val fold_right : ('a2 -> 'a1 -> 'a1) -> 'a1 -> 'a2 list -> 'a1 **)
-
-let rec fold_right f a0 = function
-| [] -> a0
-| b :: t -> f b (fold_right f a0 t)
-
-(** val existsb : ('a1 -> bool) -> 'a1 list -> bool **)
-
-let rec existsb f = function
-| [] -> false
-| a :: l0 -> (||) (f a) (existsb f l0)
+  | [] -> a0
+  | b :: t -> fold_left f t (f a0 b)
 
 (** val forallb : ('a1 -> bool) -> 'a1 list -> bool **)
 
 let rec forallb f = function
 | [] -> true
 | a :: l0 -> (&&) (f a) (forallb f l0)
-
-(** val filter : ('a1 -> bool) -> 'a1 list -> 'a1 list **)
-
-let rec filter f = function
-| [] -> []
-| x :: l0 -> if f x then x :: (filter f l0) else filter f l0
-
-(** val combine : 'a1 list -> 'a2 list -> ('a1 * 'a2) list **)
-
-let rec combine l l' =
-  match l with
-  | [] -> []
-  | x :: tl0 ->
-    (match l' with
-     | [] -> []
-     | y :: tl' -> (x, y) :: (combine tl0 tl'))
 
 (** val firstn : nat -> 'a1 list -> 'a1 list **)
 
@@ -719,11 +682,16 @@ let rec skipn n0 l =
              | [] -> []
              | _ :: l0 -> skipn n1 l0)
 
-(** val seq : nat -> nat -> nat list **)
+(** val repeat : 'a1 -> nat -> 'a1 list **)
 
-let rec seq start = function
+let rec repeat x = function
 | O -> []
-| S len0 -> start :: (seq (S start) len0)
+| S k -> x :: (repeat x k)
+
+(** val uw : z -> z -> z **)
+
+let uw bits x =
+  Z.modulo x (Z.pow (Zpos (XO XH)) bits)
 
 (** val sw : z -> z -> z **)
 
@@ -732,30 +700,6 @@ let sw bits x =
     (Z.modulo (Z.add x (Z.pow (Zpos (XO XH)) (Z.sub bits (Zpos XH))))
       (Z.pow (Zpos (XO XH)) bits))
     (Z.pow (Zpos (XO XH)) (Z.sub bits (Zpos XH)))
-
-(** val read_vnum_loop : z list -> z -> z -> nat -> (z * nat) option **)
-
-let rec read_vnum_loop buf base acc i =
-  match buf with
-  | [] -> None
-  | b :: rest ->
-    if Z.ltb b (Zpos (XO (XO (XO (XO (XO (XO (XO XH))))))))
-    then Some ((Z.add acc (Z.mul base b)), (S i))
-    else read_vnum_loop rest
-           (Z.mul base (Zpos (XO (XO (XO (XO (XO (XO (XO XH)))))))))
-           (Z.add acc
-             (Z.mul base
-               (Z.sub (Zpos (XI (XI (XI (XI (XI (XI (XI XH)))))))) b))) (S i)
-
-(** val read_vnum : z list -> (z * nat) option **)
-
-let read_vnum buf =
-  read_vnum_loop buf (Zpos XH) Z0 O
-
-(** val iWNUMBUF_SIZE : z **)
-
-let iWNUMBUF_SIZE =
-  Zpos (XO (XO (XO (XO (XO XH)))))
 
 (** val iWFSM_CUSTOM_HDR_DATA_OFFSET : z **)
 
@@ -769,1270 +713,1793 @@ let iWKV_MAGIC =
     (XI (XI (XO (XI (XI (XI (XO (XI (XO (XO (XI (XO (XI
     XH))))))))))))))))))))))))))))))
 
-(** val iWDB_MAGIC : z **)
+(** val iWKV_BACKUP_MAGIC : z **)
 
-let iWDB_MAGIC =
-  Zpos (XO (XI (XO (XO (XO (XI (XI (XO (XO (XO (XI (XO (XO (XI (XI (XO (XI
-    (XI (XI (XO (XI (XI (XI (XO (XI (XO (XO (XI (XO (XI
-    XH))))))))))))))))))))))))))))))
+let iWKV_BACKUP_MAGIC =
+  Zpos (XI (XO (XO (XI (XO (XI (XI (XO (XO (XO (XI (XI (XO (XI (XO (XI (XI
+    (XI (XO (XI (XO (XO (XI (XI (XO (XI (XO (XI (XI (XI (XO
+    XH)))))))))))))))))))))))))))))))
 
-(** val iWKV_FSM_BPOW : z **)
+(** val wOP_SET : z **)
 
-let iWKV_FSM_BPOW =
-  Zpos (XI (XI XH))
-
-(** val kVHDRSZ : z **)
-
-let kVHDRSZ =
-  Zpos (XI (XI (XI (XI (XI (XI (XI XH)))))))
-
-(** val pREFIX_KEY_LEN_V2 : z **)
-
-let pREFIX_KEY_LEN_V2 =
-  Zpos (XI (XI (XO (XO (XI (XI XH))))))
-
-(** val sLEVELS : z **)
-
-let sLEVELS =
-  Zpos (XO (XO (XO (XI XH))))
-
-(** val sBLK_LKLEN : z **)
-
-let sBLK_LKLEN =
-  Zpos (XI (XI (XO (XO (XI (XI XH))))))
-
-(** val dB_SZ : z **)
-
-let dB_SZ =
-  Zpos (XO (XO (XO (XO (XO (XO (XO (XO XH))))))))
-
-(** val sBLK_SZ : z **)
-
-let sBLK_SZ =
-  Zpos (XO (XO (XO (XO (XO (XO (XO (XO XH))))))))
-
-(** val sBLK_PAGE_SBLK_NUM_V2 : z **)
-
-let sBLK_PAGE_SBLK_NUM_V2 =
-  Zpos (XO (XO (XO (XO XH))))
-
-(** val sBLK_PAGE_SZ_V2 : z **)
-
-let sBLK_PAGE_SZ_V2 =
-  Zpos (XO (XO (XO (XO (XO (XO (XO (XO (XO (XO (XO (XO XH))))))))))))
-
-(** val kVBLK_IDXNUM : z **)
-
-let kVBLK_IDXNUM =
-  Zpos (XO (XO (XO (XO (XO XH)))))
-
-(** val kVBLK_INISZPOW : z **)
-
-let kVBLK_INISZPOW =
-  Zpos (XI (XO (XO XH)))
-
-(** val kVBLK_HDRSZ : z **)
-
-let kVBLK_HDRSZ =
-  Zpos (XI XH)
-
-(** val sOFF_FLAGS_U1 : z **)
-
-let sOFF_FLAGS_U1 =
-  Z0
-
-(** val sOFF_LVL_U1 : z **)
-
-let sOFF_LVL_U1 =
+let wOP_SET =
   Zpos XH
 
-(** val sOFF_LKL_U1 : z **)
+(** val wOP_COPY : z **)
 
-let sOFF_LKL_U1 =
+let wOP_COPY =
   Zpos (XO XH)
 
-(** val sOFF_PNUM_U1 : z **)
+(** val wOP_WRITE : z **)
 
-let sOFF_PNUM_U1 =
+let wOP_WRITE =
   Zpos (XI XH)
 
-(** val sOFF_P0_U4 : z **)
+(** val wOP_RESIZE : z **)
 
-let sOFF_P0_U4 =
+let wOP_RESIZE =
   Zpos (XO (XO XH))
 
-(** val sOFF_KBLK_U4 : z **)
+(** val wOP_SAVEPOINT : z **)
 
-let sOFF_KBLK_U4 =
-  Zpos (XO (XO (XO XH)))
+let wOP_SAVEPOINT =
+  Zpos (XI (XO XH))
 
-(** val sOFF_PI0_U1 : z **)
+(** val wOP_RESET : z **)
 
-let sOFF_PI0_U1 =
+let wOP_RESET =
+  Zpos (XO (XI XH))
+
+(** val wOP_SEP : z **)
+
+let wOP_SEP =
+  Zpos (XI (XI (XI (XI (XI (XI XH))))))
+
+(** val sizeof_WBSEP : z **)
+
+let sizeof_WBSEP =
   Zpos (XO (XO (XI XH)))
 
-(** val sOFF_N0_U4 : z **)
+(** val sizeof_WBRESET : z **)
 
-let sOFF_N0_U4 =
-  Zpos (XO (XO (XI (XI (XO XH)))))
-
-(** val sOFF_BPOS_U1_V2 : z **)
-
-let sOFF_BPOS_U1_V2 =
-  Zpos (XO (XO (XI (XI (XO (XO (XO XH)))))))
-
-(** val sOFF_LK_V2 : z **)
-
-let sOFF_LK_V2 =
-  Zpos (XI (XO (XI (XI (XO (XO (XO XH)))))))
-
-(** val dOFF_MAGIC_U4 : z **)
-
-let dOFF_MAGIC_U4 =
-  Z0
-
-(** val dOFF_DBFLG_U1 : z **)
-
-let dOFF_DBFLG_U1 =
+let sizeof_WBRESET =
   Zpos (XO (XO XH))
 
-(** val dOFF_NEXTDB_U4 : z **)
+(** val sizeof_WBSET : z **)
 
-let dOFF_NEXTDB_U4 =
-  Zpos (XI (XO (XO XH)))
+let sizeof_WBSET =
+  Zpos (XO (XO (XO (XI XH))))
 
-(** val dOFF_P0_U4 : z **)
+(** val sizeof_WBCOPY : z **)
 
-let dOFF_P0_U4 =
-  Zpos (XI (XO (XI XH)))
+let sizeof_WBCOPY =
+  Zpos (XO (XO (XI (XI XH))))
 
-(** val dOFF_N0_U4 : z **)
+(** val sizeof_WBWRITE : z **)
 
-let dOFF_N0_U4 =
-  Zpos (XI (XO (XO (XO XH))))
+let sizeof_WBWRITE =
+  Zpos (XO (XO (XI (XO XH))))
 
-(** val dOFF_C0_U4 : z **)
+(** val sizeof_WBRESIZE : z **)
 
-let dOFF_C0_U4 =
-  Zpos (XI (XO (XO (XO (XI (XI XH))))))
+let sizeof_WBRESIZE =
+  Zpos (XO (XO (XI (XO XH))))
 
-(** val dOFF_METABLK_U4 : z **)
+(** val sizeof_WBSAVEPOINT : z **)
 
-let dOFF_METABLK_U4 =
-  Zpos (XI (XO (XO (XO (XI (XO (XI XH)))))))
+let sizeof_WBSAVEPOINT =
+  Zpos (XO (XO (XI XH)))
 
-(** val dOFF_METABLKN_U4 : z **)
+(** val offsetof_WBSEP_crc : z **)
 
-let dOFF_METABLKN_U4 =
-  Zpos (XI (XO (XI (XO (XI (XO (XI XH)))))))
+let offsetof_WBSEP_crc =
+  Zpos (XO (XO XH))
 
-(** val sBLK_FULL_LKEY : z **)
+(** val offsetof_WBSEP_len : z **)
 
-let sBLK_FULL_LKEY =
-  Zpos XH
+let offsetof_WBSEP_len =
+  Zpos (XO (XO (XO XH)))
 
-(** val iW_VNUMBUFSZ : z **)
+(** val offsetof_WBSET_val : z **)
 
-let iW_VNUMBUFSZ =
-  Zpos (XO (XI (XO XH)))
+let offsetof_WBSET_val =
+  Zpos (XO (XO XH))
 
-(** val iWDB_VNUM64_KEYS : z **)
+(** val offsetof_WBSET_off : z **)
 
-let iWDB_VNUM64_KEYS =
-  Zpos (XO (XO (XO (XO (XO XH)))))
+let offsetof_WBSET_off =
+  Zpos (XO (XO (XO XH)))
 
-(** val iWDB_REALNUM_KEYS : z **)
+(** val offsetof_WBSET_len : z **)
 
-let iWDB_REALNUM_KEYS =
+let offsetof_WBSET_len =
   Zpos (XO (XO (XO (XO XH))))
 
-(** val iWDB_COMPOUND_KEYS : z **)
+(** val offsetof_WBCOPY_off : z **)
 
-let iWDB_COMPOUND_KEYS =
-  Zpos (XO (XO (XO (XO (XO (XO XH))))))
+let offsetof_WBCOPY_off =
+  Zpos (XO (XO XH))
 
-(** val iWFSM_MAGICK : z **)
+(** val offsetof_WBCOPY_len : z **)
 
-let iWFSM_MAGICK =
+let offsetof_WBCOPY_len =
+  Zpos (XO (XO (XI XH)))
+
+(** val offsetof_WBCOPY_noff : z **)
+
+let offsetof_WBCOPY_noff =
+  Zpos (XO (XO (XI (XO XH))))
+
+(** val offsetof_WBWRITE_crc : z **)
+
+let offsetof_WBWRITE_crc =
+  Zpos (XO (XO XH))
+
+(** val offsetof_WBWRITE_len : z **)
+
+let offsetof_WBWRITE_len =
+  Zpos (XO (XO (XO XH)))
+
+(** val offsetof_WBWRITE_off : z **)
+
+let offsetof_WBWRITE_off =
+  Zpos (XO (XO (XI XH)))
+
+(** val offsetof_WBRESIZE_osize : z **)
+
+let offsetof_WBRESIZE_osize =
+  Zpos (XO (XO XH))
+
+(** val offsetof_WBRESIZE_nsize : z **)
+
+let offsetof_WBRESIZE_nsize =
+  Zpos (XO (XO (XI XH)))
+
+(** val offsetof_WBSAVEPOINT_ts : z **)
+
+let offsetof_WBSAVEPOINT_ts =
+  Zpos (XO (XO XH))
+
+(** val iwu_crc32_table : z list **)
+
+let iwu_crc32_table =
+  Z0 :: ((Zpos (XI (XI (XI (XO (XI (XI (XO (XI (XI (XO (XI (XI (XI (XO (XO
+    (XO (XI (XO (XO (XO (XO (XO (XI (XI (XO (XO
+    XH))))))))))))))))))))))))))) :: ((Zpos (XO (XI (XI (XI (XO (XI (XI (XO
+    (XI (XI (XO (XI (XI (XI (XO (XO (XO (XI (XO (XO (XO (XO (XO (XI (XI (XO
+    (XO XH)))))))))))))))))))))))))))) :: ((Zpos (XI (XO (XO (XI (XI (XO (XI
+    (XI (XO (XI (XI (XO (XO (XI (XO (XO (XI (XI (XO (XO (XO (XO (XI (XO (XI
+    (XO (XI XH)))))))))))))))))))))))))))) :: ((Zpos (XO (XO (XI (XI (XI (XO
+    (XI (XI (XO (XI (XI (XO (XI (XI (XI (XO (XO (XO (XI (XO (XO (XO (XO (XO
+    (XI (XI (XO (XO XH))))))))))))))))))))))))))))) :: ((Zpos (XI (XI (XO (XI
+    (XO (XI (XI (XO (XI (XI (XO (XI (XO (XI (XI (XO (XI (XO (XI (XO (XO (XO
+    (XI (XI (XI (XI (XI (XO XH))))))))))))))))))))))))))))) :: ((Zpos (XO (XI
+    (XO (XO (XI (XI (XO (XI (XI (XO (XI (XI (XO (XO (XI (XO (XO (XI (XI (XO
+    (XO (XO (XO (XI (XO (XI (XO (XI XH))))))))))))))))))))))))))))) :: ((Zpos
+    (XI (XO (XI (XO (XO (XO (XO (XO (XO (XO (XO (XO (XI (XO (XI (XO (XI (XI
+    (XI (XO (XO (XO (XI (XO (XO (XI (XI (XI
+    XH))))))))))))))))))))))))))))) :: ((Zpos (XO (XO (XO (XI (XI (XI (XO (XI
+    (XI (XO (XI (XI (XO (XI (XI (XI (XO (XO (XO (XI (XO (XO (XO (XO (XO (XI
+    (XI (XO (XO XH)))))))))))))))))))))))))))))) :: ((Zpos (XI (XI (XI (XI
+    (XO (XO (XO (XO (XO (XO (XO (XO (XI (XI (XI (XI (XI (XO (XO (XI (XO (XO
+    (XI (XI (XO (XI (XO (XO (XO XH)))))))))))))))))))))))))))))) :: ((Zpos
+    (XO (XI (XI (XO (XI (XO (XI (XI (XO (XI (XI (XO (XI (XO (XI (XI (XO (XI
+    (XO (XI (XO (XO (XO (XI (XI (XI (XI (XI (XO
+    XH)))))))))))))))))))))))))))))) :: ((Zpos (XI (XO (XO (XO (XO (XI (XI
+    (XO (XI (XI (XO (XI (XO (XO (XI (XI (XI (XI (XO (XI (XO (XO (XI (XO (XI
+    (XI (XO (XI (XO XH)))))))))))))))))))))))))))))) :: ((Zpos (XO (XO (XI
+    (XO (XO (XI (XI (XO (XI (XI (XO (XI (XI (XO (XO (XI (XO (XO (XI (XI (XO
+    (XO (XO (XO (XI (XO (XI (XO (XI
+    XH)))))))))))))))))))))))))))))) :: ((Zpos (XI (XI (XO (XO (XI (XO (XI
+    (XI (XO (XI (XI (XO (XO (XO (XO (XI (XI (XO (XI (XI (XO (XO (XI (XI (XI
+    (XO (XO (XO (XI XH)))))))))))))))))))))))))))))) :: ((Zpos (XO (XI (XO
+    (XI (XO (XO (XO (XO (XO (XO (XO (XO (XO (XI (XO (XI (XO (XI (XI (XI (XO
+    (XO (XO (XI (XO (XO (XI (XI (XI
+    XH)))))))))))))))))))))))))))))) :: ((Zpos (XI (XO (XI (XI (XI (XI (XO
+    (XI (XI (XO (XI (XI (XI (XI (XO (XI (XI (XI (XI (XI (XO (XO (XI (XO (XO
+    (XO (XO (XI (XI XH)))))))))))))))))))))))))))))) :: ((Zpos (XO (XO (XO
+    (XO (XI (XI (XI (XO (XI (XI (XO (XI (XI (XO (XI (XI (XI (XO (XO (XO (XI
+    (XO (XO (XO (XO (XO (XI (XI (XO (XO
+    XH))))))))))))))))))))))))))))))) :: ((Zpos (XI (XI (XI (XO (XO (XO (XI
+    (XI (XO (XI (XI (XO (XO (XO (XI (XI (XO (XO (XO (XO (XI (XO (XI (XI (XO
+    (XO (XO (XI (XO (XO XH))))))))))))))))))))))))))))))) :: ((Zpos (XO (XI
+    (XI (XI (XI (XO (XO (XO (XO (XO (XO (XO (XO (XI (XI (XI (XI (XI (XO (XO
+    (XI (XO (XO (XI (XI (XO (XI (XO (XO (XO
+    XH))))))))))))))))))))))))))))))) :: ((Zpos (XI (XO (XO (XI (XO (XI (XO
+    (XI (XI (XO (XI (XI (XI (XI (XI (XI (XO (XI (XO (XO (XI (XO (XI (XO (XI
+    (XO (XO (XO (XO (XO XH))))))))))))))))))))))))))))))) :: ((Zpos (XO (XO
+    (XI (XI (XO (XI (XO (XI (XI (XO (XI (XI (XO (XI (XO (XI (XI (XO (XI (XO
+    (XI (XO (XO (XO (XI (XI (XI (XI (XI (XO
+    XH))))))))))))))))))))))))))))))) :: ((Zpos (XI (XI (XO (XI (XI (XO (XO
+    (XO (XO (XO (XO (XO (XI (XI (XO (XI (XO (XO (XI (XO (XI (XO (XI (XI (XI
+    (XI (XO (XI (XI (XO XH))))))))))))))))))))))))))))))) :: ((Zpos (XO (XI
+    (XO (XO (XO (XO (XI (XI (XO (XI (XI (XO (XI (XO (XO (XI (XI (XI (XI (XO
+    (XI (XO (XO (XI (XO (XI (XI (XO (XI (XO
+    XH))))))))))))))))))))))))))))))) :: ((Zpos (XI (XO (XI (XO (XI (XI (XI
+    (XO (XI (XI (XO (XI (XO (XO (XO (XI (XO (XI (XI (XO (XI (XO (XI (XO (XO
+    (XI (XO (XO (XI (XO XH))))))))))))))))))))))))))))))) :: ((Zpos (XO (XO
+    (XO (XI (XO (XO (XI (XI (XO (XI (XI (XO (XI (XI (XO (XO (XI (XO (XO (XI
+    (XI (XO (XO (XO (XO (XI (XO (XI (XO (XI
+    XH))))))))))))))))))))))))))))))) :: ((Zpos (XI (XI (XI (XI (XI (XI (XI
+    (XO (XI (XI (XO (XI (XO (XI (XO (XO (XO (XO (XO (XI (XI (XO (XI (XI (XO
+    (XI (XI (XI (XO (XI XH))))))))))))))))))))))))))))))) :: ((Zpos (XO (XI
+    (XI (XO (XO (XI (XO (XI (XI (XO (XI (XI (XO (XO (XO (XO (XI (XI (XO (XI
+    (XI (XO (XO (XI (XI (XI (XO (XO (XO (XI
+    XH))))))))))))))))))))))))))))))) :: ((Zpos (XI (XO (XO (XO (XI (XO (XO
+    (XO (XO (XO (XO (XO (XI (XO (XO (XO (XO (XI (XO (XI (XI (XO (XI (XO (XI
+    (XI (XI (XO (XO (XI XH))))))))))))))))))))))))))))))) :: ((Zpos (XO (XO
+    (XI (XO (XI (XO (XO (XO (XO (XO (XO (XO (XO (XO (XI (XO (XI (XO (XI (XI
+    (XI (XO (XO (XO (XI (XO (XO (XI (XI (XI
+    XH))))))))))))))))))))))))))))))) :: ((Zpos (XI (XI (XO (XO (XO (XI (XO
+    (XI (XI (XO (XI (XI (XI (XO (XI (XO (XO (XO (XI (XI (XI (XO (XI (XI (XI
+    (XO (XI (XI (XI (XI XH))))))))))))))))))))))))))))))) :: ((Zpos (XO (XI
+    (XO (XI (XI (XI (XI (XO (XI (XI (XO (XI (XI (XI (XI (XO (XI (XI (XI (XI
+    (XI (XO (XO (XI (XO (XO (XO (XO (XI (XI
+    XH))))))))))))))))))))))))))))))) :: ((Zpos (XI (XO (XI (XI (XO (XO (XI
+    (XI (XO (XI (XI (XO (XO (XI (XI (XO (XO (XI (XI (XI (XI (XO (XI (XO (XO
+    (XO (XI (XO (XI (XI XH))))))))))))))))))))))))))))))) :: ((Zpos (XO (XO
+    (XO (XO (XO (XI (XI (XI (XO (XI (XI (XO (XI (XI (XO (XI (XI (XI (XO (XO
+    (XO (XI (XO (XO (XO (XO (XO (XI (XI (XO (XO
+    XH)))))))))))))))))))))))))))))))) :: ((Zpos (XI (XI (XI (XO (XI (XO (XI
+    (XO (XI (XI (XO (XI (XO (XI (XO (XI (XO (XI (XO (XO (XO (XI (XI (XI (XO
+    (XO (XI (XI (XI (XO (XO XH)))))))))))))))))))))))))))))))) :: ((Zpos (XO
+    (XI (XI (XI (XO (XO (XO (XI (XI (XO (XI (XI (XO (XO (XO (XI (XI (XO (XO
+    (XO (XO (XI (XO (XI (XI (XO (XO (XO (XI (XO (XO
+    XH)))))))))))))))))))))))))))))))) :: ((Zpos (XI (XO (XO (XI (XI (XI (XO
+    (XO (XO (XO (XO (XO (XI (XO (XO (XI (XO (XO (XO (XO (XO (XI (XI (XO (XI
+    (XO (XI (XO (XI (XO (XO XH)))))))))))))))))))))))))))))))) :: ((Zpos (XO
+    (XO (XI (XI (XI (XI (XO (XO (XO (XO (XO (XO (XO (XO (XI (XI (XI (XI (XI
+    (XO (XO (XI (XO (XO (XI (XI (XO (XI (XO (XO (XO
+    XH)))))))))))))))))))))))))))))))) :: ((Zpos (XI (XI (XO (XI (XO (XO (XO
+    (XI (XI (XO (XI (XI (XI (XO (XI (XI (XO (XI (XI (XO (XO (XI (XI (XI (XI
+    (XI (XI (XI (XO (XO (XO XH)))))))))))))))))))))))))))))))) :: ((Zpos (XO
+    (XI (XO (XO (XI (XO (XI (XO (XI (XI (XO (XI (XI (XI (XI (XI (XI (XO (XI
+    (XO (XO (XI (XO (XI (XO (XI (XO (XO (XO (XO (XO
+    XH)))))))))))))))))))))))))))))))) :: ((Zpos (XI (XO (XI (XO (XO (XI (XI
+    (XI (XO (XI (XI (XO (XO (XI (XI (XI (XO (XO (XI (XO (XO (XI (XI (XO (XO
+    (XI (XI (XO (XO (XO (XO XH)))))))))))))))))))))))))))))))) :: ((Zpos (XO
+    (XO (XO (XI (XI (XO (XI (XO (XI (XI (XO (XI (XI (XO (XI (XO (XI (XI (XO
+    (XI (XO (XI (XO (XO (XO (XI (XI (XI (XI (XI (XO
+    XH)))))))))))))))))))))))))))))))) :: ((Zpos (XI (XI (XI (XI (XO (XI (XI
+    (XI (XO (XI (XI (XO (XO (XO (XI (XO (XO (XI (XO (XI (XO (XI (XI (XI (XO
+    (XI (XO (XI (XI (XI (XO XH)))))))))))))))))))))))))))))))) :: ((Zpos (XO
+    (XI (XI (XO (XI (XI (XO (XO (XO (XO (XO (XO (XO (XI (XI (XO (XI (XO (XO
+    (XI (XO (XI (XO (XI (XI (XI (XI (XO (XI (XI (XO
+    XH)))))))))))))))))))))))))))))))) :: ((Zpos (XI (XO (XO (XO (XO (XO (XO
+    (XI (XI (XO (XI (XI (XI (XI (XI (XO (XO (XO (XO (XI (XO (XI (XI (XO (XI
+    (XI (XO (XO (XI (XI (XO XH)))))))))))))))))))))))))))))))) :: ((Zpos (XO
+    (XO (XI (XO (XO (XO (XO (XI (XI (XO (XI (XI (XO (XI (XO (XO (XI (XI (XI
+    (XI (XO (XI (XO (XO (XI (XO (XI (XI (XO (XI (XO
+    XH)))))))))))))))))))))))))))))))) :: ((Zpos (XI (XI (XO (XO (XI (XI (XO
+    (XO (XO (XO (XO (XO (XI (XI (XO (XO (XO (XI (XI (XI (XO (XI (XI (XI (XI
+    (XO (XO (XI (XO (XI (XO XH)))))))))))))))))))))))))))))))) :: ((Zpos (XO
+    (XI (XO (XI (XO (XI (XI (XI (XO (XI (XI (XO (XI (XO (XO (XO (XI (XO (XI
+    (XI (XO (XI (XO (XI (XO (XO (XI (XO (XO (XI (XO
+    XH)))))))))))))))))))))))))))))))) :: ((Zpos (XI (XO (XI (XI (XI (XO (XI
+    (XO (XI (XI (XO (XI (XO (XO (XO (XO (XO (XO (XI (XI (XO (XI (XI (XO (XO
+    (XO (XO (XO (XO (XI (XO XH)))))))))))))))))))))))))))))))) :: ((Zpos (XO
+    (XO (XO (XO (XI (XO (XO (XI (XI (XO (XI (XI (XO (XI (XI (XO (XO (XI (XO
+    (XO (XI (XI (XO (XO (XO (XO (XI (XO (XI (XO (XI
+    XH)))))))))))))))))))))))))))))))) :: ((Zpos (XI (XI (XI (XO (XO (XI (XO
+    (XO (XO (XO (XO (XO (XI (XI (XI (XO (XI (XI (XO (XO (XI (XI (XI (XI (XO
+    (XO (XO (XO (XI (XO (XI XH)))))))))))))))))))))))))))))))) :: ((Zpos (XO
+    (XI (XI (XI (XI (XI (XI (XI (XO (XI (XI (XO (XI (XO (XI (XO (XO (XO (XO
+    (XO (XI (XI (XO (XI (XI (XO (XI (XI (XI (XO (XI
+    XH)))))))))))))))))))))))))))))))) :: ((Zpos (XI (XO (XO (XI (XO (XO (XI
+    (XO (XI (XI (XO (XI (XO (XO (XI (XO (XI (XO (XO (XO (XI (XI (XI (XO (XI
+    (XO (XO (XI (XI (XO (XI XH)))))))))))))))))))))))))))))))) :: ((Zpos (XO
+    (XO (XI (XI (XO (XO (XI (XO (XI (XI (XO (XI (XI (XO (XO (XO (XO (XI (XI
+    (XO (XI (XI (XO (XO (XI (XI (XI (XO (XO (XO (XI
+    XH)))))))))))))))))))))))))))))))) :: ((Zpos (XI (XI (XO (XI (XI (XI (XI
+    (XI (XO (XI (XI (XO (XO (XO (XO (XO (XI (XI (XI (XO (XI (XI (XI (XI (XI
+    (XI (XO (XO (XO (XO (XI XH)))))))))))))))))))))))))))))))) :: ((Zpos (XO
+    (XI (XO (XO (XO (XI (XO (XO (XO (XO (XO (XO (XO (XI (XO (XO (XO (XO (XI
+    (XO (XI (XI (XO (XI (XO (XI (XI (XI (XO (XO (XI
+    XH)))))))))))))))))))))))))))))))) :: ((Zpos (XI (XO (XI (XO (XI (XO (XO
+    (XI (XI (XO (XI (XI (XI (XI (XO (XO (XI (XO (XI (XO (XI (XI (XI (XO (XO
+    (XI (XO (XI (XO (XO (XI XH)))))))))))))))))))))))))))))))) :: ((Zpos (XO
+    (XO (XO (XI (XO (XI (XO (XO (XO (XO (XO (XO (XO (XO (XO (XI (XO (XI (XO
+    (XI (XI (XI (XO (XO (XO (XI (XO (XO (XI (XI (XI
+    XH)))))))))))))))))))))))))))))))) :: ((Zpos (XI (XI (XI (XI (XI (XO (XO
+    (XI (XI (XO (XI (XI (XI (XO (XO (XI (XI (XI (XO (XI (XI (XI (XI (XI (XO
+    (XI (XI (XO (XI (XI (XI XH)))))))))))))))))))))))))))))))) :: ((Zpos (XO
+    (XI (XI (XO (XO (XO (XI (XO (XI (XI (XO (XI (XI (XI (XO (XI (XO (XO (XO
+    (XI (XI (XI (XO (XI (XI (XI (XO (XI (XI (XI (XI
+    XH)))))))))))))))))))))))))))))))) :: ((Zpos (XI (XO (XO (XO (XI (XI (XI
+    (XI (XO (XI (XI (XO (XO (XI (XO (XI (XI (XO (XO (XI (XI (XI (XI (XO (XI
+    (XI (XI (XI (XI (XI (XI XH)))))))))))))))))))))))))))))))) :: ((Zpos (XO
+    (XO (XI (XO (XI (XI (XI (XI (XO (XI (XI (XO (XI (XI (XI (XI (XO (XI (XI
+    (XI (XI (XI (XO (XO (XI (XO (XO (XO (XO (XI (XI
+    XH)))))))))))))))))))))))))))))))) :: ((Zpos (XI (XI (XO (XO (XO (XO (XI
+    (XO (XI (XI (XO (XI (XO (XI (XI (XI (XI (XI (XI (XI (XI (XI (XI (XI (XI
+    (XO (XI (XO (XO (XI (XI XH)))))))))))))))))))))))))))))))) :: ((Zpos (XO
+    (XI (XO (XI (XI (XO (XO (XI (XI (XO (XI (XI (XO (XO (XI (XI (XO (XO (XI
+    (XI (XI (XI (XO (XI (XO (XO (XO (XI (XO (XI (XI
+    XH)))))))))))))))))))))))))))))))) :: ((Zpos (XI (XO (XI (XI (XO (XI (XO
+    (XO (XO (XO (XO (XO (XI (XO (XI (XI (XI (XO (XI (XI (XI (XI (XI (XO (XO
+    (XO (XI (XI (XO (XI (XI XH)))))))))))))))))))))))))))))))) :: ((Zpos (XI
+    (XI (XI (XO (XI (XI (XI (XO (XO (XO (XO (XO (XI (XI (XI (XO (XO (XI (XI
+    (XO (XO (XO (XO (XI (XO (XO (XI (XO (XI
+    XH)))))))))))))))))))))))))))))) :: ((Zpos (XO (XO (XO (XO (XO (XO (XI
+    (XI (XI (XO (XI (XI (XO (XI (XI (XO (XI (XI (XI (XO (XO (XO (XI (XO (XO
+    (XO (XO (XO (XI XH)))))))))))))))))))))))))))))) :: ((Zpos (XI (XO (XO
+    (XI (XI (XO (XO (XO (XI (XI (XO (XI (XO (XO (XI (XO (XO (XO (XI (XO (XO
+    (XO (XO (XO (XI (XO (XI (XI (XI
+    XH)))))))))))))))))))))))))))))) :: ((Zpos (XO (XI (XI (XI (XO (XI (XO
+    (XI (XO (XI (XI (XO (XI (XO (XI (XO (XI (XO (XI (XO (XO (XO (XI (XI (XI
+    (XO (XO (XI (XI XH)))))))))))))))))))))))))))))) :: ((Zpos (XI (XI (XO
+    (XI (XO (XI (XO (XI (XO (XI (XI (XO (XO (XO (XO (XO (XO (XI (XO (XO (XO
+    (XO (XO (XI (XI (XI (XI (XO (XO
+    XH)))))))))))))))))))))))))))))) :: ((Zpos (XO (XO (XI (XI (XI (XO (XO
+    (XO (XI (XI (XO (XI (XI (XO (XO (XO (XI (XI (XO (XO (XO (XO (XI (XO (XI
+    (XI (XO (XO (XO XH)))))))))))))))))))))))))))))) :: ((Zpos (XI (XO (XI
+    (XO (XO (XO (XI (XI (XI (XO (XI (XI (XI (XI (XO (XO (XO (XO (XO (XO (XO
+    (XO (XO (XO (XO (XI (XI (XI (XO
+    XH)))))))))))))))))))))))))))))) :: ((Zpos (XO (XI (XO (XO (XI (XI (XI
+    (XO (XO (XO (XO (XO (XO (XI (XO (XO (XI (XO (XO (XO (XO (XO (XI (XI (XO
+    (XI (XO (XI (XO XH)))))))))))))))))))))))))))))) :: ((Zpos (XI (XI (XI
+    (XI (XO (XO (XI (XI (XI (XO (XI (XI (XI (XO (XO (XI (XO (XI (XI (XI (XO
+    (XO (XO (XI (XO (XI (XO (XO XH))))))))))))))))))))))))))))) :: ((Zpos (XO
+    (XO (XO (XI (XI (XI (XI (XO (XO (XO (XO (XO (XO (XO (XO (XI (XI (XI (XI
+    (XI (XO (XO (XI (XO (XO (XI (XI (XO
+    XH))))))))))))))))))))))))))))) :: ((Zpos (XI (XO (XO (XO (XO (XI (XO (XI
+    (XO (XI (XI (XO (XO (XI (XO (XI (XO (XO (XI (XI (XO (XO (XO (XO (XI (XI
+    (XO (XI XH))))))))))))))))))))))))))))) :: ((Zpos (XO (XI (XI (XO (XI (XO
+    (XO (XO (XI (XI (XO (XI (XI (XI (XO (XI (XI (XO (XI (XI (XO (XO (XI (XI
+    (XI (XI (XI (XI XH))))))))))))))))))))))))))))) :: ((Zpos (XI (XI (XO (XO
+    (XI (XO (XO (XO (XI (XI (XO (XI (XO (XI (XI (XI (XO (XI (XO (XI (XO (XO
+    (XO (XI XH))))))))))))))))))))))))) :: ((Zpos (XO (XO (XI (XO (XO (XI (XO
+    (XI (XO (XI (XI (XO (XI (XI (XI (XI (XI (XI (XO (XI (XO (XO (XI (XO (XI
+    (XO XH))))))))))))))))))))))))))) :: ((Zpos (XI (XO (XI (XI (XI (XI (XI
+    (XO (XO (XO (XO (XO (XI (XO (XI (XI (XO (XO (XO (XI (XO (XO (XO (XO (XO
+    (XO (XO XH)))))))))))))))))))))))))))) :: ((Zpos (XO (XI (XO (XI (XO (XO
+    (XI (XI (XI (XO (XI (XI (XO (XO (XI (XI (XI (XO (XO (XI (XO (XO (XI (XI
+    (XO (XO (XI XH)))))))))))))))))))))))))))) :: ((Zpos (XI (XI (XI (XO (XO
+    (XO (XO (XO (XI (XI (XO (XI (XO (XI (XO (XI (XI (XI (XI (XO (XI (XO (XO
+    (XI (XO (XO (XO (XI (XI (XI XH))))))))))))))))))))))))))))))) :: ((Zpos
+    (XO (XO (XO (XO (XI (XI (XO (XI (XO (XI (XI (XO (XI (XI (XO (XI (XO (XI
+    (XI (XO (XI (XO (XI (XO (XO (XO (XI (XI (XI (XI
+    XH))))))))))))))))))))))))))))))) :: ((Zpos (XI (XO (XO (XI (XO (XI (XI
+    (XO (XO (XO (XO (XO (XI (XO (XO (XI (XI (XO (XI (XO (XI (XO (XO (XO (XI
+    (XO (XO (XO (XI (XI XH))))))))))))))))))))))))))))))) :: ((Zpos (XO (XI
+    (XI (XI (XI (XO (XI (XI (XI (XO (XI (XI (XO (XO (XO (XI (XO (XO (XI (XO
+    (XI (XO (XI (XI (XI (XO (XI (XO (XI (XI
+    XH))))))))))))))))))))))))))))))) :: ((Zpos (XI (XI (XO (XI (XI (XO (XI
+    (XI (XI (XO (XI (XI (XI (XO (XI (XI (XI (XI (XO (XO (XI (XO (XO (XI (XI
+    (XI (XO (XI (XO (XI XH))))))))))))))))))))))))))))))) :: ((Zpos (XO (XO
+    (XI (XI (XO (XI (XI (XO (XO (XO (XO (XO (XO (XO (XI (XI (XO (XI (XO (XO
+    (XI (XO (XI (XO (XI (XI (XI (XI (XO (XI
+    XH))))))))))))))))))))))))))))))) :: ((Zpos (XI (XO (XI (XO (XI (XI (XO
+    (XI (XO (XI (XI (XO (XO (XI (XI (XI (XI (XO (XO (XO (XI (XO (XO (XO (XO
+    (XI (XO (XO (XO (XI XH))))))))))))))))))))))))))))))) :: ((Zpos (XO (XI
+    (XO (XO (XO (XO (XO (XO (XI (XI (XO (XI (XI (XI (XI (XI (XO (XO (XO (XO
+    (XI (XO (XI (XI (XO (XI (XI (XO (XO (XI
+    XH))))))))))))))))))))))))))))))) :: ((Zpos (XI (XI (XI (XI (XI (XI (XO
+    (XI (XO (XI (XI (XO (XO (XO (XI (XO (XI (XI (XI (XI (XI (XO (XO (XI (XO
+    (XI (XI (XI (XI (XO XH))))))))))))))))))))))))))))))) :: ((Zpos (XO (XO
+    (XO (XI (XO (XO (XO (XO (XI (XI (XO (XI (XI (XO (XI (XO (XO (XI (XI (XI
+    (XI (XO (XI (XO (XO (XI (XO (XI (XI (XO
+    XH))))))))))))))))))))))))))))))) :: ((Zpos (XI (XO (XO (XO (XI (XO (XI
+    (XI (XI (XO (XI (XI (XI (XI (XI (XO (XI (XO (XI (XI (XI (XO (XO (XO (XI
+    (XI (XI (XO (XI (XO XH))))))))))))))))))))))))))))))) :: ((Zpos (XO (XI
+    (XI (XO (XO (XI (XI (XO (XO (XO (XO (XO (XO (XI (XI (XO (XO (XO (XI (XI
+    (XI (XO (XI (XI (XI (XI (XO (XO (XI (XO
+    XH))))))))))))))))))))))))))))))) :: ((Zpos (XI (XI (XO (XO (XO (XI (XI
+    (XO (XO (XO (XO (XO (XI (XI (XO (XO (XI (XI (XO (XI (XI (XO (XO (XI (XI
+    (XO (XI (XI (XO (XO XH))))))))))))))))))))))))))))))) :: ((Zpos (XO (XO
+    (XI (XO (XI (XO (XI (XI (XI (XO (XI (XI (XO (XI (XO (XO (XO (XI (XO (XI
+    (XI (XO (XI (XO (XI (XO (XO (XI (XO (XO
+    XH))))))))))))))))))))))))))))))) :: ((Zpos (XI (XO (XI (XI (XO (XO (XO
+    (XO (XI (XI (XO (XI (XO (XO (XO (XO (XI (XO (XO (XI (XI (XO (XO (XO (XO
+    (XO (XI (XO (XO (XO XH))))))))))))))))))))))))))))))) :: ((Zpos (XO (XI
+    (XO (XI (XI (XI (XO (XI (XO (XI (XI (XO (XI (XO (XO (XO (XO (XO (XO (XI
+    (XI (XO (XI (XI (XO (XO (XO (XO (XO (XO
+    XH))))))))))))))))))))))))))))))) :: ((Zpos (XI (XI (XI (XO (XI (XO (XO
+    (XI (XO (XI (XI (XO (XO (XO (XI (XI (XI (XO (XI (XO (XO (XI (XO (XI (XO
+    (XO (XI (XI (XO (XI (XO XH)))))))))))))))))))))))))))))))) :: ((Zpos (XO
+    (XO (XO (XO (XO (XI (XO (XO (XI (XI (XO (XI (XI (XO (XI (XI (XO (XO (XI
+    (XO (XO (XI (XI (XO (XO (XO (XO (XI (XO (XI (XO
+    XH)))))))))))))))))))))))))))))))) :: ((Zpos (XI (XO (XO (XI (XI (XI (XI
+    (XI (XI (XO (XI (XI (XI (XI (XI (XI (XI (XI (XI (XO (XO (XI (XO (XO (XI
+    (XO (XI (XO (XO (XI (XO XH)))))))))))))))))))))))))))))))) :: ((Zpos (XO
+    (XI (XI (XI (XO (XO (XI (XO (XO (XO (XO (XO (XO (XI (XI (XI (XO (XI (XI
+    (XO (XO (XI (XI (XI (XI (XO (XO (XO (XO (XI (XO
+    XH)))))))))))))))))))))))))))))))) :: ((Zpos (XI (XI (XO (XI (XO (XO (XI
+    (XO (XO (XO (XO (XO (XI (XI (XO (XI (XI (XO (XO (XO (XO (XI (XO (XI (XI
+    (XI (XI (XI (XI (XI (XO XH)))))))))))))))))))))))))))))))) :: ((Zpos (XO
+    (XO (XI (XI (XI (XI (XI (XI (XI (XO (XI (XI (XO (XI (XO (XI (XO (XO (XO
+    (XO (XO (XI (XI (XO (XI (XI (XO (XI (XI (XI (XO
+    XH)))))))))))))))))))))))))))))))) :: ((Zpos (XI (XO (XI (XO (XO (XI (XO
+    (XO (XI (XI (XO (XI (XO (XO (XO (XI (XI (XI (XO (XO (XO (XI (XO (XO (XO
+    (XI (XI (XO (XI (XI (XO XH)))))))))))))))))))))))))))))))) :: ((Zpos (XO
+    (XI (XO (XO (XI (XO (XO (XI (XO (XI (XI (XO (XI (XO (XO (XI (XO (XI (XO
+    (XO (XO (XI (XI (XI (XO (XI (XO (XO (XI (XI (XO
+    XH)))))))))))))))))))))))))))))))) :: ((Zpos (XI (XI (XI (XI (XO (XI (XO
+    (XO (XI (XI (XO (XI (XO (XI (XO (XO (XI (XO (XI (XI (XO (XI (XO (XI (XO
+    (XI (XO (XI (XO (XO (XO XH)))))))))))))))))))))))))))))))) :: ((Zpos (XO
+    (XO (XO (XI (XI (XO (XO (XI (XO (XI (XI (XO (XI (XI (XO (XO (XO (XO (XI
+    (XI (XO (XI (XI (XO (XO (XI (XI (XI (XO (XO (XO
+    XH)))))))))))))))))))))))))))))))) :: ((Zpos (XI (XO (XO (XO (XO (XO (XI
+    (XO (XO (XO (XO (XO (XI (XO (XO (XO (XI (XI (XI (XI (XO (XI (XO (XO (XI
+    (XI (XO (XO (XO (XO (XO XH)))))))))))))))))))))))))))))))) :: ((Zpos (XO
+    (XI (XI (XO (XI (XI (XI (XI (XI (XO (XI (XI (XO (XO (XO (XO (XO (XI (XI
+    (XI (XO (XI (XI (XI (XI (XI (XI (XO (XO (XO (XO
+    XH)))))))))))))))))))))))))))))))) :: ((Zpos (XI (XI (XO (XO (XI (XI (XI
+    (XI (XI (XO (XI (XI (XI (XO (XI (XO (XI (XO (XO (XI (XO (XI (XO (XI (XI
+    (XO (XO (XI (XI (XO (XO XH)))))))))))))))))))))))))))))))) :: ((Zpos (XO
+    (XO (XI (XO (XO (XO (XI (XO (XO (XO (XO (XO (XO (XO (XI (XO (XO (XO (XO
+    (XI (XO (XI (XI (XO (XI (XO (XI (XI (XI (XO (XO
+    XH)))))))))))))))))))))))))))))))) :: ((Zpos (XI (XO (XI (XI (XI (XO (XO
+    (XI (XO (XI (XI (XO (XO (XI (XI (XO (XI (XI (XO (XI (XO (XI (XO (XO (XO
+    (XO (XO (XO (XI (XO (XO XH)))))))))))))))))))))))))))))))) :: ((Zpos (XO
+    (XI (XO (XI (XO (XI (XO (XO (XI (XI (XO (XI (XI (XI (XI (XO (XO (XI (XO
+    (XI (XO (XI (XI (XI (XO (XO (XI (XO (XI (XO (XO
+    XH)))))))))))))))))))))))))))))))) :: ((Zpos (XI (XI (XI (XO (XO (XI (XI
+    (XI (XI (XO (XI (XI (XI (XO (XO (XO (XO (XO (XI (XO (XI (XI (XO (XI (XO
+    (XO (XO (XO (XO (XI (XI XH)))))))))))))))))))))))))))))))) :: ((Zpos (XO
+    (XO (XO (XO (XI (XO (XI (XO (XO (XO (XO (XO (XO (XO (XO (XO (XI (XO (XI
+    (XO (XI (XI (XI (XO (XO (XO (XI (XO (XO (XI (XI
+    XH)))))))))))))))))))))))))))))))) :: ((Zpos (XI (XO (XO (XI (XO (XO (XO
+    (XI (XO (XI (XI (XO (XO (XI (XO (XO (XO (XI (XI (XO (XI (XI (XO (XO (XI
+    (XO (XO (XI (XO (XI (XI XH)))))))))))))))))))))))))))))))) :: ((Zpos (XO
+    (XI (XI (XI (XI (XI (XO (XO (XI (XI (XO (XI (XI (XI (XO (XO (XI (XI (XI
+    (XO (XI (XI (XI (XI (XI (XO (XI (XI (XO (XI (XI
+    XH)))))))))))))))))))))))))))))))) :: ((Zpos (XI (XI (XO (XI (XI (XI (XO
+    (XO (XI (XI (XO (XI (XO (XI (XI (XO (XO (XO (XO (XO (XI (XI (XO (XI (XI
+    (XI (XO (XO (XI (XI (XI XH)))))))))))))))))))))))))))))))) :: ((Zpos (XO
+    (XO (XI (XI (XO (XO (XO (XI (XO (XI (XI (XO (XI (XI (XI (XO (XI (XO (XO
+    (XO (XI (XI (XI (XO (XI (XI (XI (XO (XI (XI (XI
+    XH)))))))))))))))))))))))))))))))) :: ((Zpos (XI (XO (XI (XO (XI (XO (XI
+    (XO (XO (XO (XO (XO (XI (XO (XI (XO (XO (XI (XO (XO (XI (XI (XO (XO (XO
+    (XI (XO (XI (XI (XI (XI XH)))))))))))))))))))))))))))))))) :: ((Zpos (XO
+    (XI (XO (XO (XO (XI (XI (XI (XI (XO (XI (XI (XO (XO (XI (XO (XI (XI (XO
+    (XO (XI (XI (XI (XI (XO (XI (XI (XI (XI (XI (XI
+    XH)))))))))))))))))))))))))))))))) :: ((Zpos (XI (XI (XI (XI (XI (XO (XI
+    (XO (XO (XO (XO (XO (XI (XI (XI (XI (XO (XO (XI (XI (XI (XI (XO (XI (XO
+    (XI (XI (XO (XO (XO (XI XH)))))))))))))))))))))))))))))))) :: ((Zpos (XO
+    (XO (XO (XI (XO (XI (XI (XI (XI (XO (XI (XI (XO (XI (XI (XI (XI (XO (XI
+    (XI (XI (XI (XI (XO (XO (XI (XO (XO (XO (XO (XI
+    XH)))))))))))))))))))))))))))))))) :: ((Zpos (XI (XO (XO (XO (XI (XI (XO
+    (XO (XI (XI (XO (XI (XO (XO (XI (XI (XO (XI (XI (XI (XI (XI (XO (XO (XI
+    (XI (XI (XI (XO (XO (XI XH)))))))))))))))))))))))))))))))) :: ((Zpos (XO
+    (XI (XI (XO (XO (XO (XO (XI (XO (XI (XI (XO (XI (XO (XI (XI (XI (XI (XI
+    (XI (XI (XI (XI (XI (XI (XI (XO (XI (XO (XO (XI
+    XH)))))))))))))))))))))))))))))))) :: ((Zpos (XI (XI (XO (XO (XO (XO (XO
+    (XI (XO (XI (XI (XO (XO (XO (XO (XI (XO (XO (XO (XI (XI (XI (XO (XI (XI
+    (XO (XI (XO (XI (XO (XI XH)))))))))))))))))))))))))))))))) :: ((Zpos (XO
+    (XO (XI (XO (XI (XI (XO (XO (XI (XI (XO (XI (XI (XO (XO (XI (XI (XO (XO
+    (XI (XI (XI (XI (XO (XI (XO (XO (XO (XI (XO (XI
+    XH)))))))))))))))))))))))))))))))) :: ((Zpos (XI (XO (XI (XI (XO (XI (XI
+    (XI (XI (XO (XI (XI (XI (XI (XO (XI (XO (XI (XO (XI (XI (XI (XO (XO (XO
+    (XO (XI (XI (XI (XO (XI XH)))))))))))))))))))))))))))))))) :: ((Zpos (XO
+    (XI (XO (XI (XI (XO (XI (XO (XO (XO (XO (XO (XO (XI (XO (XI (XI (XI (XO
+    (XI (XI (XI (XI (XI (XO (XO (XO (XI (XI (XO (XI
+    XH)))))))))))))))))))))))))))))))) :: ((Zpos (XO (XI (XI (XI (XO (XI (XI
+    (XI (XO (XO (XO (XO (XO (XI (XI (XI (XO (XO (XI (XI (XO (XO (XO (XO (XI
+    (XO (XO (XI (XO (XI XH))))))))))))))))))))))))))))))) :: ((Zpos (XI (XO
+    (XO (XI (XI (XO (XI (XO (XI (XO (XI (XI (XI (XI (XI (XI (XI (XO (XI (XI
+    (XO (XO (XI (XI (XI (XO (XI (XI (XO (XI
+    XH))))))))))))))))))))))))))))))) :: ((Zpos (XO (XO (XO (XO (XO (XO (XO
+    (XI (XI (XI (XO (XI (XI (XO (XI (XI (XO (XI (XI (XI (XO (XO (XO (XI (XO
+    (XO (XO (XO (XO (XI XH))))))))))))))))))))))))))))))) :: ((Zpos (XI (XI
+    (XI (XO (XI (XI (XO (XO (XO (XI (XI (XO (XO (XO (XI (XI (XI (XI (XI (XI
+    (XO (XO (XI (XO (XO (XO (XI (XO (XO (XI
+    XH))))))))))))))))))))))))))))))) :: ((Zpos (XO (XI (XO (XO (XI (XI (XO
+    (XO (XO (XI (XI (XO (XI (XO (XO (XI (XO (XO (XO (XI (XO (XO (XO (XO (XO
+    (XI (XO (XI (XI (XI XH))))))))))))))))))))))))))))))) :: ((Zpos (XI (XO
+    (XI (XO (XO (XO (XO (XI (XI (XI (XO (XI (XO (XO (XO (XI (XI (XO (XO (XI
+    (XO (XO (XI (XI (XO (XI (XI (XI (XI (XI
+    XH))))))))))))))))))))))))))))))) :: ((Zpos (XO (XO (XI (XI (XI (XO (XI
+    (XO (XI (XO (XI (XI (XO (XI (XO (XI (XO (XI (XO (XI (XO (XO (XO (XI (XI
+    (XI (XO (XO (XI (XI XH))))))))))))))))))))))))))))))) :: ((Zpos (XI (XI
+    (XO (XI (XO (XI (XI (XI (XO (XO (XO (XO (XI (XI (XO (XI (XI (XI (XO (XI
+    (XO (XO (XI (XO (XI (XI (XI (XO (XI (XI
+    XH))))))))))))))))))))))))))))))) :: ((Zpos (XO (XI (XI (XO (XI (XO (XI
+    (XO (XI (XO (XI (XI (XO (XO (XO (XO (XO (XO (XI (XO (XO (XO (XO (XO (XI
+    (XI (XI (XI (XO (XO XH))))))))))))))))))))))))))))))) :: ((Zpos (XI (XO
+    (XO (XO (XO (XI (XI (XI (XO (XO (XO (XO (XI (XO (XO (XO (XI (XO (XI (XO
+    (XO (XO (XI (XI (XI (XI (XO (XI (XO (XO
+    XH))))))))))))))))))))))))))))))) :: ((Zpos (XO (XO (XO (XI (XI (XI (XO
+    (XO (XO (XI (XI (XO (XI (XI (XO (XO (XO (XI (XI (XO (XO (XO (XO (XI (XO
+    (XI (XI (XO (XO (XO XH))))))))))))))))))))))))))))))) :: ((Zpos (XI (XI
+    (XI (XI (XO (XO (XO (XI (XI (XI (XO (XI (XO (XI (XO (XO (XI (XI (XI (XO
+    (XO (XO (XI (XO (XO (XI (XO (XO (XO (XO
+    XH))))))))))))))))))))))))))))))) :: ((Zpos (XO (XI (XO (XI (XO (XO (XO
+    (XI (XI (XI (XO (XI (XI (XI (XI (XO (XO (XO (XO (XO (XO (XO (XO (XO (XO
+    (XO (XI (XI (XI (XO XH))))))))))))))))))))))))))))))) :: ((Zpos (XI (XO
+    (XI (XI (XI (XI (XO (XO (XO (XI (XI (XO (XO (XI (XI (XO (XI (XO (XO (XO
+    (XO (XO (XI (XI (XO (XO (XO (XI (XI (XO
+    XH))))))))))))))))))))))))))))))) :: ((Zpos (XO (XO (XI (XO (XO (XI (XI
+    (XI (XO (XO (XO (XO (XO (XO (XI (XO (XO (XI (XO (XO (XO (XO (XO (XI (XI
+    (XO (XI (XO (XI (XO XH))))))))))))))))))))))))))))))) :: ((Zpos (XI (XI
+    (XO (XO (XI (XO (XI (XO (XI (XO (XI (XI (XI (XO (XI (XO (XI (XI (XO (XO
+    (XO (XO (XI (XO (XI (XO (XO (XO (XI (XO
+    XH))))))))))))))))))))))))))))))) :: ((Zpos (XO (XI (XI (XI (XI (XO (XO
+    (XI (XI (XI (XO (XI (XI (XI (XO (XO (XI (XO (XI (XI (XI (XO (XO (XO (XI
+    (XO (XI (XO (XO XH)))))))))))))))))))))))))))))) :: ((Zpos (XI (XO (XO
+    (XI (XO (XI (XO (XO (XO (XI (XI (XO (XO (XI (XO (XO (XO (XO (XI (XI (XI
+    (XO (XI (XI (XI (XO (XO (XO (XO
+    XH)))))))))))))))))))))))))))))) :: ((Zpos (XO (XO (XO (XO (XI (XI (XI
+    (XI (XO (XO (XO (XO (XO (XO (XO (XO (XI (XI (XI (XI (XI (XO (XO (XI (XO
+    (XO (XI (XI (XO XH)))))))))))))))))))))))))))))) :: ((Zpos (XI (XI (XI
+    (XO (XO (XO (XI (XO (XI (XO (XI (XI (XI (XO (XO (XO (XO (XI (XI (XI (XI
+    (XO (XI (XO (XO (XO (XO (XI (XO
+    XH)))))))))))))))))))))))))))))) :: ((Zpos (XO (XI (XO (XO (XO (XO (XI
+    (XO (XI (XO (XI (XI (XO (XO (XI (XO (XI (XO (XO (XI (XI (XO (XO (XO (XO
+    (XI (XI (XO (XI XH)))))))))))))))))))))))))))))) :: ((Zpos (XI (XO (XI
+    (XO (XI (XI (XI (XI (XO (XO (XO (XO (XI (XO (XI (XO (XO (XO (XO (XI (XI
+    (XO (XI (XI (XO (XI (XO (XO (XI
+    XH)))))))))))))))))))))))))))))) :: ((Zpos (XO (XO (XI (XI (XO (XI (XO
+    (XO (XO (XI (XI (XO (XI (XI (XI (XO (XI (XI (XO (XI (XI (XO (XO (XI (XI
+    (XI (XI (XI (XI XH)))))))))))))))))))))))))))))) :: ((Zpos (XI (XI (XO
+    (XI (XI (XO (XO (XI (XI (XI (XO (XI (XO (XI (XI (XO (XO (XI (XO (XI (XI
+    (XO (XI (XO (XI (XI (XO (XI (XI
+    XH)))))))))))))))))))))))))))))) :: ((Zpos (XO (XI (XI (XO (XO (XI (XO
+    (XO (XO (XI (XI (XO (XI (XO (XI (XI (XI (XO (XI (XO (XI (XO (XO (XO (XI
+    XH)))))))))))))))))))))))))) :: ((Zpos (XI (XO (XO (XO (XI (XO (XO (XI
+    (XI (XI (XO (XI (XO (XO (XI (XI (XO (XO (XI (XO (XI (XO (XI (XI (XI (XI
+    XH))))))))))))))))))))))))))) :: ((Zpos (XO (XO (XO (XI (XO (XO (XI (XO
+    (XI (XO (XI (XI (XO (XI (XI (XI (XI (XI (XI (XO (XI (XO (XO (XI (XO (XI
+    (XO XH)))))))))))))))))))))))))))) :: ((Zpos (XI (XI (XI (XI (XI (XI (XI
+    (XI (XO (XO (XO (XO (XI (XI (XI (XI (XO (XI (XI (XO (XI (XO (XI (XO (XO
+    (XI (XI XH)))))))))))))))))))))))))))) :: ((Zpos (XO (XI (XO (XI (XI (XI
+    (XI (XI (XO (XO (XO (XO (XO (XI (XO (XI (XI (XO (XO (XO (XI (XO (XO (XO
+    (XO (XO (XO (XO XH))))))))))))))))))))))))))))) :: ((Zpos (XI (XO (XI (XI
+    (XO (XO (XI (XO (XI (XO (XI (XI (XI (XI (XO (XI (XO (XO (XO (XO (XI (XO
+    (XI (XI (XO (XO (XI (XO XH))))))))))))))))))))))))))))) :: ((Zpos (XO (XO
+    (XI (XO (XI (XO (XO (XI (XI (XI (XO (XI (XI (XO (XO (XI (XI (XI (XO (XO
+    (XI (XO (XO (XI (XI (XO (XO (XI XH))))))))))))))))))))))))))))) :: ((Zpos
+    (XI (XI (XO (XO (XO (XI (XO (XO (XO (XI (XI (XO (XO (XO (XO (XI (XO (XI
+    (XO (XO (XI (XO (XI (XO (XI (XO (XI (XI
+    XH))))))))))))))))))))))))))))) :: ((Zpos (XO (XI (XI (XI (XO (XO (XO (XO
+    (XO (XI (XI (XO (XI (XO (XI (XO (XI (XI (XI (XI (XO (XI (XO (XO (XI (XO
+    (XO (XO (XI (XI (XI XH)))))))))))))))))))))))))))))))) :: ((Zpos (XI (XO
+    (XO (XI (XI (XI (XO (XI (XI (XI (XO (XI (XO (XO (XI (XO (XO (XI (XI (XI
+    (XO (XI (XI (XI (XI (XO (XI (XO (XI (XI (XI
+    XH)))))))))))))))))))))))))))))))) :: ((Zpos (XO (XO (XO (XO (XO (XI (XI
+    (XO (XI (XO (XI (XI (XO (XI (XI (XO (XI (XO (XI (XI (XO (XI (XO (XI (XO
+    (XO (XO (XI (XI (XI (XI XH)))))))))))))))))))))))))))))))) :: ((Zpos (XI
+    (XI (XI (XO (XI (XO (XI (XI (XO (XO (XO (XO (XI (XI (XI (XO (XO (XO (XI
+    (XI (XO (XI (XI (XO (XO (XO (XI (XI (XI (XI (XI
+    XH)))))))))))))))))))))))))))))))) :: ((Zpos (XO (XI (XO (XO (XI (XO (XI
+    (XI (XO (XO (XO (XO (XO (XI (XO (XO (XI (XI (XO (XI (XO (XI (XO (XO (XO
+    (XI (XO (XO (XO (XI (XI XH)))))))))))))))))))))))))))))))) :: ((Zpos (XI
+    (XO (XI (XO (XO (XI (XI (XO (XI (XO (XI (XI (XI (XI (XO (XO (XO (XI (XO
+    (XI (XO (XI (XI (XI (XO (XI (XI (XO (XO (XI (XI
+    XH)))))))))))))))))))))))))))))))) :: ((Zpos (XO (XO (XI (XI (XI (XI (XO
+    (XI (XI (XI (XO (XI (XI (XO (XO (XO (XI (XO (XO (XI (XO (XI (XO (XI (XI
+    (XI (XO (XI (XO (XI (XI XH)))))))))))))))))))))))))))))))) :: ((Zpos (XI
+    (XI (XO (XI (XO (XO (XO (XO (XO (XI (XI (XO (XO (XO (XO (XO (XO (XO (XO
+    (XI (XO (XI (XI (XO (XI (XI (XI (XI (XO (XI (XI
+    XH)))))))))))))))))))))))))))))))) :: ((Zpos (XO (XI (XI (XO (XI (XI (XO
+    (XI (XI (XI (XO (XI (XI (XI (XO (XI (XI (XI (XI (XO (XO (XI (XO (XO (XI
+    (XI (XI (XO (XI (XO (XI XH)))))))))))))))))))))))))))))))) :: ((Zpos (XI
+    (XO (XO (XO (XO (XO (XO (XO (XO (XI (XI (XO (XO (XI (XO (XI (XO (XI (XI
+    (XO (XO (XI (XI (XI (XI (XI (XO (XO (XI (XO (XI
+    XH)))))))))))))))))))))))))))))))) :: ((Zpos (XO (XO (XO (XI (XI (XO (XI
+    (XI (XO (XO (XO (XO (XO (XO (XO (XI (XI (XO (XI (XO (XO (XI (XO (XI (XO
+    (XI (XI (XI (XI (XO (XI XH)))))))))))))))))))))))))))))))) :: ((Zpos (XI
+    (XI (XI (XI (XO (XI (XI (XO (XI (XO (XI (XI (XI (XO (XO (XI (XO (XO (XI
+    (XO (XO (XI (XI (XO (XO (XI (XO (XI (XI (XO (XI
+    XH)))))))))))))))))))))))))))))))) :: ((Zpos (XO (XI (XO (XI (XO (XI (XI
+    (XO (XI (XO (XI (XI (XO (XO (XI (XI (XI (XI (XO (XO (XO (XI (XO (XO (XO
+    (XO (XI (XO (XO (XO (XI XH)))))))))))))))))))))))))))))))) :: ((Zpos (XI
+    (XO (XI (XI (XI (XO (XI (XI (XO (XO (XO (XO (XI (XO (XI (XI (XO (XI (XO
+    (XO (XO (XI (XI (XI (XO (XO (XO (XO (XO (XO (XI
+    XH)))))))))))))))))))))))))))))))) :: ((Zpos (XO (XO (XI (XO (XO (XO (XO
+    (XO (XO (XI (XI (XO (XI (XI (XI (XI (XI (XO (XO (XO (XO (XI (XO (XI (XI
+    (XO (XI (XI (XO (XO (XI XH)))))))))))))))))))))))))))))))) :: ((Zpos (XI
+    (XI (XO (XO (XI (XI (XO (XI (XI (XI (XO (XI (XO (XI (XI (XI (XO (XO (XO
+    (XO (XO (XI (XI (XO (XI (XO (XO (XI (XO (XO (XI
+    XH)))))))))))))))))))))))))))))))) :: ((Zpos (XO (XI (XI (XI (XI (XI (XI
+    (XO (XI (XO (XI (XI (XO (XO (XO (XI (XO (XI (XI (XI (XI (XI (XO (XO (XI
+    (XO (XI (XI (XI (XI (XO XH)))))))))))))))))))))))))))))))) :: ((Zpos (XI
+    (XO (XO (XI (XO (XO (XI (XI (XO (XO (XO (XO (XI (XO (XO (XI (XI (XI (XI
+    (XI (XI (XI (XI (XI (XI (XO (XO (XI (XI (XI (XO
+    XH)))))))))))))))))))))))))))))))) :: ((Zpos (XO (XO (XO (XO (XI (XO (XO
+    (XO (XO (XI (XI (XO (XI (XI (XO (XI (XO (XO (XI (XI (XI (XI (XO (XI (XO
+    (XO (XI (XO (XI (XI (XO XH)))))))))))))))))))))))))))))))) :: ((Zpos (XI
+    (XI (XI (XO (XO (XI (XO (XI (XI (XI (XO (XI (XO (XI (XO (XI (XI (XO (XI
+    (XI (XI (XI (XI (XO (XO (XO (XO (XO (XI (XI (XO
+    XH)))))))))))))))))))))))))))))))) :: ((Zpos (XO (XI (XO (XO (XO (XI (XO
+    (XI (XI (XI (XO (XI (XI (XI (XI (XI (XO (XI (XO (XI (XI (XI (XO (XO (XO
+    (XI (XI (XI (XO (XI (XO XH)))))))))))))))))))))))))))))))) :: ((Zpos (XI
+    (XO (XI (XO (XI (XO (XO (XO (XO (XI (XI (XO (XO (XI (XI (XI (XI (XI (XO
+    (XI (XI (XI (XI (XI (XO (XI (XO (XI (XO (XI (XO
+    XH)))))))))))))))))))))))))))))))) :: ((Zpos (XO (XO (XI (XI (XO (XO (XI
+    (XI (XO (XO (XO (XO (XO (XO (XI (XI (XO (XO (XO (XI (XI (XI (XO (XI (XI
+    (XI (XI (XO (XO (XI (XO XH)))))))))))))))))))))))))))))))) :: ((Zpos (XI
+    (XI (XO (XI (XI (XI (XI (XO (XI (XO (XI (XI (XI (XO (XI (XI (XI (XO (XO
+    (XI (XI (XI (XI (XO (XI (XI (XO (XO (XO (XI (XO
+    XH)))))))))))))))))))))))))))))))) :: ((Zpos (XO (XI (XI (XO (XO (XO (XI
+    (XI (XO (XO (XO (XO (XO (XI (XI (XO (XO (XI (XI (XO (XI (XI (XO (XO (XI
+    (XI (XO (XI (XI (XO (XO XH)))))))))))))))))))))))))))))))) :: ((Zpos (XI
+    (XO (XO (XO (XI (XI (XI (XO (XI (XO (XI (XI (XI (XI (XI (XO (XI (XI (XI
+    (XO (XI (XI (XI (XI (XI (XI (XI (XI (XI (XO (XO
+    XH)))))))))))))))))))))))))))))))) :: ((Zpos (XO (XO (XO (XI (XO (XI (XO
+    (XI (XI (XI (XO (XI (XI (XO (XI (XO (XO (XO (XI (XO (XI (XI (XO (XI (XO
+    (XI (XO (XO (XI (XO (XO XH)))))))))))))))))))))))))))))))) :: ((Zpos (XI
+    (XI (XI (XI (XI (XO (XO (XO (XO (XI (XI (XO (XO (XO (XI (XO (XI (XO (XI
+    (XO (XI (XI (XI (XO (XO (XI (XI (XO (XI (XO (XO
+    XH)))))))))))))))))))))))))))))))) :: ((Zpos (XO (XI (XO (XI (XI (XO (XO
+    (XO (XO (XI (XI (XO (XI (XO (XO (XO (XO (XI (XO (XO (XI (XI (XO (XO (XO
+    (XO (XO (XI (XO (XO (XO XH)))))))))))))))))))))))))))))))) :: ((Zpos (XI
+    (XO (XI (XI (XO (XI (XO (XI (XI (XI (XO (XI (XO (XO (XO (XO (XI (XI (XO
+    (XO (XI (XI (XI (XI (XO (XO (XI (XI (XO (XO (XO
+    XH)))))))))))))))))))))))))))))))) :: ((Zpos (XO (XO (XI (XO (XI (XI (XI
+    (XO (XI (XO (XI (XI (XO (XI (XO (XO (XO (XO (XO (XO (XI (XI (XO (XI (XI
+    (XO (XO (XO (XO (XO (XO XH)))))))))))))))))))))))))))))))) :: ((Zpos (XI
+    (XI (XO (XO (XO (XO (XI (XI (XO (XO (XO (XO (XI (XI (XO (XO (XI (XO (XO
+    (XO (XI (XI (XI (XO (XI (XO (XI (XO (XO (XO (XO
+    XH)))))))))))))))))))))))))))))))) :: ((Zpos (XI (XO (XO (XI (XI (XO (XO
+    (XI (XO (XO (XO (XO (XI (XO (XO (XI (XO (XI (XO (XI (XO (XO (XO (XI (XI
+    (XO (XI (XI (XI (XO XH))))))))))))))))))))))))))))))) :: ((Zpos (XO (XI
+    (XI (XI (XO (XI (XO (XO (XI (XO (XI (XI (XO (XO (XO (XI (XI (XI (XO (XI
+    (XO (XO (XI (XO (XI (XO (XO (XI (XI (XO
+    XH))))))))))))))))))))))))))))))) :: ((Zpos (XI (XI (XI (XO (XI (XI (XI
+    (XI (XI (XI (XO (XI (XO (XI (XO (XI (XO (XO (XO (XI (XO (XO (XO (XO (XO
+    (XO (XI (XO (XI (XO XH))))))))))))))))))))))))))))))) :: ((Zpos (XO (XO
+    (XO (XO (XO (XO (XI (XO (XO (XI (XI (XO (XI (XI (XO (XI (XI (XO (XO (XI
+    (XO (XO (XI (XI (XO (XO (XO (XO (XI (XO
+    XH))))))))))))))))))))))))))))))) :: ((Zpos (XI (XO (XI (XO (XO (XO (XI
+    (XO (XO (XI (XI (XO (XO (XI (XI (XI (XO (XI (XI (XI (XO (XO (XO (XI (XO
+    (XI (XI (XI (XO (XO XH))))))))))))))))))))))))))))))) :: ((Zpos (XO (XI
+    (XO (XO (XI (XI (XI (XI (XI (XI (XO (XI (XI (XI (XI (XI (XI (XI (XI (XI
+    (XO (XO (XI (XO (XO (XI (XO (XI (XO (XO
+    XH))))))))))))))))))))))))))))))) :: ((Zpos (XI (XI (XO (XI (XO (XI (XO
+    (XO (XI (XO (XI (XI (XI (XO (XI (XI (XO (XO (XI (XI (XO (XO (XO (XO (XI
+    (XI (XI (XO (XO (XO XH))))))))))))))))))))))))))))))) :: ((Zpos (XO (XO
+    (XI (XI (XI (XO (XO (XI (XO (XO (XO (XO (XO (XO (XI (XI (XI (XO (XI (XI
+    (XO (XO (XI (XI (XI (XI (XO (XO (XO (XO
+    XH))))))))))))))))))))))))))))))) :: ((Zpos (XI (XO (XO (XO (XO (XI (XO
+    (XO (XI (XO (XI (XI (XI (XI (XI (XO (XO (XI (XO (XO (XO (XO (XO (XI (XI
+    (XI (XO (XI (XI (XI XH))))))))))))))))))))))))))))))) :: ((Zpos (XO (XI
+    (XI (XO (XI (XO (XO (XI (XO (XO (XO (XO (XO (XI (XI (XO (XI (XI (XO (XO
+    (XO (XO (XI (XO (XI (XI (XI (XI (XI (XI
+    XH))))))))))))))))))))))))))))))) :: ((Zpos (XI (XI (XI (XI (XO (XO (XI
+    (XO (XO (XI (XI (XO (XO (XO (XI (XO (XO (XO (XO (XO (XO (XO (XO (XO (XO
+    (XI (XO (XO (XI (XI XH))))))))))))))))))))))))))))))) :: ((Zpos (XO (XO
+    (XO (XI (XI (XI (XI (XI (XI (XI (XO (XI (XI (XO (XI (XO (XI (XO (XO (XO
+    (XO (XO (XI (XI (XO (XI (XI (XO (XI (XI
+    XH))))))))))))))))))))))))))))))) :: ((Zpos (XI (XO (XI (XI (XI (XI (XI
+    (XI (XI (XI (XO (XI (XO (XO (XO (XO (XO (XI (XI (XO (XO (XO (XO (XI (XO
+    (XO (XO (XI (XO (XI XH))))))))))))))))))))))))))))))) :: ((Zpos (XO (XI
+    (XO (XI (XO (XO (XI (XO (XO (XI (XI (XO (XI (XO (XO (XO (XI (XI (XI (XO
+    (XO (XO (XI (XO (XO (XO (XI (XI (XO (XI
+    XH))))))))))))))))))))))))))))))) :: ((Zpos (XI (XI (XO (XO (XI (XO (XO
+    (XI (XO (XO (XO (XO (XI (XI (XO (XO (XO (XO (XI (XO (XO (XO (XO (XO (XI
+    (XO (XO (XO (XO (XI XH))))))))))))))))))))))))))))))) :: ((Zpos (XO (XO
+    (XI (XO (XO (XI (XO (XO (XI (XO (XI (XI (XO (XI (XO (XO (XI (XO (XI (XO
+    (XO (XO (XI (XI (XI (XO (XI (XO (XO (XI
+    XH))))))))))))))))))))))))))))))) :: ((Zpos (XI (XO (XO (XI (XO (XI (XI
+    (XI (XI (XI (XO (XI (XO (XO (XI (XO (XI (XI (XO (XI (XI (XO (XO (XI (XI
+    (XO (XO (XO XH))))))))))))))))))))))))))))) :: ((Zpos (XO (XI (XI (XI (XI
+    (XO (XI (XO (XO (XI (XI (XO (XI (XO (XI (XO (XO (XI (XO (XI (XI (XO (XI
+    (XO (XI (XO (XI (XO XH))))))))))))))))))))))))))))) :: ((Zpos (XI (XI (XI
+    (XO (XO (XO (XO (XI (XO (XO (XO (XO (XI (XI (XI (XO (XI (XO (XO (XI (XI
+    (XO (XO (XO (XO (XO (XO (XI XH))))))))))))))))))))))))))))) :: ((Zpos (XO
+    (XO (XO (XO (XI (XI (XO (XO (XI (XO (XI (XI (XO (XI (XI (XO (XO (XO (XO
+    (XI (XI (XO (XI (XI (XO (XO (XI (XI
+    XH))))))))))))))))))))))))))))) :: ((Zpos (XI (XO (XI (XO (XI (XI (XO (XO
+    (XI (XO (XI (XI (XI (XI (XO (XO (XI (XI (XI (XI (XI (XO (XO (XI (XO
+    XH)))))))))))))))))))))))))) :: ((Zpos (XO (XI (XO (XO (XO (XO (XO (XI
+    (XO (XO (XO (XO (XO (XI (XO (XO (XO (XI (XI (XI (XI (XO (XI (XO (XO (XI
+    XH))))))))))))))))))))))))))) :: ((Zpos (XI (XI (XO (XI (XI (XO (XI (XO
+    (XO (XI (XI (XO (XO (XO (XO (XO (XI (XO (XI (XI (XI (XO (XO (XO (XI (XI
+    (XO XH)))))))))))))))))))))))))))) :: ((Zpos (XO (XO (XI (XI (XO (XI (XI
+    (XI (XI (XI (XO (XI (XI (XO (XO (XO (XO (XO (XI (XI (XI (XO (XI (XI (XI
+    (XI (XI XH)))))))))))))))))))))))))))) :: ((Zpos (XI (XO (XO (XO (XI (XO
+    (XI (XO (XO (XI (XI (XO (XO (XI (XO (XI (XI (XI (XO (XO (XI (XO (XO (XI
+    (XI (XI (XI (XO (XI XH)))))))))))))))))))))))))))))) :: ((Zpos (XO (XI
+    (XI (XO (XO (XI (XI (XI (XI (XI (XO (XI (XI (XI (XO (XI (XO (XI (XO (XO
+    (XI (XO (XI (XO (XI (XI (XO (XO (XI
+    XH)))))))))))))))))))))))))))))) :: ((Zpos (XI (XI (XI (XI (XI (XI (XO
+    (XO (XI (XO (XI (XI (XI (XO (XO (XI (XI (XO (XO (XO (XI (XO (XO (XO (XO
+    (XI (XI (XI (XI XH)))))))))))))))))))))))))))))) :: ((Zpos (XO (XO (XO
+    (XI (XO (XO (XO (XI (XO (XO (XO (XO (XO (XO (XO (XI (XO (XO (XO (XO (XI
+    (XO (XI (XI (XO (XI (XO (XI (XI
+    XH)))))))))))))))))))))))))))))) :: ((Zpos (XI (XO (XI (XI (XO (XO (XO
+    (XI (XO (XO (XO (XO (XI (XO (XI (XI (XI (XI (XI (XO (XI (XO (XO (XI (XO
+    (XO (XI (XO (XO XH)))))))))))))))))))))))))))))) :: ((Zpos (XO (XI (XO
+    (XI (XI (XI (XO (XO (XI (XO (XI (XI (XO (XO (XI (XI (XO (XI (XI (XO (XI
+    (XO (XI (XO (XO (XO (XO (XO (XO
+    XH)))))))))))))))))))))))))))))) :: ((Zpos (XI (XI (XO (XO (XO (XI (XI
+    (XI (XI (XI (XO (XI (XO (XI (XI (XI (XI (XO (XI (XO (XI (XO (XO (XO (XI
+    (XO (XI (XI (XO XH)))))))))))))))))))))))))))))) :: ((Zpos (XO (XO (XI
+    (XO (XI (XO (XI (XO (XO (XI (XI (XO (XI (XI (XI (XI (XO (XO (XI (XO (XI
+    (XO (XI (XI (XI (XO (XO (XI (XO
+    XH)))))))))))))))))))))))))))))) :: ((Zpos (XI (XO (XO (XI (XI (XI (XI
+    (XO (XO (XI (XI (XO (XO (XI (XO (XO (XI (XO (XO (XI (XO (XI (XO (XI (XI
+    (XO (XI (XO (XO (XO (XI XH)))))))))))))))))))))))))))))))) :: ((Zpos (XO
+    (XI (XI (XI (XO (XO (XI (XI (XI (XI (XO (XI (XI (XI (XO (XO (XO (XO (XO
+    (XI (XO (XI (XI (XO (XI (XO (XO (XO (XO (XO (XI
+    XH)))))))))))))))))))))))))))))))) :: ((Zpos (XI (XI (XI (XO (XI (XO (XO
+    (XO (XI (XO (XI (XI (XI (XO (XO (XO (XI (XI (XO (XI (XO (XI (XO (XO (XO
+    (XO (XI (XI (XO (XO (XI XH)))))))))))))))))))))))))))))))) :: ((Zpos (XO
+    (XO (XO (XO (XO (XI (XO (XI (XO (XO (XO (XO (XO (XO (XO (XO (XO (XI (XO
+    (XI (XO (XI (XI (XI (XO (XO (XO (XI (XO (XO (XI
+    XH)))))))))))))))))))))))))))))))) :: ((Zpos (XI (XO (XI (XO (XO (XI (XO
+    (XI (XO (XO (XO (XO (XI (XO (XI (XO (XI (XO (XI (XI (XO (XI (XO (XI (XO
+    (XI (XI (XO (XI (XO (XI XH)))))))))))))))))))))))))))))))) :: ((Zpos (XO
+    (XI (XO (XO (XI (XO (XO (XO (XI (XO (XI (XI (XO (XO (XI (XO (XO (XO (XI
+    (XI (XO (XI (XI (XO (XO (XI (XO (XO (XI (XO (XI
+    XH)))))))))))))))))))))))))))))))) :: ((Zpos (XI (XI (XO (XI (XO (XO (XI
+    (XI (XI (XI (XO (XI (XO (XI (XI (XO (XI (XI (XI (XI (XO (XI (XO (XO (XI
+    (XI (XI (XI (XI (XO (XI XH)))))))))))))))))))))))))))))))) :: ((Zpos (XO
+    (XO (XI (XI (XI (XI (XI (XO (XO (XI (XI (XO (XI (XI (XI (XO (XO (XI (XI
+    (XI (XO (XI (XI (XI (XI (XI (XO (XI (XI (XO (XI
+    XH)))))))))))))))))))))))))))))))) :: ((Zpos (XI (XO (XO (XO (XO (XO (XI
+    (XI (XI (XI (XO (XI (XO (XO (XI (XI (XI (XO (XO (XO (XO (XI (XO (XI (XI
+    (XI (XO (XO (XO (XI (XI XH)))))))))))))))))))))))))))))))) :: ((Zpos (XO
+    (XI (XI (XO (XI (XI (XI (XO (XO (XI (XI (XO (XI (XO (XI (XI (XO (XO (XO
+    (XO (XO (XI (XI (XO (XI (XI (XI (XO (XO (XI (XI
+    XH)))))))))))))))))))))))))))))))) :: ((Zpos (XI (XI (XI (XI (XO (XI (XO
+    (XI (XO (XO (XO (XO (XI (XI (XI (XI (XI (XI (XO (XO (XO (XI (XO (XO (XO
+    (XI (XO (XI (XO (XI (XI XH)))))))))))))))))))))))))))))))) :: ((Zpos (XO
+    (XO (XO (XI (XI (XO (XO (XO (XI (XO (XI (XI (XO (XI (XI (XI (XO (XI (XO
+    (XO (XO (XI (XI (XI (XO (XI (XI (XI (XO (XI (XI
+    XH)))))))))))))))))))))))))))))))) :: ((Zpos (XI (XO (XI (XI (XI (XO (XO
+    (XO (XI (XO (XI (XI (XI (XI (XO (XI (XI (XO (XI (XO (XO (XI (XO (XI (XO
+    (XO (XO (XO (XI (XI (XI XH)))))))))))))))))))))))))))))))) :: ((Zpos (XO
+    (XI (XO (XI (XO (XI (XO (XI (XO (XO (XO (XO (XO (XI (XO (XI (XO (XO (XI
+    (XO (XO (XI (XI (XO (XO (XO (XI (XO (XI (XI (XI
+    XH)))))))))))))))))))))))))))))))) :: ((Zpos (XI (XI (XO (XO (XI (XI (XI
+    (XO (XO (XI (XI (XO (XO (XO (XO (XI (XI (XI (XI (XO (XO (XI (XO (XO (XI
+    (XO (XO (XI (XI (XI (XI XH)))))))))))))))))))))))))))))))) :: ((Zpos (XO
+    (XO (XI (XO (XO (XO (XI (XI (XI (XI (XO (XI (XI (XO (XO (XI (XO (XI (XI
+    (XO (XO (XI (XI (XI (XI (XO (XI (XI (XI (XI (XI
+    XH)))))))))))))))))))))))))))))))) :: ((Zpos (XI (XO (XO (XI (XO (XO (XO
+    (XO (XI (XO (XI (XI (XI (XI (XI (XI (XO (XO (XO (XI (XI (XI (XO (XI (XI
+    (XO (XO (XI (XO (XO (XO XH)))))))))))))))))))))))))))))))) :: ((Zpos (XO
+    (XI (XI (XI (XI (XI (XO (XI (XO (XO (XO (XO (XO (XI (XI (XI (XI (XO (XO
+    (XI (XI (XI (XI (XO (XI (XO (XI (XI (XO (XO (XO
+    XH)))))))))))))))))))))))))))))))) :: ((Zpos (XI (XI (XI (XO (XO (XI (XI
+    (XO (XO (XI (XI (XO (XO (XO (XI (XI (XO (XI (XO (XI (XI (XI (XO (XO (XO
+    (XO (XO (XO (XO (XO (XO XH)))))))))))))))))))))))))))))))) :: ((Zpos (XO
+    (XO (XO (XO (XI (XO (XI (XI (XI (XI (XO (XI (XI (XO (XI (XI (XI (XI (XO
+    (XI (XI (XI (XI (XI (XO (XO (XI (XO (XO (XO (XO
+    XH)))))))))))))))))))))))))))))))) :: ((Zpos (XI (XO (XI (XO (XI (XO (XI
+    (XI (XI (XI (XO (XI (XO (XO (XO (XI (XO (XO (XI (XI (XI (XI (XO (XI (XO
+    (XI (XO (XI (XI (XO (XO XH)))))))))))))))))))))))))))))))) :: ((Zpos (XO
+    (XI (XO (XO (XO (XI (XI (XO (XO (XI (XI (XO (XI (XO (XO (XI (XI (XO (XI
+    (XI (XI (XI (XI (XO (XO (XI (XI (XI (XI (XO (XO
+    XH)))))))))))))))))))))))))))))))) :: ((Zpos (XI (XI (XO (XI (XI (XI (XO
+    (XI (XO (XO (XO (XO (XI (XI (XO (XI (XO (XI (XI (XI (XI (XI (XO (XO (XI
+    (XI (XO (XO (XI (XO (XO XH)))))))))))))))))))))))))))))))) :: ((Zpos (XO
+    (XO (XI (XI (XO (XO (XO (XO (XI (XO (XI (XI (XO (XI (XO (XI (XI (XI (XI
+    (XI (XI (XI (XI (XI (XI (XI (XI (XO (XI (XO (XO
+    XH)))))))))))))))))))))))))))))))) :: ((Zpos (XI (XO (XO (XO (XI (XI (XO
+    (XI (XO (XO (XO (XO (XI (XO (XO (XO (XO (XO (XO (XO (XI (XI (XO (XI (XI
+    (XI (XI (XI (XO (XI (XO XH)))))))))))))))))))))))))))))))) :: ((Zpos (XO
+    (XI (XI (XO (XO (XO (XO (XO (XI (XO (XI (XI (XO (XO (XO (XO (XI (XO (XO
+    (XO (XI (XI (XI (XO (XI (XI (XO (XI (XO (XI (XO
+    XH)))))))))))))))))))))))))))))))) :: ((Zpos (XI (XI (XI (XI (XI (XO (XI
+    (XI (XI (XI (XO (XI (XO (XI (XO (XO (XO (XI (XO (XO (XI (XI (XO (XO (XO
+    (XI (XI (XO (XO (XI (XO XH)))))))))))))))))))))))))))))))) :: ((Zpos (XO
+    (XO (XO (XI (XO (XI (XI (XO (XO (XI (XI (XO (XI (XI (XO (XO (XI (XI (XO
+    (XO (XI (XI (XI (XI (XO (XI (XO (XO (XO (XI (XO
+    XH)))))))))))))))))))))))))))))))) :: ((Zpos (XI (XO (XI (XI (XO (XI (XI
+    (XO (XO (XI (XI (XO (XO (XI (XI (XO (XO (XO (XI (XO (XI (XI (XO (XI (XO
+    (XO (XI (XI (XI (XI (XO XH)))))))))))))))))))))))))))))))) :: ((Zpos (XO
+    (XI (XO (XI (XI (XO (XI (XI (XI (XI (XO (XI (XI (XI (XI (XO (XI (XO (XI
+    (XO (XI (XI (XI (XO (XO (XO (XO (XI (XI (XI (XO
+    XH)))))))))))))))))))))))))))))))) :: ((Zpos (XI (XI (XO (XO (XO (XO (XO
+    (XO (XI (XO (XI (XI (XI (XO (XI (XO (XO (XI (XI (XO (XI (XI (XO (XO (XI
+    (XO (XI (XO (XI (XI (XO XH)))))))))))))))))))))))))))))))) :: ((Zpos (XO
+    (XO (XI (XO (XI (XI (XO (XI (XO (XO (XO (XO (XO (XO (XI (XO (XI (XI (XI
+    (XO (XI (XI (XI (XI (XI (XO (XO (XO (XI (XI (XO
+    XH)))))))))))))))))))))))))))))))) :: [])))))))))))))))))))))))))))))))))))))))))))))))))))))))))))))))))))))))))))))))))))))))))))))))))))))))))))))))))))))))))))))))))))))))))))))))))))))))))))))))))))))))))))))))))))))))))))))))))))))))))))))))))))))))))))))))))))))))))))))))))))))))))))))))
+
+(** val wAL_PAGE_SIZE : z **)
+
+let wAL_PAGE_SIZE =
+  Zpos (XO (XO (XO (XO (XO (XO (XO (XO (XO (XO (XO (XO XH))))))))))))
+
+(** val wAL_IWFSM_MAGICK : z **)
+
+let wAL_IWFSM_MAGICK =
   Zpos (XO (XO (XI (XI (XO (XO (XI (XI (XI (XI (XI (XO (XO (XO (XI (XI (XO
     (XO (XI (XI (XI (XO (XO (XI XH))))))))))))))))))))))))
 
-type kmode = { km_vnum : bool; km_real : bool; km_compound : bool }
+(** val bKP_WAL_CLEANUP : z **)
 
-(** val cmp2 : z list -> z list -> z **)
+let bKP_WAL_CLEANUP =
+  Zpos (XO XH)
 
-let rec cmp2 a b =
-  match a with
-  | [] -> Z0
-  | x :: a' ->
-    (match b with
-     | [] -> Z0
-     | y :: b' -> if Z.eqb x y then cmp2 a' b' else Z.sub x y)
+(** val bKP_MAIN_COPY : z **)
 
-(** val sgn3 : z -> z -> z **)
+let bKP_MAIN_COPY =
+  Zpos (XI XH)
 
-let sgn3 n1 n2 =
-  if Z.gtb n1 n2 then Zneg XH else if Z.ltb n1 n2 then Zpos XH else Z0
+(** val wAL_SCAN_SP_CHECKS_AVAIL : z **)
 
-(** val read_vnum2 : z list -> z **)
+let wAL_SCAN_SP_CHECKS_AVAIL =
+  Zpos XH
 
-let read_vnum2 b =
-  match read_vnum b with
-  | Some p -> let (n0, _) = p in n0
-  | None -> Z0
+(** val wAL_REPLAY_REBASES_FPOS : z **)
 
-(** val memcmp : nat -> z list -> z list -> z **)
+let wAL_REPLAY_REBASES_FPOS =
+  Zpos XH
 
-let memcmp n0 a b =
-  cmp2 (firstn n0 a) (firstn n0 b)
+(** val iW_ROUNDUP : z -> z -> z **)
 
-(** val af_skip : z list -> z list **)
+let iW_ROUNDUP x v =
+  Z.coq_land
+    (uw (Zpos (XO (XO (XO (XO (XO (XO XH)))))))
+      (Z.sub (uw (Zpos (XO (XO (XO (XO (XO (XO XH))))))) (Z.add x v))
+        (uw (Zpos (XO (XO (XO (XO (XO (XO XH))))))) (Zpos XH))))
+    (uw (Zpos (XO (XO (XO (XO (XO (XO XH)))))))
+      (Z.lnot
+        (uw (Zpos (XO (XO (XO (XO (XO (XO XH)))))))
+          (Z.sub v (uw (Zpos (XO (XO (XO (XO (XO (XO XH))))))) (Zpos XH))))))
 
-let rec af_skip s = match s with
-| [] -> []
-| c :: r ->
-  if (||) (Z.leb c (Zpos (XO (XO (XO (XO (XO XH)))))))
-       (Z.eqb c (Zpos (XI (XI (XI (XI (XI (XI XH))))))))
-  then af_skip r
-  else s
+type bytes = z list
 
-(** val af_int : z list -> z -> z * z list **)
+(** val le_enc : nat -> z -> bytes **)
 
-let rec af_int s acc =
-  match s with
-  | [] -> (acc, [])
-  | c :: r ->
-    if (||) (Z.ltb c (Zpos (XO (XO (XO (XO (XI XH)))))))
-         (Z.gtb c (Zpos (XI (XO (XO (XI (XI XH)))))))
-    then (acc, s)
-    else af_int r
-           (sw (Zpos (XO (XO (XO (XO (XO (XO XH)))))))
-             (Z.sub (Z.add (Z.mul acc (Zpos (XO (XI (XO XH))))) c) (Zpos (XO
-               (XO (XO (XO (XI XH))))))))
-
-(** val af_frac : z list -> nat -> z -> z -> z * z **)
-
-let rec af_frac s lim num k =
-  match lim with
-  | O -> (num, k)
-  | S l ->
-    (match s with
-     | [] -> (num, k)
-     | c :: r ->
-       if (||) (Z.ltb c (Zpos (XO (XO (XO (XO (XI XH)))))))
-            (Z.gtb c (Zpos (XI (XO (XO (XI (XI XH)))))))
-       then (num, k)
-       else af_frac r l
-              (Z.add (Z.mul num (Zpos (XO (XI (XO XH)))))
-                (Z.sub c (Zpos (XO (XO (XO (XO (XI XH))))))))
-              (Z.add k (Zpos XH)))
-
-(** val af_part : z list -> (z * z) * z list **)
-
-let af_part s =
-  let s0 = af_skip s in
-  (match s0 with
-   | [] ->
-     let sign = Zpos XH in
-     let (n0, rest) = af_int s0 Z0 in
-     ((sign, (sw (Zpos (XO (XO (XO (XO (XO (XO XH))))))) (Z.mul n0 sign))),
-     rest)
-   | z0 :: r ->
-     (match z0 with
-      | Zpos p ->
-        (match p with
-         | XI p0 ->
-           (match p0 with
-            | XO p1 ->
-              (match p1 with
-               | XI p2 ->
-                 (match p2 with
-                  | XI p3 ->
-                    (match p3 with
-                     | XO p4 ->
-                       (match p4 with
-                        | XH ->
-                          let sign = Zneg XH in
-                          let (n0, rest) = af_int r Z0 in
-                          ((sign,
-                          (sw (Zpos (XO (XO (XO (XO (XO (XO XH)))))))
-                            (Z.mul n0 sign))), rest)
-                        | _ ->
-                          let sign = Zpos XH in
-                          let (n0, rest) = af_int s0 Z0 in
-                          ((sign,
-                          (sw (Zpos (XO (XO (XO (XO (XO (XO XH)))))))
-                            (Z.mul n0 sign))), rest))
-                     | _ ->
-                       let sign = Zpos XH in
-                       let (n0, rest) = af_int s0 Z0 in
-                       ((sign,
-                       (sw (Zpos (XO (XO (XO (XO (XO (XO XH)))))))
-                         (Z.mul n0 sign))), rest))
-                  | _ ->
-                    let sign = Zpos XH in
-                    let (n0, rest) = af_int s0 Z0 in
-                    ((sign,
-                    (sw (Zpos (XO (XO (XO (XO (XO (XO XH)))))))
-                      (Z.mul n0 sign))), rest))
-               | _ ->
-                 let sign = Zpos XH in
-                 let (n0, rest) = af_int s0 Z0 in
-                 ((sign,
-                 (sw (Zpos (XO (XO (XO (XO (XO (XO XH))))))) (Z.mul n0 sign))),
-                 rest))
-            | _ ->
-              let sign = Zpos XH in
-              let (n0, rest) = af_int s0 Z0 in
-              ((sign,
-              (sw (Zpos (XO (XO (XO (XO (XO (XO XH))))))) (Z.mul n0 sign))),
-              rest))
-         | _ ->
-           let sign = Zpos XH in
-           let (n0, rest) = af_int s0 Z0 in
-           ((sign,
-           (sw (Zpos (XO (XO (XO (XO (XO (XO XH))))))) (Z.mul n0 sign))),
-           rest))
-      | _ ->
-        let sign = Zpos XH in
-        let (n0, rest) = af_int s0 Z0 in
-        ((sign,
-        (sw (Zpos (XO (XO (XO (XO (XO (XO XH))))))) (Z.mul n0 sign))), rest)))
-
-(** val af_hasfrac : z list -> bool **)
-
-let af_hasfrac = function
-| [] -> false
-| z0 :: l ->
-  (match z0 with
-   | Zpos p ->
-     (match p with
-      | XO p0 ->
-        (match p0 with
-         | XI p1 ->
-           (match p1 with
-            | XI p2 ->
-              (match p2 with
-               | XI p3 ->
-                 (match p3 with
-                  | XO p4 ->
-                    (match p4 with
-                     | XH -> (match l with
-                              | [] -> false
-                              | _ :: _ -> true)
-                     | _ -> false)
-                  | _ -> false)
-               | _ -> false)
-            | _ -> false)
-         | _ -> false)
-      | _ -> false)
-   | _ -> false)
-
-(** val af_fracval : z -> z list -> z * z **)
-
-let af_fracval sign rest =
-  if af_hasfrac rest
-  then let (n0, k) = af_frac (tl rest) (Z.to_nat iWNUMBUF_SIZE) Z0 Z0 in
-       ((Z.mul n0 sign), k)
-  else (Z0, Z0)
-
-(** val afcmp : (nat -> z list -> z list -> z) -> z list -> z list -> z **)
-
-let afcmp tie a b =
-  let (p, arest) = af_part a in
-  let (asign, anum) = p in
-  let (p0, brest) = af_part b in
-  let (bsign, bnum) = p0 in
-  if Z.ltb anum bnum
-  then Zneg XH
-  else if Z.gtb anum bnum
-       then Zpos XH
-       else let (an, ak) = af_fracval asign arest in
-            let (bn, bk) = af_fracval bsign brest in
-            let l = Z.mul an (Z.pow (Zpos (XO (XI (XO XH)))) bk) in
-            let r = Z.mul bn (Z.pow (Zpos (XO (XI (XO XH)))) ak) in
-            if (&&) ((||) (af_hasfrac arest) (af_hasfrac brest)) (Z.ltb l r)
-            then Zneg XH
-            else if (&&) ((||) (af_hasfrac arest) (af_hasfrac brest))
-                      (Z.gtb l r)
-                 then Zpos XH
-                 else let rv = tie (Nat.min (length a) (length b)) a b in
-                      if Z.eqb rv Z0
-                      then Z.sub (Z.of_nat (length a)) (Z.of_nat (length b))
-                      else rv
-
-(** val vnum_cmp : z list -> z list -> z **)
-
-let vnum_cmp v1 v2 =
-  let l1 = Z.of_nat (length v1) in
-  let l2 = Z.of_nat (length v2) in
-  if (||) ((||) (negb (Z.eqb l2 l1)) (Z.gtb l2 iW_VNUMBUFSZ))
-       (Z.gtb l1 iW_VNUMBUFSZ)
-  then Z.sub l2 l1
-  else sgn3 (read_vnum2 v1) (read_vnum2 v2)
-
-(** val cmp_keys_prefix :
-    (nat -> z list -> z list -> z) -> kmode -> z list -> z list -> z -> z **)
-
-let cmp_keys_prefix tie m v1 kdata kcomp =
-  if m.km_compound
-  then (match read_vnum v1 with
-        | Some p ->
-          let (c1, step) = p in
-          let u1 = skipn step v1 in
-          let v1len = Z.sub (Z.of_nat (length v1)) (Z.of_nat step) in
-          let v2len = Z.of_nat (length kdata) in
-          if Z.ltb v1len (Zpos XH)
-          then Z.sub v2len v1len
-          else if m.km_vnum
-               then let r = vnum_cmp u1 kdata in
-                    if (||)
-                         ((||) (negb (Z.eqb v2len v1len))
-                           (Z.gtb v2len iW_VNUMBUFSZ))
-                         (Z.gtb v1len iW_VNUMBUFSZ)
-                    then r
-                    else if Z.eqb r Z0 then sgn3 c1 kcomp else r
-               else if m.km_real
-                    then let r = afcmp tie kdata u1 in
-                         if Z.eqb r Z0 then sgn3 c1 kcomp else r
-                    else cmp2 kdata u1
-        | None -> Z0)
-  else if m.km_vnum
-       then vnum_cmp v1 kdata
-       else if m.km_real then afcmp tie kdata v1 else cmp2 kdata v1
-
-(** val cmp_keys :
-    (nat -> z list -> z list -> z) -> kmode -> z list -> z list -> z -> z **)
-
-let cmp_keys tie m v1 kdata kcomp =
-  let rv = cmp_keys_prefix tie m v1 kdata kcomp in
-  if (&&) (Z.eqb rv Z0) (negb ((||) m.km_vnum m.km_real))
-  then if m.km_compound
-       then (match read_vnum v1 with
-             | Some p ->
-               let (c1, step) = p in
-               let v1len = Z.sub (Z.of_nat (length v1)) (Z.of_nat step) in
-               if Z.eqb (Z.of_nat (length kdata)) v1len
-               then sgn3 c1 kcomp
-               else Z.sub (Z.of_nat (length kdata)) v1len
-             | None -> Z0)
-       else Z.sub (Z.of_nat (length kdata)) (Z.of_nat (length v1))
-  else rv
-
-(** val u8 : (z -> z) -> z -> z **)
-
-let u8 rd =
-  rd
-
-(** val u16 : (z -> z) -> z -> z **)
-
-let u16 rd o =
-  Z.add (rd o)
-    (Z.mul (Zpos (XO (XO (XO (XO (XO (XO (XO (XO XH)))))))))
-      (rd (Z.add o (Zpos XH))))
-
-(** val u32 : (z -> z) -> z -> z **)
-
-let u32 rd o =
-  Z.add (rd o)
-    (Z.mul (Zpos (XO (XO (XO (XO (XO (XO (XO (XO XH)))))))))
-      (Z.add (rd (Z.add o (Zpos XH)))
-        (Z.mul (Zpos (XO (XO (XO (XO (XO (XO (XO (XO XH)))))))))
-          (Z.add (rd (Z.add o (Zpos (XO XH))))
-            (Z.mul (Zpos (XO (XO (XO (XO (XO (XO (XO (XO XH)))))))))
-              (rd (Z.add o (Zpos (XI XH)))))))))
-
-(** val u64 : (z -> z) -> z -> z **)
-
-let u64 rd o =
-  Z.add (u32 rd o)
-    (Z.mul (Zpos (XO (XO (XO (XO (XO (XO (XO (XO (XO (XO (XO (XO (XO (XO (XO
-      (XO (XO (XO (XO (XO (XO (XO (XO (XO (XO (XO (XO (XO (XO (XO (XO (XO
-      XH)))))))))))))))))))))))))))))))))
-      (u32 rd (Z.add o (Zpos (XO (XO XH))))))
-
-(** val bytes_at : (z -> z) -> nat -> z -> z list **)
-
-let rec bytes_at rd n0 o =
+let rec le_enc n0 v =
   match n0 with
   | O -> []
-  | S k -> (rd o) :: (bytes_at rd k (Z.add o (Zpos XH)))
+  | S k ->
+    (Z.modulo v (Zpos (XO (XO (XO (XO (XO (XO (XO (XO XH)))))))))) :: 
+      (le_enc k (Z.div v (Zpos (XO (XO (XO (XO (XO (XO (XO (XO XH)))))))))))
 
-(** val bS : z **)
+(** val le_dec : bytes -> z **)
 
-let bS =
-  Z.pow (Zpos (XO XH)) iWKV_FSM_BPOW
+let rec le_dec = function
+| [] -> Z0
+| b :: r ->
+  Z.add b (Z.mul (Zpos (XO (XO (XO (XO (XO (XO (XO (XO XH))))))))) (le_dec r))
 
-(** val addr_of : z -> z **)
+(** val rd : nat -> z -> bytes -> z **)
 
-let addr_of blk =
-  Z.mul blk bS
+let rd n0 off l =
+  le_dec (firstn n0 (skipn (Z.to_nat off) l))
 
-(** val vnum_at : (z -> z) -> nat -> z -> z -> z -> z -> (z * z) option **)
+(** val rd_off : z -> bytes -> z **)
 
-let rec vnum_at rd fuel o base acc step =
+let rd_off off l =
+  sw (Zpos (XO (XO (XO (XO (XO (XO XH)))))))
+    (rd (S (S (S (S (S (S (S (S O)))))))) off l)
+
+type rec0 =
+| RSep of z * z
+| RSet of z * z * z
+| RCopy of z * z * z
+| RWrite of z * z * bytes
+| RResize of z * z
+| RSavepoint of z
+| RReset
+
+(** val hdr : z -> bytes **)
+
+let hdr id =
+  id :: (Z0 :: (Z0 :: (Z0 :: [])))
+
+(** val enc_rec : rec0 -> bytes **)
+
+let enc_rec = function
+| RSep (crc, len) ->
+  app (hdr wOP_SEP)
+    (app (le_enc (S (S (S (S O)))) crc) (le_enc (S (S (S (S O)))) len))
+| RSet (val0, off, len) ->
+  app (hdr wOP_SET)
+    (app (le_enc (S (S (S (S O)))) val0)
+      (app (le_enc (S (S (S (S (S (S (S (S O)))))))) off)
+        (le_enc (S (S (S (S (S (S (S (S O)))))))) len)))
+| RCopy (off, len, noff) ->
+  app (hdr wOP_COPY)
+    (app (le_enc (S (S (S (S (S (S (S (S O)))))))) off)
+      (app (le_enc (S (S (S (S (S (S (S (S O)))))))) len)
+        (le_enc (S (S (S (S (S (S (S (S O)))))))) noff)))
+| RWrite (crc, off, payload) ->
+  app (hdr wOP_WRITE)
+    (app (le_enc (S (S (S (S O)))) crc)
+      (app (le_enc (S (S (S (S O)))) (Z.of_nat (length payload)))
+        (app (le_enc (S (S (S (S (S (S (S (S O)))))))) off) payload)))
+| RResize (osize, nsize) ->
+  app (hdr wOP_RESIZE)
+    (app (le_enc (S (S (S (S (S (S (S (S O)))))))) osize)
+      (le_enc (S (S (S (S (S (S (S (S O)))))))) nsize))
+| RSavepoint ts ->
+  app (hdr wOP_SAVEPOINT) (le_enc (S (S (S (S (S (S (S (S O)))))))) ts)
+| RReset -> hdr wOP_RESET
+
+(** val encode : rec0 list -> bytes **)
+
+let encode rs =
+  flat_map enc_rec rs
+
+(** val rec_size : rec0 -> z **)
+
+let rec_size = function
+| RSep (_, _) -> sizeof_WBSEP
+| RSet (_, _, _) -> sizeof_WBSET
+| RCopy (_, _, _) -> sizeof_WBCOPY
+| RWrite (_, _, p) -> Z.add sizeof_WBWRITE (Z.of_nat (length p))
+| RResize (_, _) -> sizeof_WBRESIZE
+| RSavepoint _ -> sizeof_WBSAVEPOINT
+| RReset -> sizeof_WBRESET
+
+(** val layout_ok : bool **)
+
+let layout_ok =
+  (&&)
+    ((&&)
+      ((&&)
+        ((&&)
+          ((&&)
+            ((&&)
+              ((&&)
+                ((&&)
+                  ((&&)
+                    ((&&)
+                      ((&&)
+                        ((&&)
+                          ((&&)
+                            ((&&)
+                              ((&&)
+                                ((&&)
+                                  ((&&)
+                                    ((&&)
+                                      ((&&)
+                                        ((&&)
+                                          ((&&)
+                                            ((&&)
+                                              ((&&)
+                                                ((&&)
+                                                  ((&&)
+                                                    ((&&)
+                                                      ((&&)
+                                                        (Z.eqb sizeof_WBSEP
+                                                          (Zpos (XO (XO (XI
+                                                          XH)))))
+                                                        (Z.eqb
+                                                          offsetof_WBSEP_crc
+                                                          (Zpos (XO (XO XH)))))
+                                                      (Z.eqb
+                                                        offsetof_WBSEP_len
+                                                        (Zpos (XO (XO (XO
+                                                        XH))))))
+                                                    (Z.eqb sizeof_WBRESET
+                                                      (Zpos (XO (XO XH)))))
+                                                  (Z.eqb sizeof_WBSET (Zpos
+                                                    (XO (XO (XO (XI XH)))))))
+                                                (Z.eqb offsetof_WBSET_val
+                                                  (Zpos (XO (XO XH)))))
+                                              (Z.eqb offsetof_WBSET_off (Zpos
+                                                (XO (XO (XO XH))))))
+                                            (Z.eqb offsetof_WBSET_len (Zpos
+                                              (XO (XO (XO (XO XH)))))))
+                                          (Z.eqb sizeof_WBCOPY (Zpos (XO (XO
+                                            (XI (XI XH)))))))
+                                        (Z.eqb offsetof_WBCOPY_off (Zpos (XO
+                                          (XO XH)))))
+                                      (Z.eqb offsetof_WBCOPY_len (Zpos (XO
+                                        (XO (XI XH))))))
+                                    (Z.eqb offsetof_WBCOPY_noff (Zpos (XO (XO
+                                      (XI (XO XH)))))))
+                                  (Z.eqb sizeof_WBWRITE (Zpos (XO (XO (XI (XO
+                                    XH)))))))
+                                (Z.eqb offsetof_WBWRITE_crc (Zpos (XO (XO
+                                  XH)))))
+                              (Z.eqb offsetof_WBWRITE_len (Zpos (XO (XO (XO
+                                XH))))))
+                            (Z.eqb offsetof_WBWRITE_off (Zpos (XO (XO (XI
+                              XH))))))
+                          (Z.eqb sizeof_WBRESIZE (Zpos (XO (XO (XI (XO
+                            XH)))))))
+                        (Z.eqb offsetof_WBRESIZE_osize (Zpos (XO (XO XH)))))
+                      (Z.eqb offsetof_WBRESIZE_nsize (Zpos (XO (XO (XI XH))))))
+                    (Z.eqb sizeof_WBSAVEPOINT (Zpos (XO (XO (XI XH))))))
+                  (Z.eqb offsetof_WBSAVEPOINT_ts (Zpos (XO (XO XH)))))
+                (Z.eqb wOP_SET (Zpos XH))) (Z.eqb wOP_COPY (Zpos (XO XH))))
+            (Z.eqb wOP_WRITE (Zpos (XI XH))))
+          (Z.eqb wOP_RESIZE (Zpos (XO (XO XH)))))
+        (Z.eqb wOP_SAVEPOINT (Zpos (XI (XO XH)))))
+      (Z.eqb wOP_RESET (Zpos (XO (XI XH)))))
+    (Z.eqb wOP_SEP (Zpos (XI (XI (XI (XI (XI (XI XH))))))))
+
+(** val crc32_step : z -> z -> z **)
+
+let crc32_step crc b =
+  Z.coq_lxor
+    (Z.coq_land (Z.shiftl crc (Zpos (XO (XO (XO XH))))) (Zpos (XI (XI (XI (XI
+      (XI (XI (XI (XI (XI (XI (XI (XI (XI (XI (XI (XI (XI (XI (XI (XI (XI (XI
+      (XI (XI (XI (XI (XI (XI (XI (XI (XI XH)))))))))))))))))))))))))))))))))
+    (nth
+      (Z.to_nat
+        (Z.coq_land
+          (Z.coq_lxor (Z.shiftr crc (Zpos (XO (XO (XO (XI XH)))))) b) (Zpos
+          (XI (XI (XI (XI (XI (XI (XI XH)))))))))) iwu_crc32_table Z0)
+
+(** val crc32 : bytes -> z -> z **)
+
+let crc32 buf init =
+  fold_left crc32_step buf init
+
+type sstep =
+| SStop
+| SNext of z * z * z
+
+(** val scan_step : bool -> bool -> z -> z -> bytes -> z -> z -> sstep **)
+
+let scan_step spchk first avail pos l fpos rpos =
+  let opid = nth O l Z0 in
+  if (&&) first (negb (Z.eqb opid wOP_SEP))
+  then SStop
+  else if Z.eqb opid wOP_SEP
+       then if Z.ltb avail sizeof_WBSEP
+            then SStop
+            else if Z.gtb (rd (S (S (S (S O)))) offsetof_WBSEP_len l) avail
+                 then SStop
+                 else SNext (sizeof_WBSEP, fpos, rpos)
+       else if Z.eqb opid wOP_SET
+            then if Z.ltb avail sizeof_WBSET
+                 then SStop
+                 else SNext (sizeof_WBSET, fpos, rpos)
+            else if Z.eqb opid wOP_COPY
+                 then if Z.ltb avail sizeof_WBCOPY
+                      then SStop
+                      else SNext (sizeof_WBCOPY, fpos, rpos)
+                 else if Z.eqb opid wOP_WRITE
+                      then if Z.ltb avail sizeof_WBWRITE
+                           then SStop
+                           else let len =
+                                  rd (S (S (S (S O)))) offsetof_WBWRITE_len l
+                                in
+                                if Z.ltb avail len
+                                then SStop
+                                else SNext ((Z.add sizeof_WBWRITE len), fpos,
+                                       rpos)
+                      else if Z.eqb opid wOP_RESIZE
+                           then if Z.ltb avail sizeof_WBRESIZE
+                                then SStop
+                                else SNext (sizeof_WBRESIZE, fpos, rpos)
+                           else if Z.eqb opid wOP_SAVEPOINT
+                                then if (&&) spchk
+                                          (Z.ltb avail sizeof_WBSAVEPOINT)
+                                     then SStop
+                                     else SNext (sizeof_WBSAVEPOINT, pos,
+                                            rpos)
+                                else if Z.eqb opid wOP_RESET
+                                     then SNext (sizeof_WBRESET, fpos, pos)
+                                     else SStop
+
+(** val scan_loop :
+    bool -> nat -> bool -> z -> z -> bytes -> z -> z -> z * z **)
+
+let rec scan_loop spchk fuel first fsz pos l fpos rpos =
+  match fuel with
+  | O -> (fpos, rpos)
+  | S f ->
+    if negb (Z.ltb pos fsz)
+    then (fpos, rpos)
+    else (match scan_step spchk first (Z.sub fsz pos) pos l fpos rpos with
+          | SStop -> (fpos, rpos)
+          | SNext (adv, fp, rp) ->
+            scan_loop spchk f false fsz (Z.add pos adv)
+              (skipn (Z.to_nat adv) l) fp rp)
+
+(** val sp_checks : bool **)
+
+let sp_checks =
+  Z.eqb wAL_SCAN_SP_CHECKS_AVAIL (Zpos XH)
+
+(** val scan_with : bool -> bytes -> z * z **)
+
+let scan_with spchk wal =
+  scan_loop spchk (S (length wal)) true (Z.of_nat (length wal)) Z0 wal Z0 Z0
+
+(** val scan : bytes -> z * z **)
+
+let scan wal =
+  scan_with sp_checks wal
+
+(** val parse_loop : nat -> bytes -> rec0 list option **)
+
+let rec parse_loop fuel l =
   match fuel with
   | O -> None
   | S f ->
-    let b = rd o in
-    if Z.ltb b (Zpos (XO (XO (XO (XO (XO (XO (XO XH))))))))
-    then Some ((Z.add acc (Z.mul base b)), (Z.add step (Zpos XH)))
-    else vnum_at rd f (Z.add o (Zpos XH))
-           (Z.mul base (Zpos (XO (XO (XO (XO (XO (XO (XO XH)))))))))
-           (Z.add acc
-             (Z.mul base
-               (Z.sub (Zpos (XI (XI (XI (XI (XI (XI (XI XH)))))))) b)))
-           (Z.add step (Zpos XH))
+    (match l with
+     | [] -> Some []
+     | opid :: _ ->
+       let avail = Z.of_nat (length l) in
+       let next = fun sz r ->
+         if Z.ltb avail sz
+         then None
+         else (match parse_loop f (skipn (Z.to_nat sz) l) with
+               | Some rs -> Some (r :: rs)
+               | None -> None)
+       in
+       if Z.eqb opid wOP_SEP
+       then next sizeof_WBSEP (RSep
+              ((rd (S (S (S (S O)))) offsetof_WBSEP_crc l),
+              (rd (S (S (S (S O)))) offsetof_WBSEP_len l)))
+       else if Z.eqb opid wOP_SET
+            then next sizeof_WBSET (RSet
+                   ((rd (S (S (S (S O)))) offsetof_WBSET_val l),
+                   (rd_off offsetof_WBSET_off l),
+                   (rd_off offsetof_WBSET_len l)))
+            else if Z.eqb opid wOP_COPY
+                 then next sizeof_WBCOPY (RCopy
+                        ((rd_off offsetof_WBCOPY_off l),
+                        (rd_off offsetof_WBCOPY_len l),
+                        (rd_off offsetof_WBCOPY_noff l)))
+                 else if Z.eqb opid wOP_WRITE
+                      then if Z.ltb avail sizeof_WBWRITE
+                           then None
+                           else let len =
+                                  rd (S (S (S (S O)))) offsetof_WBWRITE_len l
+                                in
+                                next (Z.add sizeof_WBWRITE len) (RWrite
+                                  ((rd (S (S (S (S O)))) offsetof_WBWRITE_crc
+                                     l), (rd_off offsetof_WBWRITE_off l),
+                                  (firstn (Z.to_nat len)
+                                    (skipn (Z.to_nat sizeof_WBWRITE) l))))
+                      else if Z.eqb opid wOP_RESIZE
+                           then next sizeof_WBRESIZE (RResize
+                                  ((rd_off offsetof_WBRESIZE_osize l),
+                                  (rd_off offsetof_WBRESIZE_nsize l)))
+                           else if Z.eqb opid wOP_SAVEPOINT
+                                then next sizeof_WBSAVEPOINT (RSavepoint
+                                       (rd (S (S (S (S (S (S (S (S O))))))))
+                                         offsetof_WBSAVEPOINT_ts l))
+                                else if Z.eqb opid wOP_RESET
+                                     then next sizeof_WBRESET RReset
+                                     else None)
 
-(** val rdv : (z -> z) -> z -> (z * z) option **)
+(** val parse : bytes -> rec0 list option **)
 
-let rdv rd o =
-  vnum_at rd (S (S (S (S (S (S (S (S (S (S O)))))))))) o (Zpos XH) Z0 Z0
+let parse wal =
+  parse_loop (S (length wal)) wal
 
-(** val bytes_eq : z list -> z list -> bool **)
+(** val is_sp : rec0 -> bool **)
 
-let rec bytes_eq a b =
-  match a with
-  | [] -> (match b with
+let is_sp = function
+| RSavepoint _ -> true
+| _ -> false
+
+(** val is_sep : rec0 -> bool **)
+
+let is_sep = function
+| RSep (_, _) -> true
+| _ -> false
+
+(** val first_sp : rec0 list -> z -> z option **)
+
+let rec first_sp rs pos =
+  match rs with
+  | [] -> None
+  | r :: t ->
+    if is_sp r then Some pos else first_sp t (Z.add pos (rec_size r))
+
+(** val u32 : z -> bool **)
+
+let u32 x =
+  (&&) (Z.leb Z0 x)
+    (Z.ltb x (Zpos (XO (XO (XO (XO (XO (XO (XO (XO (XO (XO (XO (XO (XO (XO
+      (XO (XO (XO (XO (XO (XO (XO (XO (XO (XO (XO (XO (XO (XO (XO (XO (XO (XO
+      XH))))))))))))))))))))))))))))))))))
+
+(** val i64 : z -> bool **)
+
+let i64 x =
+  (&&)
+    (Z.leb (Zneg (XO (XO (XO (XO (XO (XO (XO (XO (XO (XO (XO (XO (XO (XO (XO
+      (XO (XO (XO (XO (XO (XO (XO (XO (XO (XO (XO (XO (XO (XO (XO (XO (XO (XO
+      (XO (XO (XO (XO (XO (XO (XO (XO (XO (XO (XO (XO (XO (XO (XO (XO (XO (XO
+      (XO (XO (XO (XO (XO (XO (XO (XO (XO (XO (XO (XO
+      XH)))))))))))))))))))))))))))))))))))))))))))))))))))))))))))))))) x)
+    (Z.ltb x (Zpos (XO (XO (XO (XO (XO (XO (XO (XO (XO (XO (XO (XO (XO (XO
+      (XO (XO (XO (XO (XO (XO (XO (XO (XO (XO (XO (XO (XO (XO (XO (XO (XO (XO
+      (XO (XO (XO (XO (XO (XO (XO (XO (XO (XO (XO (XO (XO (XO (XO (XO (XO (XO
+      (XO (XO (XO (XO (XO (XO (XO (XO (XO (XO (XO (XO (XO
+      XH)))))))))))))))))))))))))))))))))))))))))))))))))))))))))))))))))
+
+(** val rec_range : rec0 -> bool **)
+
+let rec_range = function
+| RSep (crc, len) -> (&&) (u32 crc) (u32 len)
+| RSet (val0, off, len) -> (&&) ((&&) (u32 val0) (i64 off)) (i64 len)
+| RCopy (off, len, noff) -> (&&) ((&&) (i64 off) (i64 len)) (i64 noff)
+| RWrite (crc, off, p) ->
+  (&&) ((&&) ((&&) (u32 crc) (i64 off)) (u32 (Z.of_nat (length p))))
+    (forallb (fun b ->
+      (&&) (Z.leb Z0 b)
+        (Z.ltb b (Zpos (XO (XO (XO (XO (XO (XO (XO (XO XH))))))))))) p)
+| RResize (o, n0) -> (&&) (i64 o) (i64 n0)
+| RSavepoint ts ->
+  (&&) (Z.leb Z0 ts)
+    (Z.ltb ts (Zpos (XO (XO (XO (XO (XO (XO (XO (XO (XO (XO (XO (XO (XO (XO
+      (XO (XO (XO (XO (XO (XO (XO (XO (XO (XO (XO (XO (XO (XO (XO (XO (XO (XO
+      (XO (XO (XO (XO (XO (XO (XO (XO (XO (XO (XO (XO (XO (XO (XO (XO (XO (XO
+      (XO (XO (XO (XO (XO (XO (XO (XO (XO (XO (XO (XO (XO (XO
+      XH))))))))))))))))))))))))))))))))))))))))))))))))))))))))))))))))))
+| RReset -> true
+
+(** val sep_ok : rec0 list -> z -> bool **)
+
+let rec sep_ok rs pos =
+  match rs with
+  | [] -> true
+  | r :: t ->
+    (&&)
+      (match r with
+       | RSep (_, len) ->
+         (match first_sp t (Z.add pos (rec_size r)) with
+          | Some q -> Z.leb (Z.add pos len) q
+          | None -> true)
+       | _ -> true) (sep_ok t (Z.add pos (rec_size r)))
+
+(** val wf_log : rec0 list -> bool **)
+
+let wf_log rs =
+  (&&)
+    ((&&) (match rs with
            | [] -> true
-           | _ :: _ -> false)
-  | x :: a' ->
-    (match b with
-     | [] -> false
-     | y :: b' -> (&&) (Z.eqb x y) (bytes_eq a' b'))
+           | r :: _ -> is_sep r) (forallb rec_range rs)) (sep_ok rs Z0)
 
-(** val list_eqz : z list -> z list -> bool **)
+(** val crc_ok : rec0 list -> bool **)
 
-let list_eqz =
-  bytes_eq
-
-type complaint =
-| CBadMagic of z
-| CBadDb of z
-| CChainLoop of z * z
-| CNodeHeader of z * z
-| CNodeEmpty of z
-| CNodeSlots of z * z
-| CNodeOrder of z
-| CGlobalOrder of z
-| CPrefix of z
-| CBackLink of z
-| CLevelChain of z * z
-| CLevelCount of z * z
-| CKvblk of z * z
-| CSlotOverlap of z
-| CBlocksOverlap of z
-| CLeak of z
-| CUnallocated of z
-| CBeyondFile of z
-
-type sblk = { s_blk : z; s_flags : z; s_lvl : z; s_lkl : z; s_pnum : 
-              z; s_p0 : z; s_kblk : z; s_pi : z list; s_n : z list;
-              s_bpos : z; s_lk : z list }
-
-(** val nSLEV : nat **)
-
-let nSLEV =
-  Z.to_nat sLEVELS
-
-(** val nIDXA : nat **)
-
-let nIDXA =
-  Z.to_nat kVBLK_IDXNUM
-
-(** val u32s : (z -> z) -> nat -> z -> z list **)
-
-let rec u32s rd n0 o =
-  match n0 with
-  | O -> []
-  | S k -> (u32 rd o) :: (u32s rd k (Z.add o (Zpos (XO (XO XH)))))
-
-(** val read_sblk : (z -> z) -> z -> sblk **)
-
-let read_sblk rd blk =
-  let a = addr_of blk in
-  { s_blk = blk; s_flags = (u8 rd (Z.add a sOFF_FLAGS_U1)); s_lvl =
-  (u8 rd (Z.add a sOFF_LVL_U1)); s_lkl = (u8 rd (Z.add a sOFF_LKL_U1));
-  s_pnum = (u8 rd (Z.add a sOFF_PNUM_U1)); s_p0 =
-  (u32 rd (Z.add a sOFF_P0_U4)); s_kblk = (u32 rd (Z.add a sOFF_KBLK_U4));
-  s_pi = (bytes_at rd nIDXA (Z.add a sOFF_PI0_U1)); s_n =
-  (u32s rd nSLEV (Z.add a sOFF_N0_U4)); s_bpos =
-  (u8 rd (Z.add a sOFF_BPOS_U1_V2)); s_lk =
-  (bytes_at rd (Z.to_nat (Z.min (u8 rd (Z.add a sOFF_LKL_U1)) sBLK_LKLEN))
-    (Z.add a sOFF_LK_V2)) }
-
-(** val read_pidx :
-    (z -> z) -> nat -> z -> (z * z) list -> ((z * z) list * z) option **)
-
-let rec read_pidx rd n0 o acc =
-  match n0 with
-  | O -> Some ((rev acc), o)
-  | S k ->
-    (match rdv rd o with
-     | Some p ->
-       let (off, st1) = p in
-       (match rdv rd (Z.add o st1) with
-        | Some p0 ->
-          let (len, st2) = p0 in
-          read_pidx rd k (Z.add (Z.add o st1) st2) ((off, len) :: acc)
-        | None -> None)
-     | None -> None)
-
-type kvb = { k_szpow : z; k_idxsz : z; k_pidx : (z * z) list; k_idxend : z }
-
-(** val read_kvblk : (z -> z) -> z -> kvb option **)
-
-let read_kvblk rd blk =
-  let a = addr_of blk in
-  (match read_pidx rd nIDXA (Z.add a kVBLK_HDRSZ) [] with
-   | Some p0 ->
-     let (p, e) = p0 in
-     Some { k_szpow = (u8 rd a); k_idxsz = (u16 rd (Z.add a (Zpos XH)));
-     k_pidx = p; k_idxend = (Z.sub e a) }
-   | None -> None)
-
-(** val slot_key : (z -> z) -> z -> z -> z -> z -> (z list * z) option **)
-
-let slot_key rd blk szpow off len =
-  let p = Z.sub (Z.add (addr_of blk) (Z.pow (Zpos (XO XH)) szpow)) off in
-  (match rdv rd p with
-   | Some p0 ->
-     let (klen, st) = p0 in
-     if (||) ((||) (Z.ltb klen (Zpos XH)) (Z.gtb (Z.add klen st) len))
-          (Z.gtb klen (Zpos (XO (XO (XO (XO (XI (XI (XI (XO (XI (XO (XO (XO
-            (XI (XO (XO (XO XH))))))))))))))))))
-     then None
-     else Some ((bytes_at rd (Z.to_nat klen) (Z.add p st)), (Z.add klen st))
-   | None -> None)
-
-(** val unstore : kmode -> z list -> z list * z **)
-
-let unstore m s =
-  if m.km_compound
-  then (match read_vnum s with
-        | Some p -> let (c, st) = p in ((skipn st s), c)
-        | None -> (s, Z0))
-  else (s, Z0)
-
-(** val stored_before : kmode -> z list -> z list -> bool **)
-
-let stored_before m a b =
-  let (bd, bc) = unstore m b in Z.ltb (cmp_keys memcmp m a bd bc) Z0
-
-(** val mode_of : z -> kmode **)
-
-let mode_of dbflg =
-  { km_vnum = (negb (Z.eqb (Z.coq_land dbflg iWDB_VNUM64_KEYS) Z0));
-    km_real = (negb (Z.eqb (Z.coq_land dbflg iWDB_REALNUM_KEYS) Z0));
-    km_compound = (negb (Z.eqb (Z.coq_land dbflg iWDB_COMPOUND_KEYS) Z0)) }
-
-(** val nthz : z list -> nat -> z **)
-
-let rec nthz l i =
-  match l with
-  | [] -> Z0
-  | x :: r -> (match i with
-               | O -> x
-               | S k -> nthz r k)
-
-(** val nthp : (z * z) list -> nat -> z * z **)
-
-let rec nthp l i =
-  match l with
-  | [] -> (Z0, Z0)
-  | x :: r -> (match i with
-               | O -> x
-               | S k -> nthp r k)
-
-(** val chain_ok : (z list -> z list -> bool) -> z list list -> bool **)
-
-let rec chain_ok lt = function
+let rec crc_ok = function
 | [] -> true
-| a :: r ->
-  (match r with
-   | [] -> true
-   | b :: _ -> (&&) (lt a b) (chain_ok lt r))
+| r :: t ->
+  (&&)
+    (match r with
+     | RSep (crc, len) ->
+       (||) (Z.eqb crc Z0)
+         (Z.eqb (crc32 (firstn (Z.to_nat len) (encode t)) Z0) crc)
+     | RWrite (crc, _, p) -> (||) (Z.eqb crc Z0) (Z.eqb (crc32 p Z0) crc)
+     | _ -> true) (crc_ok t)
 
-(** val distinct : z list -> bool **)
+(** val crc_full : rec0 list -> bool **)
 
-let rec distinct = function
+let rec crc_full = function
 | [] -> true
-| x :: r -> (&&) (negb (existsb (Z.eqb x) r)) (distinct r)
+| r :: t ->
+  (&&)
+    (match r with
+     | RSep (crc, len) ->
+       Z.eqb (crc32 (firstn (Z.to_nat len) (encode t)) Z0) crc
+     | RWrite (crc, _, p) -> Z.eqb (crc32 p Z0) crc
+     | _ -> true) (crc_full t)
 
-(** val ins_range : (z * z) -> (z * z) list -> (z * z) list **)
+(** val sp_offsets : rec0 list -> z -> z list **)
 
-let rec ins_range x l = match l with
-| [] -> x :: []
-| y :: r -> if Z.leb (fst x) (fst y) then x :: l else y :: (ins_range x r)
+let rec sp_offsets rs pos =
+  match rs with
+  | [] -> []
+  | r :: t ->
+    app (if is_sp r then pos :: [] else [])
+      (sp_offsets t (Z.add pos (rec_size r)))
 
-(** val sort_ranges : (z * z) list -> (z * z) list **)
+type verdict =
+| VOk
+| VCorrupt
+| VFault
 
-let sort_ranges l =
-  fold_right ins_range [] l
+type aop =
+| ASet of z * z * z
+| ACopy of z * z * z
+| AWrite of z * bytes
+| AResize of z
 
-(** val ranges_disjoint : (z * z) list -> bool **)
+(** val take_pad : z -> bytes -> bytes **)
 
-let rec ranges_disjoint = function
-| [] -> true
-| p :: r ->
-  let (s1, n1) = p in
-  (match r with
-   | [] -> true
-   | p0 :: _ ->
-     let (s2, _) = p0 in (&&) (Z.leb (Z.add s1 n1) s2) (ranges_disjoint r))
+let take_pad n0 l =
+  let t = firstn (Z.to_nat n0) l in
+  app t (repeat Z0 (sub (Z.to_nat n0) (length t)))
 
-(** val first_overlap : (z * z) list -> z option **)
+type rstep =
+| RStop of verdict
+| RNext of z * aop list
 
-let rec first_overlap = function
-| [] -> None
-| p :: r ->
-  let (s1, n1) = p in
-  (match r with
-   | [] -> None
-   | p0 :: _ ->
-     let (s2, _) = p0 in
-     if Z.leb (Z.add s1 n1) s2 then first_overlap r else Some s2)
+(** val replay_step : bool -> bool -> z -> z -> bytes -> z -> rstep **)
 
-(** val audit_node :
-    (z -> z) -> kmode -> sblk -> (complaint list * z list list) * (z * z) list **)
+let replay_step ccrc first avail pos l fpos =
+  let opid = nth O l Z0 in
+  if (&&) first (negb (Z.eqb opid wOP_SEP))
+  then RStop VCorrupt
+  else if Z.eqb opid wOP_SEP
+       then if Z.ltb avail sizeof_WBSEP
+            then RStop VCorrupt
+            else let len = rd (S (S (S (S O)))) offsetof_WBSEP_len l in
+                 let crc = rd (S (S (S (S O)))) offsetof_WBSEP_crc l in
+                 if Z.gtb len avail
+                 then RStop VCorrupt
+                 else if (&&) ((&&) ccrc (negb (Z.eqb crc Z0)))
+                           (negb
+                             (Z.eqb
+                               (crc32
+                                 (take_pad len
+                                   (skipn (Z.to_nat sizeof_WBSEP) l)) Z0) crc))
+                      then RStop VCorrupt
+                      else RNext (sizeof_WBSEP, [])
+       else if Z.eqb opid wOP_SET
+            then if Z.ltb avail sizeof_WBSET
+                 then RStop VCorrupt
+                 else RNext (sizeof_WBSET, ((ASet
+                        ((rd (S (S (S (S O)))) offsetof_WBSET_val l),
+                        (rd_off offsetof_WBSET_off l),
+                        (rd_off offsetof_WBSET_len l))) :: []))
+            else if Z.eqb opid wOP_COPY
+                 then if Z.ltb avail sizeof_WBCOPY
+                      then RStop VCorrupt
+                      else RNext (sizeof_WBCOPY, ((ACopy
+                             ((rd_off offsetof_WBCOPY_off l),
+                             (rd_off offsetof_WBCOPY_len l),
+                             (rd_off offsetof_WBCOPY_noff l))) :: []))
+                 else if Z.eqb opid wOP_WRITE
+                      then if Z.ltb avail sizeof_WBWRITE
+                           then RStop VCorrupt
+                           else let len =
+                                  rd (S (S (S (S O)))) offsetof_WBWRITE_len l
+                                in
+                                let crc =
+                                  rd (S (S (S (S O)))) offsetof_WBWRITE_crc l
+                                in
+                                if Z.ltb avail len
+                                then RStop VCorrupt
+                                else let data =
+                                       take_pad len
+                                         (skipn (Z.to_nat sizeof_WBWRITE) l)
+                                     in
+                                     if (&&)
+                                          ((&&) ccrc (negb (Z.eqb crc Z0)))
+                                          (negb (Z.eqb (crc32 data Z0) crc))
+                                     then RStop VCorrupt
+                                     else RNext ((Z.add sizeof_WBWRITE len),
+                                            ((AWrite
+                                            ((rd_off offsetof_WBWRITE_off l),
+                                            data)) :: []))
+                      else if Z.eqb opid wOP_RESIZE
+                           then if Z.ltb avail sizeof_WBRESIZE
+                                then RStop VCorrupt
+                                else RNext (sizeof_WBRESIZE, ((AResize
+                                       (rd_off offsetof_WBRESIZE_nsize l)) :: []))
+                           else if Z.eqb opid wOP_SAVEPOINT
+                                then if Z.eqb fpos pos
+                                     then RStop VOk
+                                     else RNext (sizeof_WBSAVEPOINT, [])
+                                else if Z.eqb opid wOP_RESET
+                                     then RNext (sizeof_WBRESET, [])
+                                     else RStop VCorrupt
 
-let audit_node rd m s =
-  let b = s.s_blk in
-  let hdr =
-    app (if Z.ltb s.s_pnum (Zpos XH) then (CNodeEmpty b) :: [] else [])
-      (app
-        (if Z.gtb s.s_pnum kVBLK_IDXNUM
-         then (CNodeHeader (b, (Zpos XH))) :: []
-         else [])
-        (app
-          (if Z.geb s.s_lvl sLEVELS
-           then (CNodeHeader (b, (Zpos (XO XH)))) :: []
-           else [])
-          (app
-            (if (||) (Z.ltb s.s_bpos (Zpos XH))
-                  (Z.gtb s.s_bpos sBLK_PAGE_SBLK_NUM_V2)
-             then (CNodeHeader (b, (Zpos (XI XH)))) :: []
-             else [])
-            (app
-              (if negb
-                    (Z.eqb (Z.coq_land s.s_flags (Z.lnot sBLK_FULL_LKEY)) Z0)
-               then (CNodeHeader (b, (Zpos (XO (XO XH))))) :: []
-               else [])
-              (if Z.eqb s.s_kblk Z0
-               then (CNodeHeader (b, (Zpos (XI (XO XH))))) :: []
-               else [])))))
-  in
-  let pn = Z.to_nat (Z.min (Z.max s.s_pnum Z0) kVBLK_IDXNUM) in
-  let pis = firstn pn s.s_pi in
-  (match read_kvblk rd s.s_kblk with
-   | Some kb ->
-     let size = Z.pow (Zpos (XO XH)) kb.k_szpow in
-     let kvc =
-       app
-         (if (||) (Z.ltb kb.k_szpow kVBLK_INISZPOW)
-               (Z.gtb kb.k_szpow (Zpos (XO (XO (XO (XI (XO XH)))))))
-          then (CKvblk (s.s_kblk, (Zpos (XO XH)))) :: []
-          else [])
-         (if negb (Z.eqb kb.k_idxsz (Z.sub kb.k_idxend kVBLK_HDRSZ))
-          then (CKvblk (s.s_kblk, (Zpos (XI XH)))) :: []
-          else [])
-     in
-     let slots = map (fun i -> nthp kb.k_pidx (Z.to_nat i)) pis in
-     let slotc =
-       app
-         (if negb
-               ((&&) (forallb (fun i -> Z.ltb i kVBLK_IDXNUM) pis)
-                 (distinct pis))
-          then (CNodeSlots (b, (Zpos XH))) :: []
-          else [])
-         (app
-           (if negb
-                 (forallb (fun ol ->
-                   (&&) ((&&) (Z.ltb Z0 (snd ol)) (Z.leb (snd ol) (fst ol)))
-                     (Z.leb (fst ol)
-                       (Z.sub (Z.sub size kVBLK_HDRSZ) kb.k_idxsz))) slots)
-            then (CNodeSlots (b, (Zpos (XO XH)))) :: []
-            else [])
-           (app
-             (if negb
-                   (Z.eqb
-                     (Z.of_nat
-                       (length
-                         (filter (fun ol -> negb (Z.eqb (snd ol) Z0))
-                           kb.k_pidx))) (Z.of_nat pn))
-              then (CNodeSlots (b, (Zpos (XI XH)))) :: []
-              else [])
-             (if negb
-                   (ranges_disjoint
-                     (sort_ranges
-                       (map (fun ol -> ((Z.sub (fst ol) (snd ol)), (snd ol)))
-                         slots)))
-              then (CSlotOverlap s.s_kblk) :: []
-              else [])))
-     in
-     let keys =
-       map (fun ol ->
-         match slot_key rd s.s_kblk kb.k_szpow (fst ol) (snd ol) with
-         | Some p -> let (k, _) = p in k
-         | None -> []) slots
-     in
-     let keyc =
-       app
-         (if negb (forallb (fun k -> negb (Nat.eqb (length k) O)) keys)
-          then (CNodeSlots (b, (Zpos (XO (XO XH))))) :: []
-          else [])
-         (app
-           (if negb (chain_ok (stored_before m) keys)
-            then (CNodeOrder b) :: []
-            else [])
-           (match keys with
-            | [] -> []
-            | k0 :: _ ->
-              let want = firstn (Z.to_nat pREFIX_KEY_LEN_V2) k0 in
-              let full = Z.leb (Z.of_nat (length k0)) pREFIX_KEY_LEN_V2 in
-              if negb
-                   ((&&)
-                     ((&&) (bytes_eq s.s_lk want)
-                       (Z.eqb s.s_lkl (Z.of_nat (length want))))
-                     (eqb
-                       (negb (Z.eqb (Z.coq_land s.s_flags sBLK_FULL_LKEY) Z0))
-                       full))
-              then (CPrefix b) :: []
-              else []))
-     in
-     (((app hdr (app kvc (app slotc keyc))), keys), ((s.s_kblk,
-     (Z.div size bS)) :: []))
-   | None -> (((app hdr ((CKvblk (s.s_kblk, (Zpos XH))) :: [])), []), []))
+(** val replay_loop :
+    nat -> bool -> bool -> z -> z -> bytes -> z -> verdict * aop list **)
 
-(** val walk : (z -> z) -> nat -> nat -> z -> z list -> z list option **)
-
-let rec walk rd fuel lvl blk acc =
+let rec replay_loop fuel ccrc first fsz pos l fpos =
   match fuel with
-  | O -> None
+  | O -> (VOk, [])
   | S f ->
-    if Z.eqb blk Z0
-    then Some (rev acc)
-    else walk rd f lvl (nthz (read_sblk rd blk).s_n lvl) (blk :: acc)
+    if negb (Z.ltb pos fsz)
+    then (VOk, [])
+    else (match replay_step ccrc first (Z.sub fsz pos) pos l fpos with
+          | RStop v -> (v, [])
+          | RNext (adv, op) ->
+            let (v, ops) =
+              replay_loop f ccrc false fsz (Z.add pos adv)
+                (skipn (Z.to_nat adv) l) fpos
+            in
+            (v, (app op ops)))
 
-(** val page_of : sblk -> z * z **)
+(** val fpos_rebased : bool **)
 
-let page_of s =
-  ((Z.sub s.s_blk (Z.mul (Z.sub s.s_bpos (Zpos XH)) (Z.div sBLK_SZ bS))),
-    (Z.div sBLK_PAGE_SZ_V2 bS))
+let fpos_rebased =
+  Z.eqb wAL_REPLAY_REBASES_FPOS (Zpos XH)
 
-(** val dedup : (z * z) list -> (z * z) list **)
+(** val replay_ops_with :
+    bool -> bool -> z -> z -> bytes -> verdict * aop list **)
 
-let rec dedup = function
+let replay_ops_with spchk ccrc mode rfoff wal =
+  let fsz = Z.of_nat (length wal) in
+  if Z.eqb fsz Z0
+  then (VOk, [])
+  else if negb (Z.eqb mode Z0)
+       then let (fpos, rpos) = scan_with spchk wal in
+            if Z.eqb fpos Z0
+            then (VOk, [])
+            else if (&&) (Z.gtb rpos Z0) (Z.eqb mode (Zpos XH))
+                 then if Z.ltb fpos rpos
+                      then (VOk, [])
+                      else let r = Z.sub rpos sizeof_WBSEP in
+                           replay_loop (S (length wal)) ccrc true
+                             (Z.sub fsz r) Z0 (skipn (Z.to_nat r) wal)
+                             (if fpos_rebased then Z.sub fpos r else fpos)
+                 else replay_loop (S (length wal)) ccrc true fsz Z0 wal fpos
+       else if Z.gtb rfoff Z0
+            then if Z.geb rfoff fsz
+                 then (VCorrupt, [])
+                 else replay_loop (S (length wal)) ccrc true
+                        (Z.sub fsz rfoff) Z0 (skipn (Z.to_nat rfoff) wal) Z0
+            else replay_loop (S (length wal)) ccrc true fsz Z0 wal Z0
+
+(** val replay_ops : bool -> z -> z -> bytes -> verdict * aop list **)
+
+let replay_ops ccrc mode rfoff wal =
+  replay_ops_with sp_checks ccrc mode rfoff wal
+
+(** val overwrite : bytes -> bytes -> bytes option **)
+
+let rec overwrite m = function
+| [] -> Some m
+| d :: ds ->
+  (match m with
+   | [] -> None
+   | _ :: t -> option_map (fun x -> d :: x) (overwrite t ds))
+
+(** val splice_at : bytes -> z -> bytes -> bytes option **)
+
+let rec splice_at m off data =
+  if Z.leb off Z0
+  then overwrite m data
+  else (match m with
+        | [] -> None
+        | x :: t ->
+          option_map (fun x0 -> x :: x0)
+            (splice_at t (Z.sub off (Zpos XH)) data))
+
+(** val splice : bytes -> z -> bytes -> bytes option **)
+
+let splice m off data =
+  if Z.ltb off Z0 then None else splice_at m off data
+
+(** val fill_at : bytes -> z -> z -> z -> bytes option **)
+
+let rec fill_at m off len v =
+  match m with
+  | [] -> if (&&) (Z.leb off Z0) (Z.leb len Z0) then Some [] else None
+  | x :: t ->
+    if Z.ltb Z0 off
+    then option_map (fun x0 -> x :: x0)
+           (fill_at t (Z.sub off (Zpos XH)) len v)
+    else if Z.ltb Z0 len
+         then option_map (fun x0 -> v :: x0)
+                (fill_at t Z0 (Z.sub len (Zpos XH)) v)
+         else Some m
+
+(** val slice_at : bytes -> z -> z -> bytes option **)
+
+let rec slice_at m off len =
+  match m with
+  | [] -> if (&&) (Z.leb off Z0) (Z.leb len Z0) then Some [] else None
+  | x :: t ->
+    if Z.ltb Z0 off
+    then slice_at t (Z.sub off (Zpos XH)) len
+    else if Z.ltb Z0 len
+         then option_map (fun x0 -> x :: x0)
+                (slice_at t Z0 (Z.sub len (Zpos XH)))
+         else Some []
+
+(** val resize_nat : nat -> bytes -> bytes **)
+
+let rec resize_nat n0 m =
+  match n0 with
+  | O -> []
+  | S k ->
+    (match m with
+     | [] -> Z0 :: (resize_nat k [])
+     | x :: t -> x :: (resize_nat k t))
+
+(** val apply_op : bytes -> aop -> bytes option **)
+
+let apply_op m = function
+| ASet (val0, off, len) ->
+  if (||) (Z.ltb len Z0) (Z.ltb off Z0)
+  then None
+  else fill_at m off len
+         (Z.modulo val0 (Zpos (XO (XO (XO (XO (XO (XO (XO (XO XH))))))))))
+| ACopy (off, len, noff) ->
+  if (||) (Z.ltb len Z0) (Z.ltb off Z0)
+  then None
+  else (match slice_at m off len with
+        | Some src -> splice m noff src
+        | None -> None)
+| AWrite (off, data) -> splice m off data
+| AResize nsize ->
+  if (||) (Z.ltb nsize Z0)
+       (Z.ltb (Zpos (XO (XO (XO (XO (XO (XO (XO (XO (XO (XO (XO (XO (XO (XO
+         (XO (XO (XO (XO (XO (XO (XO (XO (XO (XO XH)))))))))))))))))))))))))
+         nsize)
+  then None
+  else Some (resize_nat (Z.to_nat (iW_ROUNDUP nsize wAL_PAGE_SIZE)) m)
+
+(** val apply_ops : bytes -> aop list -> bytes option **)
+
+let rec apply_ops m = function
+| [] -> Some m
+| op :: r ->
+  (match apply_op m op with
+   | Some m' -> apply_ops m' r
+   | None -> None)
+
+(** val recover_with :
+    bool -> bool -> z -> z -> bytes -> bytes -> (verdict * bytes) * aop list **)
+
+let recover_with spchk ccrc mode rfoff wal main =
+  let (v, ops) = replay_ops_with spchk ccrc mode rfoff wal in
+  (match apply_ops main ops with
+   | Some m -> ((v, m), ops)
+   | None -> ((VFault, main), ops))
+
+(** val recover :
+    bool -> z -> z -> bytes -> bytes -> (verdict * bytes) * aop list **)
+
+let recover ccrc mode rfoff wal main =
+  recover_with sp_checks ccrc mode rfoff wal main
+
+(** val aop_sig : aop -> (z * z) * z **)
+
+let aop_sig = function
+| ASet (_, off, len) -> ((wOP_SET, off), len)
+| ACopy (_, len, noff) -> ((wOP_COPY, noff), len)
+| AWrite (off, d) -> ((wOP_WRITE, off), (Z.of_nat (length d)))
+| AResize n0 -> ((wOP_RESIZE, n0), Z0)
+
+type effect =
+| ELogAppend of bytes
+| ELogFsync
+| ELogTruncate
+| EMainStore of aop
+| EMainResize of z
+| EMsync
+
+type pstate = { p_buf : bytes; p_log : bytes; p_disk : bytes; p_rfoff : 
+                z; p_stage : z; p_fatal : bool }
+
+type pcfg = { c_bufsz : z; c_ccrc : bool }
+
+(** val lenZ : bytes -> z **)
+
+let lenZ l =
+  Z.of_nat (length l)
+
+(** val flush_wl : pcfg -> pstate -> bool -> pstate * effect list **)
+
+let flush_wl c s sync =
+  let (s1, e1) =
+    match s.p_buf with
+    | [] -> (s, [])
+    | _ :: _ ->
+      let crc = if c.c_ccrc then crc32 s.p_buf Z0 else Z0 in
+      let seg = app (enc_rec (RSep (crc, (lenZ s.p_buf)))) s.p_buf in
+      ({ p_buf = []; p_log = (app s.p_log seg); p_disk = s.p_disk; p_rfoff =
+      s.p_rfoff; p_stage = s.p_stage; p_fatal = s.p_fatal }, ((ELogAppend
+      seg) :: []))
+  in
+  (s1, (app e1 (if sync then ELogFsync :: [] else [])))
+
+(** val write_wl :
+    pcfg -> pstate -> bytes -> bytes -> pstate * effect list **)
+
+let write_wl c s hdr0 data =
+  let (s1, e1) =
+    if Z.ltb (Z.sub c.c_bufsz (lenZ s.p_buf)) (lenZ hdr0)
+    then flush_wl c s false
+    else (s, [])
+  in
+  let s2 = { p_buf = (app s1.p_buf hdr0); p_log = s1.p_log; p_disk =
+    s1.p_disk; p_rfoff = s1.p_rfoff; p_stage = s1.p_stage; p_fatal =
+    s1.p_fatal }
+  in
+  if Z.ltb (Z.sub c.c_bufsz (lenZ s2.p_buf)) (lenZ data)
+  then let (s3, e3) = flush_wl c s2 false in
+       ({ p_buf = s3.p_buf; p_log = (app s3.p_log data); p_disk = s3.p_disk;
+       p_rfoff = s3.p_rfoff; p_stage = s3.p_stage; p_fatal = s3.p_fatal },
+       (app e1 (app e3 ((ELogAppend data) :: []))))
+  else ({ p_buf = (app s2.p_buf data); p_log = s2.p_log; p_disk = s2.p_disk;
+         p_rfoff = s2.p_rfoff; p_stage = s2.p_stage; p_fatal = s2.p_fatal },
+         e1)
+
+(** val replay_effects : z -> aop list -> effect list **)
+
+let rec replay_effects cur = function
 | [] -> []
-| x :: r ->
-  if existsb (fun y -> Z.eqb (fst y) (fst x)) r
-  then dedup r
-  else x :: (dedup r)
+| op :: t ->
+  (match op with
+   | AResize n0 ->
+     let n' = iW_ROUNDUP n0 wAL_PAGE_SIZE in
+     app
+       (if Z.eqb n' cur
+        then []
+        else if Z.ltb cur n'
+             then (EMainResize n') :: (EMsync :: [])
+             else EMsync :: ((EMainResize n') :: []))
+       (app ((EMainStore op) :: []) (replay_effects n' t))
+   | _ -> (EMainStore op) :: (replay_effects cur t))
 
-(** val audit_db :
-    (z -> z) -> nat -> z -> (complaint list * (z * z) list) * z **)
+(** val rollforward_live : pcfg -> pstate -> pstate * effect list **)
 
-let audit_db rd fuel dblk =
-  let a = addr_of dblk in
-  if negb (Z.eqb (u32 rd (Z.add a dOFF_MAGIC_U4)) iWDB_MAGIC)
-  then ((((CBadDb dblk) :: []), []), Z0)
-  else let m = mode_of (u8 rd (Z.add a dOFF_DBFLG_U1)) in
-       let next = u32 rd (Z.add a dOFF_NEXTDB_U4) in
-       let dn = u32s rd nSLEV (Z.add a dOFF_N0_U4) in
-       let dc = u32s rd nSLEV (Z.add a dOFF_C0_U4) in
-       let metab = u32 rd (Z.add a dOFF_METABLK_U4) in
-       let metan = u32 rd (Z.add a dOFF_METABLKN_U4) in
-       (match walk rd fuel O (nthz dn O) [] with
-        | Some l0 ->
-          let nodes = map (read_sblk rd) l0 in
-          let per = map (audit_node rd m) nodes in
-          let comps = concat (map (fun x -> fst (fst x)) per) in
-          let keyss = map (fun x -> snd (fst x)) per in
-          let kvranges = concat (map snd per) in
-          let bounds =
-            concat
-              (map (fun ks ->
-                match ks with
-                | [] -> []
-                | k0 :: _ -> k0 :: ((last ks k0) :: [])) keyss)
-          in
-          let glob =
-            if (&&)
-                 (chain_ok (fun x y ->
-                   (||) (stored_before m x y) (bytes_eq x y)) bounds)
-                 (chain_ok (stored_before m) (concat keyss))
-            then []
-            else (CGlobalOrder dblk) :: []
-          in
-          let prevs = dblk :: l0 in
-          let back =
-            concat
-              (map (fun ps ->
-                if Z.eqb (snd ps).s_p0 (fst ps)
-                then []
-                else (CBackLink (snd ps).s_blk) :: []) (combine prevs nodes))
-          in
-          let tailp = u32 rd (Z.add a dOFF_P0_U4) in
-          let tailc =
-            match l0 with
-            | [] ->
-              if (||) (Z.eqb tailp Z0) (Z.eqb tailp dblk)
-              then []
-              else (CBackLink dblk) :: []
-            | _ :: _ ->
-              if Z.eqb tailp (last l0 Z0) then [] else (CBackLink dblk) :: []
-          in
-          let lvls = seq O nSLEV in
-          let lvlc =
-            concat
-              (map (fun i ->
-                let want =
-                  map (fun s -> s.s_blk)
-                    (filter (fun s -> Z.leb (Z.of_nat i) s.s_lvl) nodes)
-                in
-                let got = walk rd fuel i (nthz dn i) [] in
-                app
-                  (match got with
-                   | Some g ->
-                     if list_eqz g want
-                     then []
-                     else (CLevelChain (dblk, (Z.of_nat i))) :: []
-                   | None -> (CChainLoop (dblk, (Z.of_nat i))) :: [])
-                  (if Z.eqb (nthz dc i)
-                        (Z.of_nat
-                          (length
-                            (filter (fun s -> Z.eqb s.s_lvl (Z.of_nat i))
-                              nodes)))
-                   then []
-                   else (CLevelCount (dblk, (Z.of_nat i))) :: [])) lvls)
-          in
-          let pages = dedup (map page_of nodes) in
-          let occ = (dblk,
-            (Z.div dB_SZ bS)) :: (app
-                                   (if Z.eqb metan Z0
-                                    then []
-                                    else (metab, metan) :: [])
-                                   (app pages kvranges))
-          in
-          (((app comps (app glob (app back (app tailc lvlc)))), occ), next)
-        | None -> ((((CChainLoop (dblk, Z0)) :: []), []), next))
+let rollforward_live c s =
+  let fsz = lenZ s.p_log in
+  if Z.eqb fsz Z0
+  then (s, [])
+  else let (v, ops) = replay_ops c.c_ccrc Z0 s.p_rfoff s.p_log in
+       let disk' =
+         match apply_ops s.p_disk ops with
+         | Some m -> m
+         | None -> s.p_disk
+       in
+       let e_apply = replay_effects (lenZ s.p_disk) ops in
+       (match v with
+        | VOk ->
+          if (||) (Z.eqb s.p_stage Z0) (Z.eqb s.p_stage bKP_WAL_CLEANUP)
+          then ({ p_buf = s.p_buf; p_log = []; p_disk = disk'; p_rfoff = Z0;
+                 p_stage = s.p_stage; p_fatal = s.p_fatal },
+                 (app e_apply (EMsync :: (ELogTruncate :: (ELogFsync :: [])))))
+          else let (s1, e1) =
+                 flush_wl c { p_buf = s.p_buf; p_log = s.p_log; p_disk =
+                   disk'; p_rfoff = s.p_rfoff; p_stage = s.p_stage; p_fatal =
+                   s.p_fatal } false
+               in
+               let (s2, e2) = write_wl c s1 (enc_rec RReset) [] in
+               let (s3, e3) = flush_wl c s2 true in
+               ({ p_buf = s3.p_buf; p_log = s3.p_log; p_disk = s3.p_disk;
+               p_rfoff =
+               (Z.sub (lenZ s3.p_log) (Z.add sizeof_WBSEP sizeof_WBRESET));
+               p_stage = s3.p_stage; p_fatal = s3.p_fatal },
+               (app e_apply (app (EMsync :: []) (app e1 (app e2 e3)))))
+        | _ ->
+          ({ p_buf = s.p_buf; p_log = s.p_log; p_disk = disk'; p_rfoff =
+            s.p_rfoff; p_stage = s.p_stage; p_fatal = true }, e_apply))
 
-(** val audit_dbs :
-    (z -> z) -> nat -> nat -> z -> complaint list * (z * z) list **)
+(** val checkpoint : pcfg -> pstate -> bool -> z -> pstate * effect list **)
 
-let rec audit_dbs rd n0 fuel dblk =
-  match n0 with
-  | O -> (((CChainLoop (Z0, Z0)) :: []), [])
-  | S k ->
-    if Z.eqb dblk Z0
-    then ([], [])
-    else let (p, next) = audit_db rd fuel dblk in
-         let (c, occ) = p in
-         let (c2, occ2) = audit_dbs rd k fuel next in
-         ((app c c2), (app occ occ2))
+let checkpoint c s no_fixpoint ts =
+  if Z.eqb s.p_stage bKP_MAIN_COPY
+  then (s, [])
+  else let (s1, e1) =
+         if no_fixpoint
+         then (s, [])
+         else write_wl c s (enc_rec (RSavepoint ts)) []
+       in
+       let (s2, e2) = flush_wl c s1 true in
+       let (s3, e3) = rollforward_live c s2 in (s3, (app e1 (app e2 e3)))
 
-(** val bm_bit : (z -> z) -> z -> z -> bool **)
+(** val savepoint : pcfg -> pstate -> z -> bool -> pstate * effect list **)
 
-let bm_bit rd bmoff i =
-  Z.testbit (rd (Z.add bmoff (Z.div i (Zpos (XO (XO (XO XH)))))))
-    (Z.modulo i (Zpos (XO (XO (XO XH)))))
+let savepoint c s ts sync =
+  let (s1, e1) = write_wl c s (enc_rec (RSavepoint ts)) [] in
+  let (s2, e2) = flush_wl c s1 sync in (s2, (app e1 e2))
 
-(** val check_free : (z -> z) -> nat -> z -> z -> complaint list **)
+type event =
+| VWrite of z * bytes
+| VSet of z * z * z
+| VCopy of z * z * z
+| VResize of z * z
+| VSynced
+| VSavepoint of z * bool
+| VCheckpoint of z
 
-let rec check_free rd n0 bmoff from =
-  match n0 with
-  | O -> []
-  | S k ->
-    app (if bm_bit rd bmoff from then (CLeak from) :: [] else [])
-      (check_free rd k bmoff (Z.add from (Zpos XH)))
+(** val write_hdr : z -> z -> z -> bytes **)
 
-(** val check_used : (z -> z) -> nat -> z -> z -> complaint list **)
+let write_hdr crc off len =
+  app (hdr wOP_WRITE)
+    (app (le_enc (S (S (S (S O)))) crc)
+      (app (le_enc (S (S (S (S O)))) len)
+        (le_enc (S (S (S (S (S (S (S (S O)))))))) off)))
 
-let rec check_used rd n0 bmoff from =
-  match n0 with
-  | O -> []
-  | S k ->
-    app (if bm_bit rd bmoff from then [] else (CUnallocated from) :: [])
-      (check_used rd k bmoff (Z.add from (Zpos XH)))
+(** val step : pcfg -> pstate -> event -> pstate * effect list **)
 
-(** val check_map :
-    (z -> z) -> z -> z -> z -> (z * z) list -> complaint list **)
+let step c s = function
+| VWrite (off, data) ->
+  write_wl c s
+    (write_hdr (if c.c_ccrc then crc32 data Z0 else Z0) off (lenZ data)) data
+| VSet (off, val0, len) -> write_wl c s (enc_rec (RSet (val0, off, len))) []
+| VCopy (off, len, noff) -> write_wl c s (enc_rec (RCopy (off, len, noff))) []
+| VResize (osize, nsize) ->
+  let (s1, e1) = write_wl c s (enc_rec (RResize (osize, nsize))) [] in
+  let (s2, e2) = checkpoint c s1 true Z0 in (s2, (app e1 e2))
+| VSynced -> flush_wl c s true
+| VSavepoint (ts, sync) -> savepoint c s ts sync
+| VCheckpoint ts -> checkpoint c s false ts
 
-let rec check_map rd bmoff cur total = function
-| [] -> check_free rd (Z.to_nat (Z.sub total cur)) bmoff cur
-| p :: r ->
-  let (s, n0) = p in
-  app (check_free rd (Z.to_nat (Z.sub s cur)) bmoff cur)
-    (app (check_used rd (Z.to_nat n0) bmoff s)
-      (check_map rd bmoff (Z.add s n0) total r))
+(** val run : pcfg -> pstate -> event list -> pstate * effect list **)
 
-(** val hDRLEN : z **)
+let rec run c s = function
+| [] -> (s, [])
+| ev :: t ->
+  let (s1, e1) = step c s ev in let (s2, e2) = run c s1 t in (s2, (app e1 e2))
 
-let hDRLEN =
-  Z.add iWFSM_CUSTOM_HDR_DATA_OFFSET kVHDRSZ
+(** val apply_effect : (bytes * bytes) -> effect -> bytes * bytes **)
 
-(** val audit : (z -> z) -> z -> complaint list **)
+let apply_effect ld e =
+  let (log, disk) = ld in
+  (match e with
+   | ELogAppend bs -> ((app log bs), disk)
+   | ELogTruncate -> ([], disk)
+   | EMainStore op ->
+     (log, (match apply_op disk op with
+            | Some m -> m
+            | None -> disk))
+   | EMainResize n0 -> (log, (resize_nat (Z.to_nat n0) disk))
+   | _ -> (log, disk))
 
-let audit rd fsize =
-  if negb (Z.eqb (u32 rd Z0) iWFSM_MAGICK)
-  then (CBadMagic (Zpos XH)) :: []
-  else if negb (Z.eqb (u32 rd iWFSM_CUSTOM_HDR_DATA_OFFSET) iWKV_MAGIC)
-       then (CBadMagic (Zpos (XO XH))) :: []
-       else if negb (Z.eqb (u8 rd (Zpos (XO (XO XH)))) iWKV_FSM_BPOW)
-            then (CBadMagic (Zpos (XI XH))) :: []
-            else let bmoff = u64 rd (Zpos (XI (XO XH))) in
-                 let bmlen = u64 rd (Zpos (XI (XO (XI XH)))) in
-                 let first =
-                   Z.div
-                     (u64 rd
-                       (Z.add iWFSM_CUSTOM_HDR_DATA_OFFSET (Zpos (XO (XO
-                         XH))))) bS
-                 in
-                 let fuel =
-                   Z.to_nat (Z.add (Z.div fsize sBLK_SZ) (Zpos (XO XH)))
-                 in
-                 let (comps, occ) =
-                   audit_dbs rd (S (S (S (S (S (S (S (S (S (S (S (S (S (S (S
-                     (S (S (S (S (S (S (S (S (S (S (S (S (S (S (S (S (S (S (S
-                     (S (S (S (S (S (S (S (S (S (S (S (S (S (S (S (S (S (S (S
-                     (S (S (S (S (S (S (S (S (S (S (S (S (S (S (S (S (S (S (S
-                     (S (S (S (S (S (S (S (S (S (S (S (S (S (S (S (S (S (S (S
-                     (S (S (S (S (S (S (S (S (S (S (S (S (S (S (S (S (S (S (S
-                     (S (S (S (S (S (S (S (S (S (S (S (S (S (S (S (S (S (S (S
-                     (S (S (S (S (S (S (S (S (S (S (S (S (S (S (S (S (S (S (S
-                     (S (S (S (S (S (S (S (S (S (S (S (S (S (S (S (S (S (S (S
-                     (S (S (S (S (S (S (S (S (S (S (S (S (S (S (S (S (S (S (S
-                     (S (S (S (S (S (S (S (S (S (S (S (S (S (S (S (S (S (S (S
-                     (S (S (S (S (S (S (S (S (S (S (S (S (S (S (S (S (S (S (S
-                     (S (S (S (S (S (S (S (S (S (S (S (S (S (S (S (S (S (S (S
-                     (S (S (S (S (S (S (S (S (S (S (S (S (S (S (S (S (S (S (S
-                     (S (S (S (S (S (S (S (S (S (S (S (S (S (S (S (S (S (S (S
-                     (S (S (S (S (S (S (S (S (S (S (S (S (S (S (S (S (S (S (S
-                     (S (S (S (S (S (S (S (S (S (S (S (S (S (S (S (S (S (S (S
-                     (S (S (S (S (S (S (S (S (S (S (S (S (S (S (S (S (S (S (S
-                     (S (S (S (S (S (S (S (S (S (S (S (S (S (S (S (S (S (S (S
-                     (S (S (S (S (S (S (S (S (S (S (S (S (S (S (S (S (S (S (S
-                     (S (S (S (S (S (S (S (S (S (S (S (S (S (S (S (S (S (S (S
-                     (S (S (S (S (S (S (S (S (S (S (S (S (S (S (S (S (S (S (S
-                     (S (S (S (S (S (S (S (S (S (S (S (S (S (S (S (S (S (S (S
-                     (S (S (S (S (S (S (S (S (S (S (S (S (S (S (S (S (S (S (S
-                     (S (S (S (S (S (S (S (S (S (S (S (S (S (S (S (S (S (S (S
-                     (S (S (S (S (S (S (S (S (S (S (S (S (S (S (S (S (S (S (S
-                     (S (S (S (S (S (S (S (S (S (S (S (S (S (S (S (S (S (S (S
-                     (S (S (S (S (S (S (S (S (S (S (S (S (S (S (S (S (S (S (S
-                     (S (S (S (S (S (S (S (S (S (S (S (S (S (S (S (S (S (S (S
-                     (S (S (S (S (S (S (S (S (S (S (S (S (S (S (S (S (S (S (S
-                     (S (S (S (S (S (S (S (S (S (S (S (S (S (S (S (S (S (S (S
-                     (S (S (S (S (S (S (S (S (S (S (S (S (S (S (S (S (S (S (S
-                     (S (S (S (S (S (S (S (S (S (S (S (S (S (S (S (S (S (S (S
-                     (S (S (S (S (S (S (S (S (S (S (S (S (S (S (S (S (S (S (S
-                     (S (S (S (S (S (S (S (S (S (S (S (S (S (S (S (S (S (S (S
-                     (S (S (S (S (S (S (S (S (S (S (S (S (S (S (S (S (S (S (S
-                     (S (S (S (S (S (S (S (S (S (S (S (S (S (S (S (S (S (S (S
-                     (S (S (S (S (S (S (S (S (S (S (S (S (S (S (S (S (S (S (S
-                     (S (S (S (S (S (S (S (S (S (S (S (S (S (S (S (S (S (S (S
-                     (S (S (S (S (S (S (S (S (S (S (S (S (S (S (S (S (S (S (S
-                     (S (S (S (S (S (S (S (S (S (S (S (S (S (S (S (S (S (S (S
-                     (S (S (S (S (S (S (S (S (S (S (S (S (S (S (S (S (S (S (S
-                     (S (S (S (S (S (S (S (S (S (S (S (S (S (S (S (S (S (S (S
-                     (S (S (S (S (S (S (S (S (S (S (S (S (S (S (S (S (S (S (S
-                     (S (S (S (S (S (S (S (S (S (S (S (S (S (S (S (S (S (S (S
-                     (S (S (S (S (S (S (S (S (S (S (S (S (S (S (S (S (S (S (S
-                     (S (S (S (S (S (S (S (S (S (S (S (S (S (S (S (S (S (S (S
-                     (S (S (S (S (S (S (S (S (S (S (S (S (S (S (S (S (S (S (S
-                     (S (S (S (S (S (S (S (S (S (S (S (S (S (S (S (S (S (S (S
-                     (S (S (S (S (S (S (S (S (S (S (S (S (S (S (S (S (S (S (S
-                     (S (S (S (S (S (S (S (S (S (S (S (S (S (S (S (S (S (S (S
-                     (S (S (S (S (S (S (S (S (S (S (S (S (S (S (S (S (S (S (S
-                     (S (S (S (S (S (S (S (S (S (S (S (S (S (S (S (S (S (S (S
-                     (S (S (S (S (S (S (S (S (S (S (S (S (S (S (S (S (S (S (S
-                     (S (S (S (S (S (S (S (S (S (S (S (S (S (S (S (S (S (S (S
-                     (S (S (S (S (S (S (S (S (S (S (S (S (S (S (S (S (S (S (S
-                     (S (S (S (S (S (S (S (S (S (S (S (S (S (S (S (S (S (S (S
-                     (S (S (S (S (S (S (S (S (S (S (S (S (S (S (S (S (S (S (S
-                     (S (S (S (S (S (S (S (S (S (S (S (S (S (S (S (S (S (S (S
-                     (S (S (S (S (S (S (S (S (S (S (S (S (S (S (S (S (S (S (S
-                     (S (S (S (S (S (S (S (S (S (S (S (S (S (S (S (S (S (S (S
-                     (S (S (S (S (S (S (S (S (S (S (S (S (S (S (S (S (S (S (S
-                     (S (S (S (S (S (S (S (S (S (S (S (S (S (S (S (S (S (S (S
-                     (S (S (S (S (S (S (S (S (S (S (S (S (S (S (S (S (S (S (S
-                     (S (S (S (S (S (S (S (S (S (S (S (S (S (S (S (S (S (S (S
-                     (S (S (S (S (S (S (S (S (S (S (S (S (S (S (S (S (S (S (S
-                     (S (S (S (S (S (S (S (S (S (S (S (S (S (S (S (S (S (S (S
-                     (S (S (S (S (S (S (S (S (S (S (S (S (S (S (S (S (S (S (S
-                     (S (S (S (S (S (S (S (S (S (S (S (S (S (S (S (S (S (S (S
-                     (S (S (S (S (S (S (S (S (S (S (S (S (S (S (S (S (S (S (S
-                     (S (S (S (S (S (S (S (S (S (S (S (S (S (S (S (S (S (S (S
-                     (S (S (S (S (S (S (S (S (S (S (S (S (S (S (S (S (S (S (S
-                     (S (S (S (S (S (S (S (S (S (S (S (S (S (S (S (S (S (S (S
-                     (S (S (S (S (S (S (S (S (S (S (S (S (S (S (S (S (S (S (S
-                     (S (S (S (S (S (S (S (S (S (S (S (S (S (S (S (S (S (S (S
-                     (S (S (S (S (S (S (S (S (S (S (S (S (S (S (S (S (S (S (S
-                     (S (S (S (S (S (S (S (S (S (S (S (S (S (S (S (S (S (S (S
-                     (S (S (S (S (S (S (S (S (S (S (S (S (S (S (S (S (S (S (S
-                     (S (S (S (S (S (S (S (S (S (S (S (S (S (S (S (S (S (S (S
-                     (S (S (S (S (S (S (S (S (S (S (S (S (S (S (S (S (S (S (S
-                     (S (S (S (S (S (S (S (S (S (S (S (S (S (S (S (S (S (S (S
-                     (S (S (S (S (S (S (S (S (S (S (S (S (S (S (S (S (S (S (S
-                     (S (S (S (S (S (S (S (S (S (S (S (S (S (S (S (S (S (S (S
-                     (S (S (S (S (S (S (S (S (S (S (S (S (S (S (S (S (S (S (S
-                     (S (S (S (S (S (S (S (S (S (S (S (S (S (S (S (S (S (S (S
-                     (S (S (S (S (S (S (S (S (S (S (S (S (S (S (S (S (S (S (S
-                     (S (S (S (S (S (S (S (S (S (S (S (S (S (S (S (S (S (S (S
-                     (S (S (S (S (S (S (S (S (S (S (S (S (S (S (S (S (S (S (S
-                     (S (S (S (S (S (S (S (S (S (S (S (S (S (S (S (S (S (S (S
-                     (S (S (S (S (S (S (S (S (S (S (S (S (S (S (S (S (S (S (S
-                     (S (S (S (S (S (S (S (S (S (S (S (S (S (S (S (S (S (S (S
-                     (S (S (S (S (S (S (S (S (S (S (S (S (S (S (S (S (S (S (S
-                     (S (S (S (S (S (S (S (S (S (S (S (S (S (S (S (S (S (S (S
-                     (S (S (S (S (S (S (S (S (S (S (S (S (S (S (S (S (S (S (S
-                     (S (S (S (S (S (S (S (S (S (S (S (S (S (S (S (S (S (S (S
-                     (S (S (S (S (S (S (S (S (S (S (S (S (S (S (S (S (S (S (S
-                     (S (S (S (S (S (S (S (S (S (S (S (S (S (S (S (S (S (S (S
-                     (S (S (S (S (S (S (S (S (S (S (S (S (S (S (S (S (S (S (S
-                     (S (S (S (S (S (S (S (S (S (S (S (S (S (S (S (S (S (S (S
-                     (S (S (S (S (S (S (S (S (S (S (S (S (S (S (S (S (S (S (S
-                     (S (S (S (S (S (S (S (S (S (S (S (S (S (S (S (S (S (S (S
-                     (S (S (S (S (S (S (S (S (S (S (S (S (S (S (S (S (S (S (S
-                     (S (S (S (S (S (S (S (S (S (S (S (S (S (S (S (S (S (S (S
-                     (S (S (S (S (S (S (S (S (S (S (S (S (S (S (S (S (S (S (S
-                     (S (S (S (S (S (S (S (S (S (S (S (S (S (S (S (S (S (S (S
-                     (S (S (S (S (S (S (S (S (S (S (S (S (S (S (S (S (S (S (S
-                     (S (S (S (S (S (S (S (S (S (S (S (S (S (S (S (S (S (S (S
-                     (S (S (S (S (S (S (S (S (S (S (S (S (S (S (S (S (S (S (S
-                     (S (S (S (S (S (S (S (S (S (S (S (S (S (S (S (S (S (S (S
-                     (S (S (S (S (S (S (S (S (S (S (S (S (S (S (S (S (S (S (S
-                     (S (S (S (S (S (S (S (S (S (S (S (S (S (S (S (S (S (S (S
-                     (S (S (S (S (S (S (S (S (S (S (S (S (S (S (S (S (S (S (S
-                     (S (S (S (S (S (S (S (S (S (S (S (S (S (S (S (S (S (S (S
-                     (S (S (S (S (S (S (S (S (S (S (S (S (S (S (S (S (S (S (S
-                     (S (S (S (S (S (S (S (S (S (S (S (S (S (S (S (S (S (S (S
-                     (S (S (S (S (S (S (S (S (S (S (S (S (S (S (S (S (S (S (S
-                     (S (S (S (S (S (S (S (S (S (S (S (S (S (S (S (S (S (S (S
-                     (S (S (S (S (S (S (S (S (S (S (S (S (S (S (S (S (S (S (S
-                     (S (S (S (S (S (S (S (S (S (S (S (S (S (S (S (S (S (S (S
-                     (S (S (S (S (S (S (S (S (S (S (S (S (S (S (S (S (S (S (S
-                     (S (S (S (S (S (S (S (S (S (S (S (S (S (S (S (S (S (S (S
-                     (S (S (S (S (S (S (S (S (S (S (S (S (S (S (S (S (S (S (S
-                     (S (S (S (S (S (S (S (S (S (S (S (S (S (S (S (S (S (S (S
-                     (S (S (S (S (S (S (S (S (S (S (S (S (S (S (S (S (S (S (S
-                     (S (S (S (S (S (S (S (S (S (S (S (S (S (S (S (S (S (S (S
-                     (S (S (S (S (S (S (S (S (S (S (S (S (S (S (S (S (S (S (S
-                     (S (S (S (S (S (S (S (S (S (S (S (S (S (S (S (S (S (S (S
-                     (S (S (S (S (S (S (S (S (S (S (S (S (S (S (S (S (S (S (S
-                     (S (S (S (S (S (S (S (S (S (S (S (S (S (S (S (S (S (S (S
-                     (S (S (S (S (S (S (S (S (S (S (S (S (S (S (S (S (S (S (S
-                     (S (S (S (S (S (S (S (S (S (S (S (S (S (S (S (S (S (S (S
-                     (S (S (S (S (S (S (S (S (S (S (S (S (S (S (S (S (S (S (S
-                     (S (S (S (S (S (S (S (S (S (S (S (S (S (S (S (S (S (S (S
-                     (S (S (S (S (S (S (S (S (S (S (S (S (S (S (S (S (S (S (S
-                     (S (S (S (S (S (S (S (S (S (S (S (S (S (S (S (S (S (S (S
-                     (S (S (S (S (S (S (S (S (S (S (S (S (S (S (S (S (S (S (S
-                     (S (S (S (S (S (S (S (S (S (S (S (S (S (S (S (S (S (S (S
-                     (S (S (S (S (S (S (S (S (S (S (S (S (S (S (S (S (S (S (S
-                     (S (S (S (S (S (S (S (S (S (S (S (S (S (S (S (S (S (S (S
-                     (S (S (S (S (S (S (S (S (S (S (S (S (S (S (S (S (S (S (S
-                     (S (S (S (S (S (S (S (S (S (S (S (S (S (S (S (S (S (S (S
-                     (S (S (S (S (S (S (S (S (S (S (S (S (S (S (S (S (S (S (S
-                     (S (S (S (S (S (S (S (S (S (S (S (S (S (S (S (S (S (S (S
-                     (S (S (S (S (S (S (S (S (S (S (S (S (S (S (S (S (S (S (S
-                     (S (S (S (S (S (S (S (S (S (S (S (S (S (S (S (S (S (S (S
-                     (S (S (S (S (S (S (S (S (S (S (S (S (S (S (S (S (S (S (S
-                     (S (S (S (S (S (S (S (S (S (S (S (S (S (S (S (S (S (S (S
-                     (S (S (S (S (S (S (S (S (S (S (S (S (S (S (S (S (S (S (S
-                     (S (S (S (S (S (S (S (S (S (S (S (S (S (S (S (S (S (S (S
-                     (S (S (S (S (S (S (S (S (S (S (S (S (S (S (S (S (S (S (S
-                     (S (S (S (S (S (S (S (S (S (S (S (S (S (S (S (S (S (S (S
-                     (S (S (S (S (S (S (S (S (S (S (S (S (S (S (S (S (S (S (S
-                     (S (S (S (S (S (S (S (S (S (S (S (S (S (S (S (S (S (S (S
-                     (S (S (S (S (S (S (S (S (S (S (S (S (S (S (S (S (S (S (S
-                     (S (S (S (S (S (S (S (S (S (S (S (S (S (S (S (S (S (S (S
-                     (S (S (S (S (S (S (S (S (S (S (S (S (S (S (S (S (S (S (S
-                     (S (S (S (S (S (S (S (S (S (S (S (S (S (S (S (S (S (S (S
-                     (S (S (S (S (S (S (S (S (S (S (S (S (S (S (S (S (S (S (S
-                     (S (S (S (S (S (S (S (S (S (S (S (S (S (S (S (S (S (S (S
-                     (S (S (S (S (S (S (S (S (S (S (S (S (S (S (S (S (S (S (S
-                     (S (S (S (S (S (S (S (S (S (S (S (S (S (S (S (S (S (S (S
-                     (S (S (S (S (S (S (S (S (S (S (S (S (S (S (S (S (S (S (S
-                     (S (S (S (S (S (S (S (S (S (S (S (S (S (S (S (S (S (S (S
-                     (S (S (S (S (S (S (S (S (S (S (S (S (S (S (S (S (S (S (S
-                     (S (S (S (S (S (S (S (S (S (S (S (S (S (S (S (S (S (S (S
-                     (S (S (S (S (S (S (S (S (S (S (S (S (S (S (S (S (S (S (S
-                     (S (S (S (S (S (S (S (S (S (S (S (S (S (S (S (S (S (S (S
-                     (S (S (S (S (S (S (S (S (S (S (S (S (S (S (S (S (S (S (S
-                     (S (S (S (S (S (S (S (S (S (S (S (S (S (S (S (S (S (S (S
-                     (S (S (S (S (S (S (S (S (S (S (S (S (S (S (S (S (S (S (S
-                     (S (S (S (S (S (S (S (S (S (S (S (S (S (S (S (S (S (S (S
-                     (S (S (S (S (S (S (S (S (S (S (S (S (S (S (S (S (S (S (S
-                     (S (S (S (S (S (S (S (S (S (S (S (S (S (S (S (S (S (S (S
-                     (S (S (S (S (S (S (S (S (S (S (S (S (S (S (S (S (S (S (S
-                     (S (S (S (S (S (S (S (S (S (S (S (S (S (S (S (S (S (S (S
-                     (S (S (S (S (S (S (S (S (S (S (S (S (S (S (S (S (S (S (S
-                     (S (S (S (S (S (S (S (S (S (S (S (S (S (S (S (S (S (S (S
-                     (S (S (S (S (S (S (S (S (S (S (S (S (S (S (S (S (S (S (S
-                     (S (S (S (S (S (S (S (S (S (S (S (S (S (S (S (S (S (S (S
-                     (S (S (S (S (S (S (S (S (S (S (S (S (S (S (S (S (S (S (S
-                     (S (S (S (S (S (S (S (S (S (S (S (S (S (S (S (S (S (S (S
-                     (S (S (S (S (S (S (S (S (S (S (S (S (S (S (S (S (S (S (S
-                     (S (S (S (S (S (S (S (S (S (S (S (S (S (S (S (S (S (S (S
-                     (S (S (S (S (S (S (S (S (S (S (S (S (S (S (S (S (S (S (S
-                     (S (S (S (S (S (S (S (S (S (S (S (S (S (S (S (S (S (S (S
-                     (S (S (S (S (S (S (S (S (S (S (S (S (S (S (S (S (S (S (S
-                     (S (S (S (S (S (S (S (S (S (S (S (S (S (S (S (S (S (S (S
-                     (S (S (S (S (S (S (S (S (S (S (S (S (S (S (S (S (S (S (S
-                     (S (S (S (S (S (S (S (S (S (S (S (S (S (S (S (S (S (S (S
-                     (S (S (S (S (S (S (S (S (S (S (S (S (S (S (S (S (S (S (S
-                     (S (S (S (S (S (S (S (S (S (S (S (S (S (S (S (S (S (S (S
-                     (S (S (S (S (S (S (S (S (S (S (S (S (S (S (S (S (S (S (S
-                     (S (S (S (S (S (S (S (S (S (S (S (S (S (S (S (S (S (S (S
-                     (S (S (S (S (S (S (S (S (S (S (S (S (S (S (S (S (S (S (S
-                     (S (S (S (S (S (S (S (S (S (S (S (S (S (S (S (S (S (S (S
-                     (S (S (S (S (S (S (S (S (S (S (S (S (S (S (S (S (S (S (S
-                     (S (S (S (S (S (S (S (S (S (S (S (S (S (S (S (S (S (S (S
-                     (S (S (S (S (S (S (S (S (S (S (S (S (S (S (S (S (S (S (S
-                     (S (S (S (S (S (S (S (S (S (S (S (S (S (S (S (S (S (S (S
-                     (S (S (S (S (S (S (S (S (S (S (S (S (S (S (S (S (S (S (S
-                     (S (S (S (S (S (S (S (S (S (S (S (S (S (S (S (S (S (S (S
-                     (S (S (S (S (S (S (S (S (S (S (S (S (S (S (S (S (S (S (S
-                     (S (S (S (S (S (S (S (S (S (S (S (S (S (S (S (S (S (S (S
-                     (S (S (S (S (S (S (S (S (S (S (S (S (S (S (S (S (S (S (S
-                     (S (S (S (S (S (S (S (S (S (S (S (S (S (S (S (S (S (S (S
-                     (S (S (S (S (S (S (S (S (S (S (S (S (S (S (S (S (S (S (S
-                     (S (S (S (S (S (S (S (S (S (S (S (S (S (S (S (S (S (S (S
-                     (S (S (S (S (S (S (S (S (S (S (S (S (S (S (S (S (S (S (S
-                     (S (S (S (S (S (S (S (S (S (S (S (S (S (S (S (S (S (S (S
-                     (S (S (S (S (S (S (S (S (S (S (S (S (S (S (S (S (S (S (S
-                     (S (S (S (S (S (S (S (S (S (S (S (S (S (S (S (S (S (S (S
-                     (S (S (S (S (S (S (S (S (S (S (S (S (S (S (S (S (S (S (S
-                     (S (S (S (S (S (S (S (S (S (S (S (S (S (S (S (S (S (S (S
-                     (S (S (S (S (S (S (S (S (S (S (S (S (S (S (S (S (S (S (S
-                     (S (S (S (S (S (S (S (S (S (S (S (S (S (S (S (S (S (S (S
-                     (S (S (S (S (S (S (S (S (S (S (S (S (S (S (S
-                     O))))))))))))))))))))))))))))))))))))))))))))))))))))))))))))))))))))))))))))))))))))))))))))))))))))))))))))))))))))))))))))))))))))))))))))))))))))))))))))))))))))))))))))))))))))))))))))))))))))))))))))))))))))))))))))))))))))))))))))))))))))))))))))))))))))))))))))))))))))))))))))))))))))))))))))))))))))))))))))))))))))))))))))))))))))))))))))))))))))))))))))))))))))))))))))))))))))))))))))))))))))))))))))))))))))))))))))))))))))))))))))))))))))))))))))))))))))))))))))))))))))))))))))))))))))))))))))))))))))))))))))))))))))))))))))))))))))))))))))))))))))))))))))))))))))))))))))))))))))))))))))))))))))))))))))))))))))))))))))))))))))))))))))))))))))))))))))))))))))))))))))))))))))))))))))))))))))))))))))))))))))))))))))))))))))))))))))))))))))))))))))))))))))))))))))))))))))))))))))))))))))))))))))))))))))))))))))))))))))))))))))))))))))))))))))))))))))))))))))))))))))))))))))))))))))))))))))))))))))))))))))))))))))))))))))))))))))))))))))))))))))))))))))))))))))))))))))))))))))))))))))))))))))))))))))))))))))))))))))))))))))))))))))))))))))))))))))))))))))))))))))))))))))))))))))))))))))))))))))))))))))))))))))))))))))))))))))))))))))))))))))))))))))))))))))))))))))))))))))))))))))))))))))))))))))))))))))))))))))))))))))))))))))))))))))))))))))))))))))))))))))))))))))))))))))))))))))))))))))))))))))))))))))))))))))))))))))))))))))))))))))))))))))))))))))))))))))))))))))))))))))))))))))))))))))))))))))))))))))))))))))))))))))))))))))))))))))))))))))))))))))))))))))))))))))))))))))))))))))))))))))))))))))))))))))))))))))))))))))))))))))))))))))))))))))))))))))))))))))))))))))))))))))))))))))))))))))))))))))))))))))))))))))))))))))))))))))))))))))))))))))))))))))))))))))))))))))))))))))))))))))))))))))))))))))))))))))))))))))))))))))))))))))))))))))))))))))))))))))))))))))))))))))))))))))))))))))))))))))))))))))))))))))))))))))))))))))))))))))))))))))))))))))))))))))))))))))))))))))))))))))))))))))))))))))))))))))))))))))))))))))))))))))))))))))))))))))))))))))))))))))))))))))))))))))))))))))))))))))))))))))))))))))))))))))))))))))))))))))))))))))))))))))))))))))))))))))))))))))))))))))))))))))))))))))))))))))))))))))))))))))))))))))))))))))))))))))))))))))))))))))))))))))))))))))))))))))))))))))))))))))))))))))))))))))))))))))))))))))))))))))))))))))))))))))))))))))))))))))))))))))))))))))))))))))))))))))))))))))))))))))))))))))))))))))))))))))))))))))))))))))))))))))))))))))))))))))))))))))))))))))))))))))))))))))))))))))))))))))))))))))))))))))))))))))))))))))))))))))))))))))))))))))))))))))))))))))))))))))))))))))))))))))))))))))))))))))))))))))))))))))))))))))))))))))))))))))))))))))))))))))))))))))))))))))))))))))))))))))))))))))))))))))))))))))))))))))))))))))))))))))))))))))))))))))))))))))))))))))))))))))))))))))))))))))))))))))))))))))))))))))))))))))))))))))))))))))))))))))))))))))))))))))))))))))))))))))))))))))))))))))))))))))))))))))))))))))))))))))))))))))))))))))))))))))))))))))))))))))))))))))))))))))))))))))))))))))))))))))))))))))))))))))))))))))))))))))))))))))))))))))))))))))))))))))))))))))))))))))))))))))))))))))))))))))))))))))))))))))))))))))))))))))))))))))))))))))))))))))))))))))))))))))))))))))))))))))))))))))))))))))))))))))))))))))))))))))))))))))))))))))))))))))))))))))))))))))))))))))))))))))))))))))))))))))))))))))))))))))))))))))))))))))))))))))))))))))))))))))))))))))))))))))))))))))))))))))))))))))))))))))))))))))))))))))))))))))))))))))))))))))))))))))))))))))))))))))))))))))))))))))))))))))))))))))))))))))))))))))))))))))))))))))))))))))))))))))))))))))))))))))))))))))))))))))))))))))))))))))))))))))))))))))))))))))))))))))))))))))))))))))))))))))))))))))))))))))))))))))))))))))))))))))))))))))))))))))))))))))))))))))))))))))))))))))))))))))))))))))))))))))))))))))))))))))))))))))))))))))))))))))))))))))))))))))))))))))))))))))))))))))))))))))))))))))))))))))))))))))))))))))))))))))))))))))))))))))))))))))))))))))))))))))))))))))))))))))))))))))))))))))))))))))))))))))))))))))))))))))))))))))))))))))))))))))))))))))))))))))))))))))))))))))))))))))))))))))))))))))))))))))))))))))))))
-                     fuel first
-                 in
-                 let hdrblocks = Z.div (Z.sub (Z.add hDRLEN bS) (Zpos XH)) bS
-                 in
-                 let all =
-                   sort_ranges ((Z0, hdrblocks) :: (((Z.div bmoff bS),
-                     (Z.div bmlen bS)) :: occ))
-                 in
-                 let total =
-                   Z.min (Z.mul bmlen (Zpos (XO (XO (XO XH)))))
-                     (Z.div fsize bS)
-                 in
-                 app comps
-                   (app
-                     (match first_overlap all with
-                      | Some b -> (CBlocksOverlap b) :: []
-                      | None -> [])
-                     (app
-                       (if forallb (fun r ->
-                             Z.leb (Z.mul (Z.add (fst r) (snd r)) bS) fsize)
-                             all
-                        then []
-                        else (CBeyondFile Z0) :: [])
-                       (if ranges_disjoint all
-                        then firstn (S (S (S (S (S (S (S (S O))))))))
-                               (check_map rd bmoff Z0 total all)
-                        else [])))
+(** val after_effects : bytes -> bytes -> effect list -> bytes * bytes **)
+
+let after_effects log disk es =
+  fold_left apply_effect es (log, disk)
+
+(** val recovery_effects : bool -> bytes -> bytes -> effect list **)
+
+let recovery_effects ccrc log disk =
+  if Z.eqb (lenZ log) Z0
+  then []
+  else let (v, ops) = replay_ops ccrc (Zpos XH) Z0 log in
+       app (replay_effects (lenZ disk) ops)
+         (match v with
+          | VOk -> EMsync :: (ELogTruncate :: (ELogFsync :: []))
+          | _ -> [])
+
+(** val effect_sig : effect -> ((z * z) * z) * z **)
+
+let effect_sig = function
+| ELogAppend bs -> ((((Zpos XH), (Zpos XH)), (Zneg XH)), (lenZ bs))
+| ELogFsync -> ((((Zpos (XI (XO XH))), (Zpos XH)), Z0), Z0)
+| ELogTruncate -> ((((Zpos (XI XH)), (Zpos XH)), Z0), Z0)
+| EMainStore op ->
+  let (p, l) = aop_sig op in
+  let (k, o) = p in ((((Zpos (XO (XO (XO XH)))), k), o), l)
+| EMainResize n0 -> ((((Zpos (XO (XO XH))), (Zpos (XO XH))), n0), Z0)
+| EMsync -> ((((Zpos (XI (XI XH))), (Zpos (XO XH))), Z0), Z0)
+
+(** val lenB : bytes -> z **)
+
+let lenB l =
+  Z.of_nat (length l)
+
+(** val mk_image : bytes -> bytes -> bytes **)
+
+let mk_image main wal =
+  app main
+    (app wal
+      (app (le_enc (S (S (S (S (S (S (S (S O)))))))) (lenB main))
+        (le_enc (S (S (S (S O)))) iWKV_BACKUP_MAGIC)))
+
+(** val split_image : bytes -> (bytes * bytes) option **)
+
+let split_image img =
+  let fsz = lenB img in
+  if Z.ltb fsz wAL_PAGE_SIZE
+  then None
+  else if negb (Z.eqb (rd (S (S (S (S O)))) Z0 img) wAL_IWFSM_MAGICK)
+       then None
+       else if negb
+                 (Z.eqb
+                   (rd (S (S (S (S O)))) iWFSM_CUSTOM_HDR_DATA_OFFSET img)
+                   iWKV_MAGIC)
+            then None
+            else if negb
+                      (Z.eqb
+                        (rd (S (S (S (S O)))) (Z.sub fsz (Zpos (XO (XO XH))))
+                          img) iWKV_BACKUP_MAGIC)
+                 then None
+                 else let pos = Z.sub fsz (Zpos (XO (XO (XI XH)))) in
+                      let waloff =
+                        rd (S (S (S (S (S (S (S (S O)))))))) pos img
+                      in
+                      if (||)
+                           ((&&) (negb (Z.eqb waloff pos))
+                             (Z.gtb waloff (Z.sub pos sizeof_WBSEP)))
+                           (negb
+                             (Z.eqb
+                               (Z.coq_land waloff
+                                 (Z.sub wAL_PAGE_SIZE (Zpos XH))) Z0))
+                      then None
+                      else if (&&) (negb (Z.eqb waloff pos))
+                                (negb
+                                  (Z.eqb (nth (Z.to_nat waloff) img Z0)
+                                    wOP_SEP))
+                           then None
+                           else Some ((firstn (Z.to_nat waloff) img),
+                                  (firstn (Z.to_nat (Z.sub pos waloff))
+                                    (skipn (Z.to_nat waloff) img)))
+
+(** val open_image : bool -> bytes -> (verdict * bytes) * aop list **)
+
+let open_image ccrc img =
+  match split_image img with
+  | Some p -> let (main, wal) = p in recover ccrc (Zpos (XO XH)) Z0 wal main
+  | None -> ((VOk, img), [])
